@@ -9,757 +9,1405 @@ def errUnimplemented : Nat := 12
 def kinds : List (String × Nat) := [("KindInvoke", 1), ("KindMessage", 2), ("KindError", 3), ("KindCancel", 4), ("KindClose", 5), ("KindCloseSend", 6), ("KindInvokeMetadata", 7)]
 
 def fp_drpcwire_varint_ReadVarint : List String :=
-  ["=rem", "for", "=shift", "call:uint", "0", "<", "64", "+=", "7", "if", "==", "call:len", "0", 
-    "return", "0", "=val", "call:uint64", "index", "0", "=out", "=rem", "|", "<<", "&", "127", 
-    "slice", "1", "if", "<", "128", "return", "return", "0", "call:drpc.Error.New", "s:varint too long"]
+  ["=rem", "id:rem", "id:buf", "for", "=shift", "id:shift", "call:uint", "id:uint", "0", "<", 
+    "id:shift", "64", "+=", "id:shift", "7", "if", "==", "call:len", "id:len", "id:rem", "0", "return", 
+    "id:buf", "0", "id:false", "id:nil", "=val", "id:val", "call:uint64", "id:uint64", "index", 
+    "id:rem", "0", "=out", "=rem", "id:out", "id:rem", "|", "id:out", "<<", "&", "id:val", "127", 
+    "id:shift", "slice", "id:rem", "1", "if", "<", "id:val", "128", "return", "id:rem", "id:out", 
+    "id:true", "id:nil", "return", "id:rem", "0", "id:false", "call:drpc.Error.New", "id:drpc", 
+    "id:Error", "id:New", "s:varint too long"]
 def fp_drpcwire_varint_AppendVarint : List String :=
-  ["for", ">=", "128", "=buf", "call:append", "call:byte", "|", "&", "127", "128", ">>=", "7", 
-    "return", "call:append", "call:byte"]
+  ["for", ">=", "id:x", "128", "=buf", "id:buf", "call:append", "id:append", "id:buf", "call:byte", 
+    "id:byte", "|", "&", "id:x", "127", "128", ">>=", "id:x", "7", "return", "call:append", "id:append", 
+    "id:buf", "call:byte", "id:byte", "id:x"]
 def fp_drpcwire_packet_ParseFrame : List String :=
-  ["if", "<", "call:len", "4", "goto", "=rem", "=control", "slice", "1", "index", "0", "=fr.Done", 
-    ">", "&", "1", "0", "=fr.Control", ">", "&", "128", "0", "=fr.Kind", "call:Kind", ">>", "&", 
-    "126", "1", "=rem", "=fr.ID.Stream", "=ok", "=err", "call:ReadVarint", "if", "||", "u!", "!=", 
-    "goto", "=rem", "=fr.ID.Message", "=ok", "=err", "call:ReadVarint", "if", "||", "u!", "!=", 
-    "goto", "=rem", "=length", "=ok", "=err", "call:ReadVarint", "if", "||", "||", "u!", "!=", 
-    ">", "call:uint64", "call:len", "goto", "=rem", "=fr.Data", "slice", "slice", "return", "return"]
+  ["id:length", "id:uint64", "id:control", "id:byte", "if", "<", "call:len", "id:len", "id:buf", 
+    "4", "goto", "id:bad", "=rem", "=control", "id:rem", "id:control", "slice", "id:buf", "1", 
+    "index", "id:buf", "0", "=fr.Done", "id:fr", "id:Done", ">", "&", "id:control", "1", "0", "=fr.Control", 
+    "id:fr", "id:Control", ">", "&", "id:control", "128", "0", "=fr.Kind", "id:fr", "id:Kind", 
+    "call:Kind", "id:Kind", ">>", "&", "id:control", "126", "1", "=rem", "=fr.ID.Stream", "=ok", 
+    "=err", "id:rem", "id:fr", "id:ID", "id:Stream", "id:ok", "id:err", "call:ReadVarint", "id:ReadVarint", 
+    "id:rem", "if", "||", "u!", "id:ok", "!=", "id:err", "id:nil", "goto", "id:bad", "=rem", "=fr.ID.Message", 
+    "=ok", "=err", "id:rem", "id:fr", "id:ID", "id:Message", "id:ok", "id:err", "call:ReadVarint", 
+    "id:ReadVarint", "id:rem", "if", "||", "u!", "id:ok", "!=", "id:err", "id:nil", "goto", "id:bad", 
+    "=rem", "=length", "=ok", "=err", "id:rem", "id:length", "id:ok", "id:err", "call:ReadVarint", 
+    "id:ReadVarint", "id:rem", "if", "||", "||", "u!", "id:ok", "!=", "id:err", "id:nil", ">", 
+    "id:length", "call:uint64", "id:uint64", "call:len", "id:len", "id:rem", "goto", "id:bad", 
+    "=rem", "=fr.Data", "id:rem", "id:fr", "id:Data", "slice", "id:rem", "id:length", "slice", 
+    "id:rem", "id:length", "return", "id:rem", "id:fr", "id:true", "id:nil", "id:bad", "return", 
+    "id:buf", "id:fr", "id:false", "id:err"]
 def fp_drpcwire_packet_AppendFrame : List String :=
-  ["=control", "call:byte", "<<", "1", "if", "|=", "1", "if", "|=", "128", "=out", "=out", "call:append", 
-    "=out", "call:AppendVarint", "=out", "call:AppendVarint", "=out", "call:AppendVarint", "call:uint64", 
-    "call:len", "=out", "call:append", "return"]
+  ["=control", "id:control", "call:byte", "id:byte", "<<", "id:fr", "id:Kind", "1", "if", "id:fr", 
+    "id:Done", "|=", "id:control", "1", "if", "id:fr", "id:Control", "|=", "id:control", "128", 
+    "=out", "id:out", "id:buf", "=out", "id:out", "call:append", "id:append", "id:out", "id:control", 
+    "=out", "id:out", "call:AppendVarint", "id:AppendVarint", "id:out", "id:fr", "id:ID", "id:Stream", 
+    "=out", "id:out", "call:AppendVarint", "id:AppendVarint", "id:out", "id:fr", "id:ID", "id:Message", 
+    "=out", "id:out", "call:AppendVarint", "id:AppendVarint", "id:out", "call:uint64", "id:uint64", 
+    "call:len", "id:len", "id:fr", "id:Data", "=out", "id:out", "call:append", "id:append", "id:out", 
+    "id:fr", "id:Data", "return", "id:out"]
 def fp_drpcwire_packet_ID_Less : List String :=
-  ["return", "||", "<", "&&", "==", "<"]
+  ["return", "||", "<", "id:i", "id:Stream", "id:j", "id:Stream", "&&", "==", "id:i", "id:Stream", 
+    "id:j", "id:Stream", "<", "id:i", "id:Message", "id:j", "id:Message"]
 def fp_drpcwire_split_SplitN : List String :=
-  ["for", "=fr", "=fr.Data", "=pkt.Data", "call:SplitData", "=fr.Done", "==", "call:len", "0", 
-    "if", "=err", "call:cb", "!=", "return", "if", "return"]
+  ["for", "=fr", "id:fr", "id:Frame", "id:Data", "id:pkt", "id:Data", "id:ID", "id:pkt", "id:ID", 
+    "id:Kind", "id:pkt", "id:Kind", "id:Control", "id:pkt", "id:Control", "id:Done", "id:true", 
+    "=fr.Data", "=pkt.Data", "id:fr", "id:Data", "id:pkt", "id:Data", "call:SplitData", "id:SplitData", 
+    "id:pkt", "id:Data", "id:n", "=fr.Done", "id:fr", "id:Done", "==", "call:len", "id:len", "id:pkt", 
+    "id:Data", "0", "if", "=err", "id:err", "call:cb", "id:cb", "id:fr", "!=", "id:err", "id:nil", 
+    "return", "id:err", "if", "id:fr", "id:Done", "return", "id:nil"]
 def fp_drpcwire_split_SplitData : List String :=
-  ["switch", "case", "==", "0", "=n", "*", "64", "1024", "case", "<", "0", "=n", "0", "if", "&&", 
-    ">", "call:len", ">", "0", "return", "slice", "slice", "return"]
+  ["switch", "case", "==", "id:n", "0", "=n", "id:n", "*", "64", "1024", "case", "<", "id:n", 
+    "0", "=n", "id:n", "0", "if", "&&", ">", "call:len", "id:len", "id:buf", "id:n", ">", "id:n", 
+    "0", "return", "slice", "id:buf", "id:n", "slice", "id:buf", "id:n", "return", "id:buf", "id:nil"]
 def fp_drpcwire_reader_NewReaderWithOptions : List String :=
-  ["if", "==", "0", "=opts.MaximumBufferSize", "<<", "4", "20", "return", "u&", "call:make", "0", 
-    "4096", "1", "1"]
+  ["if", "==", "id:opts", "id:MaximumBufferSize", "0", "=opts.MaximumBufferSize", "id:opts", "id:MaximumBufferSize", 
+    "<<", "4", "20", "return", "u&", "id:Reader", "id:opts", "id:opts", "id:r", "id:r", "id:curr", 
+    "call:make", "id:make", "id:byte", "0", "4096", "id:id", "id:ID", "id:Stream", "1", "id:Message", 
+    "1"]
 def fp_drpcwire_reader_Reader_read : List String :=
-  ["for", "=i", "0", "<", "100", "++", "if", "!=", "=r.rerr", "=err", "return", "0", "=n", "=r.rerr", 
-    "call:r.r.Read", "if", ">", "0", "return", "return", "0", "call:drpc.InternalError.Wrap"]
+  ["for", "=i", "id:i", "0", "<", "id:i", "100", "++", "id:i", "if", "!=", "id:r", "id:rerr", 
+    "id:nil", "=r.rerr", "=err", "id:r", "id:rerr", "id:err", "id:nil", "id:r", "id:rerr", "return", 
+    "0", "id:err", "=n", "=r.rerr", "id:n", "id:r", "id:rerr", "call:r.r.Read", "id:r", "id:r", 
+    "id:Read", "id:p", "if", ">", "id:n", "0", "return", "id:n", "id:nil", "return", "0", "call:drpc.InternalError.Wrap", 
+    "id:drpc", "id:InternalError", "id:Wrap", "id:io", "id:ErrNoProgress"]
 def fp_drpcwire_reader_Reader_ReadPacketUsing : List String :=
-  ["=pkt.Data", "slice", "0", "for", "=r.curr", "=fr", "=ok", "=err", "call:ParseFrame", "switch", 
-    "case", "!=", "return", "call:drpc.ProtocolError.Wrap", "case", "u!", "if", ">", "-", "call:len", 
-    "maxFrameOverhead=31", "return", "call:drpc.ProtocolError.New", "s:data overflow", "if", "==", 
-    "call:len", "0", "=r.buf", "call:append", "slice", "0", "if", "<", "-", "call:cap", "call:len", 
-    "4096", "=nbuf", "call:make", "call:len", "+", "*", "2", "call:cap", "4096", "call:copy", "=r.buf", 
-    "=n", "=err", "call:r.read", "slice", "call:len", "call:cap", "if", "!=", "return", "=ncap", 
-    "call:uint", "+", "call:len", "if", ">", "call:uint", "call:cap", "return", "call:drpc.ProtocolError.New", 
-    "s:data overflow", "=r.buf", "slice", "=r.curr", "continue", "if", ">", "call:len", "0", "=r.buf", 
-    "slice", "0", "=pkt.Control", "||", "switch", "case", "call:fr.ID.Less", "return", "call:drpc.ProtocolError.New", 
-    "s:id monotonicity violation (fr:%v r:%v)", "case", "||", "!=", "==", "=r.id", "=pkt", "slice", 
-    "0", "case", "!=", "return", "call:drpc.ProtocolError.New", "s:packet kind change (fr:%v pkt:%v)", 
-    "=pkt.Data", "call:append", "switch", "case", ">", "call:len", "return", "call:drpc.ProtocolError.New", 
-    "s:data overflow (len:%v)", "call:len", "case", "++", "return"]
+  ["=pkt.Data", "id:pkt", "id:Data", "slice", "id:buf", "0", "id:fr", "id:Frame", "id:ok", "id:bool", 
+    "for", "=r.curr", "=fr", "=ok", "=err", "id:r", "id:curr", "id:fr", "id:ok", "id:err", "call:ParseFrame", 
+    "id:ParseFrame", "id:r", "id:curr", "switch", "case", "!=", "id:err", "id:nil", "return", "id:Packet", 
+    "call:drpc.ProtocolError.Wrap", "id:drpc", "id:ProtocolError", "id:Wrap", "id:err", "case", 
+    "u!", "id:ok", "if", ">", "-", "call:len", "id:len", "id:r", "id:curr", "maxFrameOverhead=31", 
+    "id:maxFrameOverhead", "id:r", "id:opts", "id:MaximumBufferSize", "return", "id:Packet", "call:drpc.ProtocolError.New", 
+    "id:drpc", "id:ProtocolError", "id:New", "s:data overflow", "if", "==", "call:len", "id:len", 
+    "id:r", "id:buf", "0", "=r.buf", "id:r", "id:buf", "call:append", "id:append", "slice", "id:r", 
+    "id:buf", "0", "id:r", "id:curr", "if", "<", "-", "call:cap", "id:cap", "id:r", "id:buf", "call:len", 
+    "id:len", "id:r", "id:buf", "4096", "=nbuf", "id:nbuf", "call:make", "id:make", "id:byte", 
+    "call:len", "id:len", "id:r", "id:buf", "+", "*", "2", "call:cap", "id:cap", "id:r", "id:buf", 
+    "4096", "call:copy", "id:copy", "id:nbuf", "id:r", "id:buf", "=r.buf", "id:r", "id:buf", "id:nbuf", 
+    "=n", "=err", "id:n", "id:err", "call:r.read", "id:r", "id:read", "slice", "id:r", "id:buf", 
+    "call:len", "id:len", "id:r", "id:buf", "call:cap", "id:cap", "id:r", "id:buf", "if", "!=", 
+    "id:err", "id:nil", "return", "id:Packet", "id:err", "=ncap", "id:ncap", "call:uint", "id:uint", 
+    "+", "call:len", "id:len", "id:r", "id:buf", "id:n", "if", ">", "id:ncap", "call:uint", "id:uint", 
+    "call:cap", "id:cap", "id:r", "id:buf", "return", "id:Packet", "call:drpc.ProtocolError.New", 
+    "id:drpc", "id:ProtocolError", "id:New", "s:data overflow", "=r.buf", "id:r", "id:buf", "slice", 
+    "id:r", "id:buf", "id:ncap", "=r.curr", "id:r", "id:curr", "id:r", "id:buf", "continue", "if", 
+    ">", "call:len", "id:len", "id:r", "id:buf", "0", "=r.buf", "id:r", "id:buf", "slice", "id:r", 
+    "id:buf", "0", "=pkt.Control", "id:pkt", "id:Control", "||", "id:pkt", "id:Control", "id:fr", 
+    "id:Control", "switch", "case", "call:fr.ID.Less", "id:fr", "id:ID", "id:Less", "id:r", "id:id", 
+    "return", "id:Packet", "call:drpc.ProtocolError.New", "id:drpc", "id:ProtocolError", "id:New", 
+    "s:id monotonicity violation (fr:%v r:%v)", "id:fr", "id:ID", "id:r", "id:id", "case", "||", 
+    "!=", "id:r", "id:id", "id:fr", "id:ID", "==", "id:pkt", "id:ID", "id:ID", "=r.id", "id:r", 
+    "id:id", "id:fr", "id:ID", "=pkt", "id:pkt", "id:Packet", "id:Data", "slice", "id:pkt", "id:Data", 
+    "0", "id:ID", "id:fr", "id:ID", "id:Kind", "id:fr", "id:Kind", "id:Control", "id:fr", "id:Control", 
+    "case", "!=", "id:fr", "id:Kind", "id:pkt", "id:Kind", "return", "id:Packet", "call:drpc.ProtocolError.New", 
+    "id:drpc", "id:ProtocolError", "id:New", "s:packet kind change (fr:%v pkt:%v)", "id:fr", "id:Kind", 
+    "id:pkt", "id:Kind", "=pkt.Data", "id:pkt", "id:Data", "call:append", "id:append", "id:pkt", 
+    "id:Data", "id:fr", "id:Data", "switch", "case", ">", "call:len", "id:len", "id:pkt", "id:Data", 
+    "id:r", "id:opts", "id:MaximumBufferSize", "return", "id:Packet", "call:drpc.ProtocolError.New", 
+    "id:drpc", "id:ProtocolError", "id:New", "s:data overflow (len:%v)", "call:len", "id:len", 
+    "id:pkt", "id:Data", "case", "id:fr", "id:Done", "++", "id:r", "id:id", "id:Message", "return", 
+    "id:pkt", "id:nil"]
 def fp_drpcwire_writer_NewWriter : List String :=
-  ["if", "==", "0", "=size", "*", "4", "1024", "return", "u&", "call:make", "0"]
+  ["if", "==", "id:size", "0", "=size", "id:size", "*", "4", "1024", "return", "u&", "id:Writer", 
+    "id:w", "id:w", "id:size", "id:size", "id:buf", "call:make", "id:make", "id:byte", "0", "id:size"]
 def fp_drpcwire_writer_Writer_WriteFrame : List String :=
-  ["call:b.mu.Lock", "defer", "call:b.mu.Unlock", "if", "==", "call:len", "0", "call:atomic.StoreUint32", 
-    "u&", "1", "=b.buf", "call:AppendFrame", "if", ">=", "call:len", "call:b.log", "s:FLUSH", "return", 
-    "call:fmt.Sprintf", "s:buffer: %d > %d", "call:len", "=_", "=err", "call:b.w.Write", "=b.buf", 
-    "slice", "0", "call:atomic.StoreUint32", "u&", "0", "return"]
+  ["call:b.mu.Lock", "id:b", "id:mu", "id:Lock", "defer", "call:b.mu.Unlock", "id:b", "id:mu", 
+    "id:Unlock", "if", "==", "call:len", "id:len", "id:b", "id:buf", "0", "call:atomic.StoreUint32", 
+    "id:atomic", "id:StoreUint32", "u&", "id:b", "id:empty", "1", "=b.buf", "id:b", "id:buf", "call:AppendFrame", 
+    "id:AppendFrame", "id:b", "id:buf", "id:fr", "if", ">=", "call:len", "id:len", "id:b", "id:buf", 
+    "id:b", "id:size", "call:b.log", "id:b", "id:log", "s:FLUSH", "id:string", "return", "call:fmt.Sprintf", 
+    "id:fmt", "id:Sprintf", "s:buffer: %d > %d", "call:len", "id:len", "id:b", "id:buf", "id:b", 
+    "id:size", "=_", "=err", "id:_", "id:err", "call:b.w.Write", "id:b", "id:w", "id:Write", "id:b", 
+    "id:buf", "=b.buf", "id:b", "id:buf", "slice", "id:b", "id:buf", "0", "call:atomic.StoreUint32", 
+    "id:atomic", "id:StoreUint32", "u&", "id:b", "id:empty", "0", "return", "id:err"]
 def fp_drpcwire_writer_Writer_Flush : List String :=
-  ["call:b.mu.Lock", "defer", "call:b.mu.Unlock", "if", ">", "call:len", "0", "=_", "=err", "call:b.w.Write", 
-    "call:b.log", "s:FLUSH", "return", "call:fmt.Sprintf", "s:explicit: %d", "call:len", "=b.buf", 
-    "slice", "0", "call:atomic.StoreUint32", "u&", "0", "return"]
+  ["call:b.mu.Lock", "id:b", "id:mu", "id:Lock", "defer", "call:b.mu.Unlock", "id:b", "id:mu", 
+    "id:Unlock", "if", ">", "call:len", "id:len", "id:b", "id:buf", "0", "=_", "=err", "id:_", 
+    "id:err", "call:b.w.Write", "id:b", "id:w", "id:Write", "id:b", "id:buf", "call:b.log", "id:b", 
+    "id:log", "s:FLUSH", "id:string", "return", "call:fmt.Sprintf", "id:fmt", "id:Sprintf", "s:explicit: %d", 
+    "call:len", "id:len", "id:b", "id:buf", "=b.buf", "id:b", "id:buf", "slice", "id:b", "id:buf", 
+    "0", "call:atomic.StoreUint32", "id:atomic", "id:StoreUint32", "u&", "id:b", "id:empty", "0", 
+    "return", "id:err"]
 def fp_drpcwire_writer_Writer_Reset : List String :=
-  ["call:b.mu.Lock", "defer", "call:b.mu.Unlock", "=b.buf", "slice", "0", "call:atomic.StoreUint32", 
-    "u&", "0", "return"]
+  ["call:b.mu.Lock", "id:b", "id:mu", "id:Lock", "defer", "call:b.mu.Unlock", "id:b", "id:mu", 
+    "id:Unlock", "=b.buf", "id:b", "id:buf", "slice", "id:b", "id:buf", "0", "call:atomic.StoreUint32", 
+    "id:atomic", "id:StoreUint32", "u&", "id:b", "id:empty", "0", "return", "id:b"]
 def fp_drpcwire_writer_Writer_Empty : List String :=
-  ["return", "==", "call:atomic.LoadUint32", "u&", "0"]
+  ["return", "==", "call:atomic.LoadUint32", "id:atomic", "id:LoadUint32", "u&", "id:b", "id:empty", 
+    "0"]
 def fp_drpcwire_writer_Writer_WritePacket : List String :=
-  ["return", "call:b.WriteFrame"]
+  ["return", "call:b.WriteFrame", "id:b", "id:WriteFrame", "id:Frame", "id:Data", "id:pkt", "id:Data", 
+    "id:ID", "id:pkt", "id:ID", "id:Kind", "id:pkt", "id:Kind", "id:Control", "id:pkt", "id:Control", 
+    "id:Done", "id:true"]
 def fp_drpcwire_error_MarshalError : List String :=
-  ["8", "call:binary.BigEndian.PutUint64", "slice", "call:drpcerr.Code", "return", "call:append", 
-    "slice", "call:err.Error"]
+  ["id:buf", "8", "id:byte", "call:binary.BigEndian.PutUint64", "id:binary", "id:BigEndian", "id:PutUint64", 
+    "slice", "id:buf", "call:drpcerr.Code", "id:drpcerr", "id:Code", "id:err", "return", "call:append", 
+    "id:append", "slice", "id:buf", "call:err.Error", "id:err", "id:Error"]
 def fp_drpcwire_error_UnmarshalError : List String :=
-  ["if", "<", "call:len", "8", "return", "call:errs.New", "s:%s (drpcwire note: invalid error data)", 
-    "return", "call:drpcerr.WithCode", "call:errs.New", "s:%s", "slice", "8", "call:binary.BigEndian.Uint64", 
-    "slice", "8"]
+  ["if", "<", "call:len", "id:len", "id:data", "8", "return", "call:errs.New", "id:errs", "id:New", 
+    "s:%s (drpcwire note: invalid error data)", "id:data", "return", "call:drpcerr.WithCode", "id:drpcerr", 
+    "id:WithCode", "call:errs.New", "id:errs", "id:New", "s:%s", "slice", "id:data", "8", "call:binary.BigEndian.Uint64", 
+    "id:binary", "id:BigEndian", "id:Uint64", "slice", "id:data", "8"]
 def fp_drpcerr_err_Code : List String :=
-  ["for", "=i", "0", "<", "100", "++", "=prev", "switch", "=v", "case", "return", "call:v.Code", 
-    "case", "=err", "call:v.Cause", "case", "=err", "call:v.Unwrap", "default", "return", "0", 
-    "if", "call:shallowEqual", "return", "0", "return", "0"]
+  ["for", "=i", "id:i", "0", "<", "id:i", "100", "++", "id:i", "=prev", "id:prev", "id:err", "switch", 
+    "=v", "id:v", "id:err", "case", "id:Code", "id:uint64", "return", "call:v.Code", "id:v", "id:Code", 
+    "case", "id:Cause", "id:error", "=err", "id:err", "call:v.Cause", "id:v", "id:Cause", "case", 
+    "id:Unwrap", "id:error", "=err", "id:err", "call:v.Unwrap", "id:v", "id:Unwrap", "default", 
+    "return", "0", "if", "call:shallowEqual", "id:shallowEqual", "id:err", "id:prev", "return", 
+    "0", "return", "0"]
 def fp_drpcerr_err_WithCode : List String :=
-  ["if", "||", "==", "==", "0", "return", "return", "u&"]
+  ["if", "||", "==", "id:err", "id:nil", "==", "id:code", "0", "return", "id:err", "return", "u&", 
+    "id:codeErr", "id:err", "id:err", "id:code", "id:code"]
 def fp_drpcmetadata_serialize_varintSize : List String :=
-  ["return", "/", "+", "*", "9", "call:uint64", "call:bits.Len64", "64", "64"]
+  ["return", "/", "+", "*", "9", "call:uint64", "id:uint64", "call:bits.Len64", "id:bits", "id:Len64", 
+    "id:n", "64", "64"]
 def fp_drpcmetadata_serialize_encodedStringSize : List String :=
-  ["return", "+", "+", "1", "call:varintSize", "call:uint64", "call:len", "call:uint64", "call:len"]
+  ["return", "+", "+", "1", "call:varintSize", "id:varintSize", "call:uint64", "id:uint64", "call:len", 
+    "id:len", "id:x", "call:uint64", "id:uint64", "call:len", "id:len", "id:x"]
 def fp_drpcmetadata_serialize_appendEntry : List String :=
-  ["=buf", "call:append", "10", "=buf", "call:drpcwire.AppendVarint", "+", "call:encodedStringSize", 
-    "call:encodedStringSize", "=buf", "call:append", "10", "=buf", "call:drpcwire.AppendVarint", 
-    "call:uint64", "call:len", "=buf", "call:append", "=buf", "call:append", "18", "=buf", "call:drpcwire.AppendVarint", 
-    "call:uint64", "call:len", "=buf", "call:append", "return"]
+  ["=buf", "id:buf", "call:append", "id:append", "id:buf", "10", "=buf", "id:buf", "call:drpcwire.AppendVarint", 
+    "id:drpcwire", "id:AppendVarint", "id:buf", "+", "call:encodedStringSize", "id:encodedStringSize", 
+    "id:key", "call:encodedStringSize", "id:encodedStringSize", "id:value", "=buf", "id:buf", "call:append", 
+    "id:append", "id:buf", "10", "=buf", "id:buf", "call:drpcwire.AppendVarint", "id:drpcwire", 
+    "id:AppendVarint", "id:buf", "call:uint64", "id:uint64", "call:len", "id:len", "id:key", "=buf", 
+    "id:buf", "call:append", "id:append", "id:buf", "id:key", "=buf", "id:buf", "call:append", 
+    "id:append", "id:buf", "18", "=buf", "id:buf", "call:drpcwire.AppendVarint", "id:drpcwire", 
+    "id:AppendVarint", "id:buf", "call:uint64", "id:uint64", "call:len", "id:len", "id:value", 
+    "=buf", "id:buf", "call:append", "id:append", "id:buf", "id:value", "return", "id:buf"]
 def fp_drpcmetadata_serialize_readEntry : List String :=
-  ["if", "||", "<", "call:len", "1", "!=", "index", "0", "10", "goto", "=buf", "=length", "=ok", 
-    "=err", "call:drpcwire.ReadVarint", "slice", "1", "if", "||", "||", "u!", "!=", ">", "call:uint64", 
-    "call:len", "goto", "=key", "=value", "=ok", "=err", "call:readKeyValue", "slice", "if", "||", 
-    "u!", "!=", "goto", "return", "slice", "return"]
+  ["id:length", "id:uint64", "if", "||", "<", "call:len", "id:len", "id:buf", "1", "!=", "index", 
+    "id:buf", "0", "10", "goto", "id:bad", "=buf", "=length", "=ok", "=err", "id:buf", "id:length", 
+    "id:ok", "id:err", "call:drpcwire.ReadVarint", "id:drpcwire", "id:ReadVarint", "slice", "id:buf", 
+    "1", "if", "||", "||", "u!", "id:ok", "!=", "id:err", "id:nil", ">", "id:length", "call:uint64", 
+    "id:uint64", "call:len", "id:len", "id:buf", "goto", "id:bad", "=key", "=value", "=ok", "=err", 
+    "id:key", "id:value", "id:ok", "id:err", "call:readKeyValue", "id:readKeyValue", "slice", "id:buf", 
+    "id:length", "if", "||", "u!", "id:ok", "!=", "id:err", "id:nil", "goto", "id:bad", "return", 
+    "slice", "id:buf", "id:length", "id:key", "id:value", "id:true", "id:nil", "id:bad", "return", 
+    "id:nil", "id:nil", "id:nil", "id:false", "id:err"]
 def fp_drpcmetadata_serialize_readKeyValue : List String :=
-  ["if", "||", "<", "call:len", "1", "!=", "index", "0", "10", "goto", "=buf", "=length", "=ok", 
-    "=err", "call:drpcwire.ReadVarint", "slice", "1", "if", "||", "||", "u!", "!=", ">", "call:uint64", 
-    "call:len", "goto", "=buf", "=key", "slice", "slice", "if", "||", "<", "call:len", "1", "!=", 
-    "index", "0", "18", "goto", "=buf", "=length", "=ok", "=err", "call:drpcwire.ReadVarint", "slice", 
-    "1", "if", "||", "||", "u!", "!=", ">", "call:uint64", "call:len", "goto", "=buf", "=value", 
-    "slice", "slice", "if", "!=", "call:len", "0", "goto", "return", "return"]
+  ["id:length", "id:uint64", "if", "||", "<", "call:len", "id:len", "id:buf", "1", "!=", "index", 
+    "id:buf", "0", "10", "goto", "id:bad", "=buf", "=length", "=ok", "=err", "id:buf", "id:length", 
+    "id:ok", "id:err", "call:drpcwire.ReadVarint", "id:drpcwire", "id:ReadVarint", "slice", "id:buf", 
+    "1", "if", "||", "||", "u!", "id:ok", "!=", "id:err", "id:nil", ">", "id:length", "call:uint64", 
+    "id:uint64", "call:len", "id:len", "id:buf", "goto", "id:bad", "=buf", "=key", "id:buf", "id:key", 
+    "slice", "id:buf", "id:length", "slice", "id:buf", "id:length", "if", "||", "<", "call:len", 
+    "id:len", "id:buf", "1", "!=", "index", "id:buf", "0", "18", "goto", "id:bad", "=buf", "=length", 
+    "=ok", "=err", "id:buf", "id:length", "id:ok", "id:err", "call:drpcwire.ReadVarint", "id:drpcwire", 
+    "id:ReadVarint", "slice", "id:buf", "1", "if", "||", "||", "u!", "id:ok", "!=", "id:err", "id:nil", 
+    ">", "id:length", "call:uint64", "id:uint64", "call:len", "id:len", "id:buf", "goto", "id:bad", 
+    "=buf", "=value", "id:buf", "id:value", "slice", "id:buf", "id:length", "slice", "id:buf", 
+    "id:length", "if", "!=", "call:len", "id:len", "id:buf", "0", "goto", "id:bad", "return", "id:key", 
+    "id:value", "id:true", "id:nil", "id:bad", "return", "id:nil", "id:nil", "id:false", "id:err"]
 def fp_drpcmetadata_metadata_Encode : List String :=
-  ["for", "=buf", "call:appendEntry", "return"]
+  ["for", "id:key", "id:value", "id:metadata", "=buf", "id:buf", "call:appendEntry", "id:appendEntry", 
+    "id:buf", "id:key", "id:value", "return", "id:buf", "id:nil"]
 def fp_drpcmetadata_metadata_Decode : List String :=
-  ["for", ">", "call:len", "0", "=buf", "=key", "=value", "=ok", "=err", "call:readEntry", "if", 
-    "!=", "return", "if", "u!", "return", "call:errs.New", "s:invalid data", "if", "==", "=out", 
-    "call:make", "=out", "index", "call:string", "call:string", "return"]
+  ["id:out", "id:string", "id:string", "id:key", "id:value", "id:byte", "id:ok", "id:bool", "id:err", 
+    "id:error", "for", ">", "call:len", "id:len", "id:buf", "0", "=buf", "=key", "=value", "=ok", 
+    "=err", "id:buf", "id:key", "id:value", "id:ok", "id:err", "call:readEntry", "id:readEntry", 
+    "id:buf", "if", "!=", "id:err", "id:nil", "return", "id:nil", "id:err", "if", "u!", "id:ok", 
+    "return", "id:nil", "call:errs.New", "id:errs", "id:New", "s:invalid data", "if", "==", "id:out", 
+    "id:nil", "=out", "id:out", "call:make", "id:make", "id:string", "id:string", "=out", "index", 
+    "id:out", "call:string", "id:string", "id:key", "call:string", "id:string", "id:value", "return", 
+    "id:out", "id:nil"]
 def fp_drpchttp_context_buildContext : List String :=
-  ["for", "=index", "call:strings.IndexByte", "61", "if", ">=", "0", "=value", "=err", "call:unescape", 
-    "slice", "+", "1", "if", "!=", "return", "=entry", "slice", "=key", "=err", "call:unescape", 
-    "if", "!=", "return", "=ctx", "call:drpcmetadata.Add", "return"]
+  ["for", "id:_", "id:entry", "id:entries", "id:key", "id:value", "id:string", "id:err", "id:error", 
+    "=index", "id:index", "call:strings.IndexByte", "id:strings", "id:IndexByte", "id:entry", "61", 
+    "if", ">=", "id:index", "0", "=value", "=err", "id:value", "id:err", "call:unescape", "id:unescape", 
+    "slice", "id:entry", "+", "id:index", "1", "if", "!=", "id:err", "id:nil", "return", "id:nil", 
+    "id:err", "=entry", "id:entry", "slice", "id:entry", "id:index", "=key", "=err", "id:key", 
+    "id:err", "call:unescape", "id:unescape", "id:entry", "if", "!=", "id:err", "id:nil", "return", 
+    "id:nil", "id:err", "=ctx", "id:ctx", "call:drpcmetadata.Add", "id:drpcmetadata", "id:Add", 
+    "id:ctx", "id:key", "id:value", "return", "id:ctx", "id:nil"]
 def fp_drpchttp_context_unhex : List String :=
-  ["switch", "case", "&&", "<=", "48", "<=", "57", "=d", "-", "48", "case", "&&", "<=", "97", 
-    "<=", "102", "=d", "+", "-", "97", "10", "case", "&&", "<=", "65", "<=", "70", "=d", "+", "-", 
-    "65", "10", "default", "return", "0", "return", "+", "*"]
+  ["switch", "case", "&&", "<=", "48", "id:v", "<=", "id:v", "57", "=d", "id:d", "-", "id:v", 
+    "48", "case", "&&", "<=", "97", "id:v", "<=", "id:v", "102", "=d", "id:d", "+", "-", "id:v", 
+    "97", "10", "case", "&&", "<=", "65", "id:v", "<=", "id:v", "70", "=d", "id:d", "+", "-", "id:v", 
+    "65", "10", "default", "return", "0", "id:false", "return", "+", "id:c", "*", "id:d", "id:m", 
+    "id:true"]
 def fp_drpchttp_context_unescape : List String :=
-  ["=count", "call:strings.Count", "s:%", "if", "==", "0", "return", "if", "=n", "-", "call:len", 
-    "*", "2", ">", "0", "call:t.Grow", "for", "=i", "call:uint", "0", "<", "call:uint", "call:len", 
-    "++", "switch", "index", "case", "37", "if", ">=", "+", "2", "call:uint", "call:len", "return", 
-    "s:", "call:errs.New", "s:error unescaping %q: sequence ends", "=c", "=ok", "call:unhex", "0", 
-    "index", "+", "1", "16", "if", "u!", "return", "s:", "call:errs.New", "s:error unescaping %q: invalid hex digit", 
-    "=c", "=ok", "call:unhex", "index", "+", "2", "1", "if", "u!", "return", "s:", "call:errs.New", 
-    "s:error unescaping %q: invalid hex digit", "=_", "call:t.WriteByte", "+=", "2", "default", 
-    "=_", "call:t.WriteByte", "index", "return", "call:t.String"]
+  ["=count", "id:count", "call:strings.Count", "id:strings", "id:Count", "id:s", "s:%", "if", 
+    "==", "id:count", "0", "return", "id:s", "id:nil", "id:t", "id:strings", "id:Builder", "if", 
+    "=n", "id:n", "-", "call:len", "id:len", "id:s", "*", "2", "id:count", ">", "id:n", "0", "call:t.Grow", 
+    "id:t", "id:Grow", "id:n", "for", "=i", "id:i", "call:uint", "id:uint", "0", "<", "id:i", "call:uint", 
+    "id:uint", "call:len", "id:len", "id:s", "++", "id:i", "switch", "index", "id:s", "id:i", "case", 
+    "37", "if", ">=", "+", "id:i", "2", "call:uint", "id:uint", "call:len", "id:len", "id:s", "return", 
+    "s:", "call:errs.New", "id:errs", "id:New", "s:error unescaping %q: sequence ends", "id:s", 
+    "=c", "=ok", "id:c", "id:ok", "call:unhex", "id:unhex", "0", "index", "id:s", "+", "id:i", 
+    "1", "16", "if", "u!", "id:ok", "return", "s:", "call:errs.New", "id:errs", "id:New", "s:error unescaping %q: invalid hex digit", 
+    "id:s", "=c", "=ok", "id:c", "id:ok", "call:unhex", "id:unhex", "id:c", "index", "id:s", "+", 
+    "id:i", "2", "1", "if", "u!", "id:ok", "return", "s:", "call:errs.New", "id:errs", "id:New", 
+    "s:error unescaping %q: invalid hex digit", "id:s", "=_", "id:_", "call:t.WriteByte", "id:t", 
+    "id:WriteByte", "id:c", "+=", "id:i", "2", "default", "=_", "id:_", "call:t.WriteByte", "id:t", 
+    "id:WriteByte", "index", "id:s", "id:i", "return", "call:t.String", "id:t", "id:String", "id:nil"]
 def fp_drpchttp_handler_getCode : List String :=
-  ["=code", "s:unknown", "if", "=dcode", "call:drpcerr.Code", "!=", "0", "=code", "call:fmt.Sprintf", 
-    "s:drpcerr(%d)", "for", "=i", "0", "&&", "<", "100", "!=", "++", "if", "=m", "call:reflect.ValueOf().MethodByName", 
-    "call:reflect.ValueOf", "s:Code", "call:m.IsValid", "if", "=mt", "call:m.Type", "&&", "&&", 
-    "==", "call:mt.NumIn", "0", "==", "call:mt.NumOut", "1", "==", "call:mt.Out().Kind", "call:mt.Out", 
-    "0", "return", "call:m.Call().String", "index", "call:m.Call", "0", "switch", "=v", "case", 
-    "=err", "call:v.Cause", "case", "=err", "call:v.Unwrap", "default", "return", "return"]
+  ["=code", "id:code", "s:unknown", "if", "=dcode", "id:dcode", "call:drpcerr.Code", "id:drpcerr", 
+    "id:Code", "id:err", "!=", "id:dcode", "0", "=code", "id:code", "call:fmt.Sprintf", "id:fmt", 
+    "id:Sprintf", "s:drpcerr(%d)", "id:dcode", "for", "=i", "id:i", "0", "&&", "<", "id:i", "100", 
+    "!=", "id:err", "id:nil", "++", "id:i", "if", "=m", "id:m", "call:reflect.ValueOf().MethodByName", 
+    "call:reflect.ValueOf", "id:reflect", "id:ValueOf", "id:err", "id:MethodByName", "s:Code", 
+    "call:m.IsValid", "id:m", "id:IsValid", "if", "=mt", "id:mt", "call:m.Type", "id:m", "id:Type", 
+    "&&", "&&", "==", "call:mt.NumIn", "id:mt", "id:NumIn", "0", "==", "call:mt.NumOut", "id:mt", 
+    "id:NumOut", "1", "==", "call:mt.Out().Kind", "call:mt.Out", "id:mt", "id:Out", "0", "id:Kind", 
+    "id:reflect", "id:String", "return", "call:m.Call().String", "index", "call:m.Call", "id:m", 
+    "id:Call", "id:nil", "0", "id:String", "switch", "=v", "id:v", "id:err", "case", "id:Cause", 
+    "id:error", "=err", "id:err", "call:v.Cause", "id:v", "id:Cause", "case", "id:Unwrap", "id:error", 
+    "=err", "id:err", "call:v.Unwrap", "id:v", "id:Unwrap", "default", "return", "id:code", "return", 
+    "id:code"]
 def fp_drpchttp_handler_wrapper_ServeHTTP : List String :=
-  ["=pr", "=ok", "index", "call:req.Header.Get", "s:Content-Type", "if", "u!", "=pr", "index", 
-    "s:*", "=ctx", "=err", "call:Context", "if", "==", "=req", "call:req.WithContext", "=st", "call:pr.NewStream", 
-    "call:st.Finish", "call:w.handler.HandleRPC"]
+  ["=pr", "=ok", "id:pr", "id:ok", "index", "id:w", "id:opts", "id:protocols", "call:req.Header.Get", 
+    "id:req", "id:Header", "id:Get", "s:Content-Type", "if", "u!", "id:ok", "=pr", "id:pr", "index", 
+    "id:w", "id:opts", "id:protocols", "s:*", "=ctx", "=err", "id:ctx", "id:err", "call:Context", 
+    "id:Context", "id:req", "if", "==", "id:err", "id:nil", "=req", "id:req", "call:req.WithContext", 
+    "id:req", "id:WithContext", "id:ctx", "=st", "id:st", "call:pr.NewStream", "id:pr", "id:NewStream", 
+    "id:rw", "id:req", "call:st.Finish", "id:st", "id:Finish", "call:w.handler.HandleRPC", "id:w", 
+    "id:handler", "id:HandleRPC", "id:st", "id:req", "id:URL", "id:Path"]
 def fp_drpchttp_encoding_grpcRead : List String :=
-  ["if", "=tmp", "=err", "call:readExactly", "5", "!=", "return", "if", "=size", "call:binary.BigEndian.Uint32", 
-    "slice", "1", "5", ">", "maxSize=4194304", "return", "call:errs.New", "s:message too large", 
-    "if", "=data", "=err", "call:readExactly", "call:uint64", "call:errors.Is", "return", "if", 
-    "!=", "return", "return"]
+  ["if", "=tmp", "=err", "id:tmp", "id:err", "call:readExactly", "id:readExactly", "id:r", "5", 
+    "!=", "id:err", "id:nil", "return", "id:nil", "id:err", "if", "=size", "id:size", "call:binary.BigEndian.Uint32", 
+    "id:binary", "id:BigEndian", "id:Uint32", "slice", "id:tmp", "1", "5", ">", "id:size", "maxSize=4194304", 
+    "id:maxSize", "return", "id:nil", "call:errs.New", "id:errs", "id:New", "s:message too large", 
+    "if", "=data", "=err", "id:data", "id:err", "call:readExactly", "id:readExactly", "id:r", "call:uint64", 
+    "id:uint64", "id:size", "call:errors.Is", "id:errors", "id:Is", "id:err", "id:io", "id:EOF", 
+    "return", "id:nil", "id:io", "id:ErrUnexpectedEOF", "if", "!=", "id:err", "id:nil", "return", 
+    "id:nil", "id:err", "return", "id:data", "id:nil"]
 def fp_drpchttp_encoding_twirpRead : List String :=
-  ["if", "=data", "=err", "call:io.ReadAll", "call:io.LimitReader", "+", "maxSize=4194304", "1", 
-    "!=", "return", "if", ">", "call:len", "maxSize=4194304", "return", "call:errs.New", "s:message too large", 
-    "return"]
+  ["if", "=data", "=err", "id:data", "id:err", "call:io.ReadAll", "id:io", "id:ReadAll", "call:io.LimitReader", 
+    "id:io", "id:LimitReader", "id:r", "+", "maxSize=4194304", "id:maxSize", "1", "!=", "id:err", 
+    "id:nil", "return", "id:nil", "id:err", "if", ">", "call:len", "id:len", "id:data", "maxSize=4194304", 
+    "id:maxSize", "return", "id:nil", "call:errs.New", "id:errs", "id:New", "s:message too large", 
+    "return", "id:data", "id:nil"]
 def fp_drpchttp_encoding_readExactly : List String :=
-  ["=buf", "call:make", "=_", "=err", "call:io.ReadFull", "return"]
+  ["=buf", "id:buf", "call:make", "id:make", "id:byte", "id:n", "=_", "=err", "id:_", "id:err", 
+    "call:io.ReadFull", "id:io", "id:ReadFull", "id:r", "id:buf", "return", "id:buf", "id:err"]
 def fp_drpchttp_encoding_base64Write : List String :=
-  ["return", "=tmp", "call:make", "call:base64.StdEncoding.EncodedLen", "call:len", "call:base64.StdEncoding.Encode", 
-    "return", "call:wf"]
+  ["return", "id:w", "id:io", "id:Writer", "id:buf", "id:byte", "id:error", "=tmp", "id:tmp", 
+    "call:make", "id:make", "id:byte", "call:base64.StdEncoding.EncodedLen", "id:base64", "id:StdEncoding", 
+    "id:EncodedLen", "call:len", "id:len", "id:buf", "call:base64.StdEncoding.Encode", "id:base64", 
+    "id:StdEncoding", "id:Encode", "id:tmp", "id:buf", "return", "call:wf", "id:wf", "id:w", "id:tmp"]
 def fp_drpchttp_protocol_grpc_web_grpcWebProtocol_framedWrite : List String :=
-  ["=tmp", "5", "0", "call:binary.BigEndian.PutUint32", "slice", "1", "5", "call:uint32", "call:len", 
-    "return", "call:gwp.write", "call:append", "slice"]
+  ["=tmp", "id:tmp", "5", "id:byte", "0", "id:hdr", "call:binary.BigEndian.PutUint32", "id:binary", 
+    "id:BigEndian", "id:PutUint32", "slice", "id:tmp", "1", "5", "call:uint32", "id:uint32", "call:len", 
+    "id:len", "id:buf", "return", "call:gwp.write", "id:gwp", "id:write", "id:rw", "call:append", 
+    "id:append", "slice", "id:tmp", "id:buf"]
 def fp_drpchttp_protocol_grpc_web_grpcWebStream_MsgSend : List String :=
-  ["=data", "=err", "call:gws.gwp.marshal", "if", "!=", "return", "if", ">=", "call:len", "return", 
-    "call:errs.New", "s:message too large", "if", "=err", "call:gws.gwp.framedWrite", "0", "!=", 
-    "return", "if", "=fl", "=ok", "call:fl.Flush", "return"]
+  ["=data", "=err", "id:data", "id:err", "call:gws.gwp.marshal", "id:gws", "id:gwp", "id:marshal", 
+    "id:msg", "id:enc", "if", "!=", "id:err", "id:nil", "return", "id:err", "if", ">=", "call:len", 
+    "id:len", "id:data", "id:maxSize", "return", "call:errs.New", "id:errs", "id:New", "s:message too large", 
+    "if", "=err", "id:err", "call:gws.gwp.framedWrite", "id:gws", "id:gwp", "id:framedWrite", "id:gws", 
+    "id:rw", "0", "id:data", "!=", "id:err", "id:nil", "return", "id:err", "if", "=fl", "=ok", 
+    "id:fl", "id:ok", "id:gws", "id:rw", "id:http", "id:Flusher", "id:ok", "call:fl.Flush", "id:fl", 
+    "id:Flush", "return", "id:nil"]
 def fp_drpchttp_protocol_grpc_web_grpcWebStream_Finish : List String :=
-  ["=status", "call:strconv.FormatUint", "call:drpcerr.Code", "10", "if", "&&", "!=", "==", "s:0", 
-    "=status", "s:2", "=write", "call:buf.WriteString", "call:buf.WriteString", "s:: ", "call:buf.WriteString", 
-    "call:textproto.TrimString", "call:nlSpace.Replace", "call:buf.WriteString", "s:\r\n", "call:write", 
-    "s:grpc-status", "if", "!=", "call:write", "s:grpc-code", "call:getCode", "call:write", "s:grpc-message", 
-    "call:err.Error", "=_", "call:gws.gwp.framedWrite", "128", "call:buf.Bytes"]
+  ["=status", "id:status", "call:strconv.FormatUint", "id:strconv", "id:FormatUint", "call:drpcerr.Code", 
+    "id:drpcerr", "id:Code", "id:err", "10", "if", "&&", "!=", "id:err", "id:nil", "==", "id:status", 
+    "s:0", "=status", "id:status", "s:2", "id:buf", "id:bytes", "id:Buffer", "=write", "id:write", 
+    "id:k", "id:v", "id:string", "call:buf.WriteString", "id:buf", "id:WriteString", "id:k", "call:buf.WriteString", 
+    "id:buf", "id:WriteString", "s:: ", "call:buf.WriteString", "id:buf", "id:WriteString", "call:textproto.TrimString", 
+    "id:textproto", "id:TrimString", "call:nlSpace.Replace", "id:nlSpace", "id:Replace", "id:v", 
+    "call:buf.WriteString", "id:buf", "id:WriteString", "s:\r\n", "call:write", "id:write", "s:grpc-status", 
+    "id:status", "if", "!=", "id:err", "id:nil", "call:write", "id:write", "s:grpc-code", "call:getCode", 
+    "id:getCode", "id:err", "call:write", "id:write", "s:grpc-message", "call:err.Error", "id:err", 
+    "id:Error", "=_", "id:_", "call:gws.gwp.framedWrite", "id:gws", "id:gwp", "id:framedWrite", 
+    "id:gws", "id:rw", "128", "call:buf.Bytes", "id:buf", "id:Bytes"]
 def fp_drpchttp_protocol_twirp_twirpStream_MsgSend : List String :=
-  ["if", "!=", "return", "=ts.response", "=err", "call:ts.tp.marshal", "call:setErrorOrEOF", "u&", 
-    "return"]
+  ["if", "!=", "id:ts", "id:sendErr", "id:nil", "return", "id:ts", "id:sendErr", "=ts.response", 
+    "=err", "id:ts", "id:response", "id:err", "call:ts.tp.marshal", "id:ts", "id:tp", "id:marshal", 
+    "id:msg", "id:enc", "call:setErrorOrEOF", "id:setErrorOrEOF", "u&", "id:ts", "id:sendErr", 
+    "id:err", "return", "id:err"]
 def fp_drpchttp_protocol_twirp_twirpStream_MsgRecv : List String :=
-  ["if", "!=", "return", "=buf", "=err", "call:twirpRead", "call:setErrorOrEOF", "u&", "if", "!=", 
-    "return", "return", "call:ts.tp.unmarshal"]
+  ["if", "!=", "id:ts", "id:recvErr", "id:nil", "return", "id:ts", "id:recvErr", "=buf", "=err", 
+    "id:buf", "id:err", "call:twirpRead", "id:twirpRead", "id:ts", "id:body", "call:setErrorOrEOF", 
+    "id:setErrorOrEOF", "u&", "id:ts", "id:recvErr", "id:err", "if", "!=", "id:err", "id:nil", 
+    "return", "id:err", "return", "call:ts.tp.unmarshal", "id:ts", "id:tp", "id:unmarshal", "id:buf", 
+    "id:msg", "id:enc"]
 def fp_drpchttp_protocol_twirp_twirpStream_Finish : List String :=
-  ["if", "==", "call:ts.rw.WriteHeader", "=_", "=_", "call:ts.rw.Write", "return", "=code", "call:getCode", 
-    "=status", "index", "if", "==", "0", "=status", "500", "=data", "=err", "call:json.MarshalIndent", 
-    "s:code", "s:msg", "call:err.Error", "s:", "s:    ", "if", "!=", "call:http.Error", "s:", "return", 
-    "call:ts.rw.Header().Set", "call:ts.rw.Header", "s:Content-Type", "s:application/json", "call:ts.rw.WriteHeader", 
-    "=_", "=_", "call:ts.rw.Write"]
+  ["if", "==", "id:err", "id:nil", "call:ts.rw.WriteHeader", "id:ts", "id:rw", "id:WriteHeader", 
+    "id:http", "id:StatusOK", "=_", "=_", "id:_", "id:_", "call:ts.rw.Write", "id:ts", "id:rw", 
+    "id:Write", "id:ts", "id:response", "return", "=code", "id:code", "call:getCode", "id:getCode", 
+    "id:err", "=status", "id:status", "index", "id:twirpStatus", "id:code", "if", "==", "id:status", 
+    "0", "=status", "id:status", "500", "=data", "=err", "id:data", "id:err", "call:json.MarshalIndent", 
+    "id:json", "id:MarshalIndent", "id:string", "s:code", "id:code", "s:msg", "call:err.Error", 
+    "id:err", "id:Error", "s:", "s:    ", "if", "!=", "id:err", "id:nil", "call:http.Error", "id:http", 
+    "id:Error", "id:ts", "id:rw", "s:", "id:http", "id:StatusInternalServerError", "return", "call:ts.rw.Header().Set", 
+    "call:ts.rw.Header", "id:ts", "id:rw", "id:Header", "id:Set", "s:Content-Type", "s:application/json", 
+    "call:ts.rw.WriteHeader", "id:ts", "id:rw", "id:WriteHeader", "id:status", "=_", "=_", "id:_", 
+    "id:_", "call:ts.rw.Write", "id:ts", "id:rw", "id:Write", "id:data"]
 def fp_drpchttp_protocol_twirp_setErrorOrEOF : List String :=
-  ["if", "==", "=err", "=*errp"]
+  ["if", "==", "id:err", "id:nil", "=err", "id:err", "id:io", "id:EOF", "=*errp", "id:errp", "id:err"]
 def fp_drpcsignal_signal_Signal_Signal : List String :=
-  ["if", "!=", "&", "call:atomic.LoadUint32", "u&", "statusChannelCreated=1", "0", "call:drpcdebug.Point", 
-    "s:signal.Signal.fast", "return", "return", "call:s.signalSlow"]
+  ["if", "!=", "&", "call:atomic.LoadUint32", "id:atomic", "id:LoadUint32", "u&", "id:s", "id:status", 
+    "statusChannelCreated=1", "id:statusChannelCreated", "0", "call:drpcdebug.Point", "id:drpcdebug", 
+    "id:Point", "s:signal.Signal.fast", "return", "id:s", "id:ch", "return", "call:s.signalSlow", 
+    "id:s", "id:signalSlow"]
 def fp_drpcsignal_signal_Signal_signalSlow : List String :=
-  ["call:drpcdebug.Point", "s:signal.signalSlow.enter", "call:s.mu.Lock", "call:drpcdebug.Point", 
-    "s:signal.signalSlow.locked", "if", "=set", "==", "&", "statusChannelCreated=1", "0", "=s.ch", 
-    "call:make", "call:drpcdebug.Point", "s:signal.signalSlow.made", "call:atomic.StoreUint32", 
-    "u&", "|", "statusChannelCreated=1", "call:drpcdebug.Point", "s:signal.signalSlow.unlock", 
-    "call:s.mu.Unlock", "return"]
+  ["call:drpcdebug.Point", "id:drpcdebug", "id:Point", "s:signal.signalSlow.enter", "call:s.mu.Lock", 
+    "id:s", "id:mu", "id:Lock", "call:drpcdebug.Point", "id:drpcdebug", "id:Point", "s:signal.signalSlow.locked", 
+    "if", "=set", "id:set", "id:s", "id:status", "==", "&", "id:set", "statusChannelCreated=1", 
+    "id:statusChannelCreated", "0", "=s.ch", "id:s", "id:ch", "call:make", "id:make", "call:drpcdebug.Point", 
+    "id:drpcdebug", "id:Point", "s:signal.signalSlow.made", "call:atomic.StoreUint32", "id:atomic", 
+    "id:StoreUint32", "u&", "id:s", "id:status", "|", "id:set", "statusChannelCreated=1", "id:statusChannelCreated", 
+    "call:drpcdebug.Point", "id:drpcdebug", "id:Point", "s:signal.signalSlow.unlock", "call:s.mu.Unlock", 
+    "id:s", "id:mu", "id:Unlock", "return", "id:s", "id:ch"]
 def fp_drpcsignal_signal_Signal_Set : List String :=
-  ["if", "!=", "&", "call:atomic.LoadUint32", "u&", "statusErrorSet=2", "0", "return", "return", 
-    "call:s.setSlow"]
+  ["if", "!=", "&", "call:atomic.LoadUint32", "id:atomic", "id:LoadUint32", "u&", "id:s", "id:status", 
+    "statusErrorSet=2", "id:statusErrorSet", "0", "return", "id:false", "return", "call:s.setSlow", 
+    "id:s", "id:setSlow", "id:err"]
 def fp_drpcsignal_signal_Signal_setSlow : List String :=
-  ["call:drpcdebug.Point", "s:signal.setSlow.enter", "call:s.mu.Lock", "call:drpcdebug.Point", 
-    "s:signal.setSlow.locked", "if", "=status", "==", "&", "statusErrorSet=2", "0", "=ok", "=s.err", 
-    "call:drpcdebug.Point", "s:signal.setSlow.err", "if", "==", "&", "statusChannelCreated=1", 
-    "0", "=s.ch", "call:drpcdebug.Point", "s:signal.setSlow.ch", "call:atomic.StoreUint32", "u&", 
-    "|", "statusErrorSet=2", "statusChannelCreated=1", "call:drpcdebug.Point", "s:signal.setSlow.stored", 
-    "if", "!=", "&", "statusChannelCreated=1", "0", "call:close", "call:drpcdebug.Point", "s:signal.setSlow.unlock", 
-    "call:s.mu.Unlock", "return"]
+  ["call:drpcdebug.Point", "id:drpcdebug", "id:Point", "s:signal.setSlow.enter", "call:s.mu.Lock", 
+    "id:s", "id:mu", "id:Lock", "call:drpcdebug.Point", "id:drpcdebug", "id:Point", "s:signal.setSlow.locked", 
+    "if", "=status", "id:status", "id:s", "id:status", "==", "&", "id:status", "statusErrorSet=2", 
+    "id:statusErrorSet", "0", "=ok", "id:ok", "id:true", "=s.err", "id:s", "id:err", "id:err", 
+    "call:drpcdebug.Point", "id:drpcdebug", "id:Point", "s:signal.setSlow.err", "if", "==", "&", 
+    "id:status", "statusChannelCreated=1", "id:statusChannelCreated", "0", "=s.ch", "id:s", "id:ch", 
+    "id:closed", "call:drpcdebug.Point", "id:drpcdebug", "id:Point", "s:signal.setSlow.ch", "call:atomic.StoreUint32", 
+    "id:atomic", "id:StoreUint32", "u&", "id:s", "id:status", "|", "statusErrorSet=2", "id:statusErrorSet", 
+    "statusChannelCreated=1", "id:statusChannelCreated", "call:drpcdebug.Point", "id:drpcdebug", 
+    "id:Point", "s:signal.setSlow.stored", "if", "!=", "&", "id:status", "statusChannelCreated=1", 
+    "id:statusChannelCreated", "0", "call:close", "id:close", "id:s", "id:ch", "call:drpcdebug.Point", 
+    "id:drpcdebug", "id:Point", "s:signal.setSlow.unlock", "call:s.mu.Unlock", "id:s", "id:mu", 
+    "id:Unlock", "return", "id:ok"]
 def fp_drpcsignal_signal_Signal_Get : List String :=
-  ["if", "!=", "&", "call:atomic.LoadUint32", "u&", "statusErrorSet=2", "0", "call:drpcdebug.Point", 
-    "s:signal.Get.fast", "return", "return"]
+  ["if", "!=", "&", "call:atomic.LoadUint32", "id:atomic", "id:LoadUint32", "u&", "id:s", "id:status", 
+    "statusErrorSet=2", "id:statusErrorSet", "0", "call:drpcdebug.Point", "id:drpcdebug", "id:Point", 
+    "s:signal.Get.fast", "return", "id:s", "id:err", "id:true", "return", "id:nil", "id:false"]
 def fp_drpcsignal_signal_Signal_IsSet : List String :=
-  ["return", "!=", "&", "call:atomic.LoadUint32", "u&", "statusErrorSet=2", "0"]
+  ["return", "!=", "&", "call:atomic.LoadUint32", "id:atomic", "id:LoadUint32", "u&", "id:s", 
+    "id:status", "statusErrorSet=2", "id:statusErrorSet", "0"]
 def fp_drpcsignal_signal_Signal_Err : List String :=
-  ["if", "!=", "&", "call:atomic.LoadUint32", "u&", "statusErrorSet=2", "0", "call:drpcdebug.Point", 
-    "s:signal.Err.fast", "return", "return"]
+  ["if", "!=", "&", "call:atomic.LoadUint32", "id:atomic", "id:LoadUint32", "u&", "id:s", "id:status", 
+    "statusErrorSet=2", "id:statusErrorSet", "0", "call:drpcdebug.Point", "id:drpcdebug", "id:Point", 
+    "s:signal.Err.fast", "return", "id:s", "id:err", "return", "id:nil"]
 def fp_drpcsignal_signal_Signal_Wait : List String :=
-  ["u<-", "call:s.Signal"]
+  ["u<-", "call:s.Signal", "id:s", "id:Signal"]
 def fp_drpcsignal_chan_Chan_setFresh : List String :=
-  ["=c.ch", "call:make"]
+  ["=c.ch", "id:c", "id:ch", "call:make", "id:make"]
 def fp_drpcsignal_chan_Chan_setClosed : List String :=
-  ["=c.ch"]
+  ["=c.ch", "id:c", "id:ch", "id:closed"]
 def fp_drpcsignal_chan_Chan_do : List String :=
-  ["return", "&&", "==", "call:atomic.LoadUint32", "u&", "0", "call:c.doSlow"]
+  ["return", "&&", "==", "call:atomic.LoadUint32", "id:atomic", "id:LoadUint32", "u&", "id:c", 
+    "id:done", "0", "call:c.doSlow", "id:c", "id:doSlow", "id:f"]
 def fp_drpcsignal_chan_Chan_doSlow : List String :=
-  ["call:drpcdebug.Point", "s:chan.doSlow.enter", "call:c.mu.Lock", "defer", "call:c.mu.Unlock", 
-    "call:drpcdebug.Point", "s:chan.doSlow.locked", "if", "==", "0", "defer", "call:atomic.StoreUint32", 
-    "u&", "1", "defer", "call:drpcdebug.Point", "s:chan.doSlow.store", "call:f", "return", "return"]
+  ["call:drpcdebug.Point", "id:drpcdebug", "id:Point", "s:chan.doSlow.enter", "call:c.mu.Lock", 
+    "id:c", "id:mu", "id:Lock", "defer", "call:c.mu.Unlock", "id:c", "id:mu", "id:Unlock", "call:drpcdebug.Point", 
+    "id:drpcdebug", "id:Point", "s:chan.doSlow.locked", "if", "==", "id:c", "id:done", "0", "defer", 
+    "call:atomic.StoreUint32", "id:atomic", "id:StoreUint32", "u&", "id:c", "id:done", "1", "defer", 
+    "call:drpcdebug.Point", "id:drpcdebug", "id:Point", "s:chan.doSlow.store", "call:f", "id:f", 
+    "return", "id:true", "return", "id:false"]
 def fp_drpcsignal_chan_Chan_Close : List String :=
-  ["if", "u!", "call:c.do", "call:drpcdebug.Point", "s:chan.Close.close", "call:close"]
+  ["if", "u!", "call:c.do", "id:c", "id:do", "id:c", "id:setClosed", "call:drpcdebug.Point", "id:drpcdebug", 
+    "id:Point", "s:chan.Close.close", "call:close", "id:close", "id:c", "id:ch"]
 def fp_drpcsignal_chan_Chan_Make : List String :=
-  ["call:c.do", "=c.ch", "call:make"]
+  ["call:c.do", "id:c", "id:do", "=c.ch", "id:c", "id:ch", "call:make", "id:make", "id:cap"]
 def fp_drpcsignal_chan_Chan_Get : List String :=
-  ["call:c.do", "call:drpcdebug.Point", "s:chan.Get.read", "return"]
+  ["call:c.do", "id:c", "id:do", "id:c", "id:setFresh", "call:drpcdebug.Point", "id:drpcdebug", 
+    "id:Point", "s:chan.Get.read", "return", "id:c", "id:ch"]
 def fp_drpcsignal_chan_Chan_Send : List String :=
-  ["call:c.do", "send"]
+  ["call:c.do", "id:c", "id:do", "id:c", "id:setFresh", "send", "id:c", "id:ch"]
 def fp_drpcsignal_chan_Chan_Recv : List String :=
-  ["call:c.do", "u<-"]
+  ["call:c.do", "id:c", "id:do", "id:c", "id:setFresh", "u<-", "id:c", "id:ch"]
 def fp_drpcsignal_chan_Chan_Full : List String :=
-  ["call:c.do", "select", "send", "u<-", "return", "return"]
+  ["call:c.do", "id:c", "id:do", "id:c", "id:setFresh", "select", "send", "id:c", "id:ch", "u<-", 
+    "id:c", "id:ch", "return", "id:false", "return", "id:true"]
 def fp_drpcstream_pktbuf_packetBuffer_Close : List String :=
-  ["call:pb.mu.Lock", "defer", "call:pb.mu.Unlock", "for", "call:pb.cond.Wait", "if", "==", "=pb.data", 
-    "=pb.set", "=pb.err", "call:pb.cond.Broadcast"]
+  ["call:pb.mu.Lock", "id:pb", "id:mu", "id:Lock", "defer", "call:pb.mu.Unlock", "id:pb", "id:mu", 
+    "id:Unlock", "for", "id:pb", "id:held", "call:pb.cond.Wait", "id:pb", "id:cond", "id:Wait", 
+    "if", "==", "id:pb", "id:err", "id:nil", "=pb.data", "id:pb", "id:data", "id:nil", "=pb.set", 
+    "id:pb", "id:set", "id:false", "=pb.err", "id:pb", "id:err", "id:err", "call:pb.cond.Broadcast", 
+    "id:pb", "id:cond", "id:Broadcast"]
 def fp_drpcstream_pktbuf_packetBuffer_Put : List String :=
-  ["call:pb.mu.Lock", "defer", "call:pb.mu.Unlock", "for", "&&", "==", "call:pb.cond.Wait", "if", 
-    "!=", "return", "=pb.data", "=pb.set", "=pb.held", "call:pb.cond.Broadcast", "for", "||", "call:pb.cond.Wait"]
+  ["call:pb.mu.Lock", "id:pb", "id:mu", "id:Lock", "defer", "call:pb.mu.Unlock", "id:pb", "id:mu", 
+    "id:Unlock", "for", "&&", "id:pb", "id:set", "==", "id:pb", "id:err", "id:nil", "call:pb.cond.Wait", 
+    "id:pb", "id:cond", "id:Wait", "if", "!=", "id:pb", "id:err", "id:nil", "return", "=pb.data", 
+    "id:pb", "id:data", "id:data", "=pb.set", "id:pb", "id:set", "id:true", "=pb.held", "id:pb", 
+    "id:held", "id:false", "call:pb.cond.Broadcast", "id:pb", "id:cond", "id:Broadcast", "for", 
+    "||", "id:pb", "id:set", "id:pb", "id:held", "call:pb.cond.Wait", "id:pb", "id:cond", "id:Wait"]
 def fp_drpcstream_pktbuf_packetBuffer_Get : List String :=
-  ["call:pb.mu.Lock", "defer", "call:pb.mu.Unlock", "for", "&&", "u!", "==", "call:pb.cond.Wait", 
-    "if", "!=", "return", "=pb.held", "call:pb.cond.Broadcast", "return"]
+  ["call:pb.mu.Lock", "id:pb", "id:mu", "id:Lock", "defer", "call:pb.mu.Unlock", "id:pb", "id:mu", 
+    "id:Unlock", "for", "&&", "u!", "id:pb", "id:set", "==", "id:pb", "id:err", "id:nil", "call:pb.cond.Wait", 
+    "id:pb", "id:cond", "id:Wait", "if", "!=", "id:pb", "id:err", "id:nil", "return", "id:nil", 
+    "id:pb", "id:err", "=pb.held", "id:pb", "id:held", "id:true", "call:pb.cond.Broadcast", "id:pb", 
+    "id:cond", "id:Broadcast", "return", "id:pb", "id:data", "id:nil"]
 def fp_drpcstream_pktbuf_packetBuffer_Done : List String :=
-  ["call:pb.mu.Lock", "defer", "call:pb.mu.Unlock", "=pb.data", "=pb.set", "=pb.held", "call:pb.cond.Broadcast"]
+  ["call:pb.mu.Lock", "id:pb", "id:mu", "id:Lock", "defer", "call:pb.mu.Unlock", "id:pb", "id:mu", 
+    "id:Unlock", "=pb.data", "id:pb", "id:data", "id:nil", "=pb.set", "id:pb", "id:set", "id:false", 
+    "=pb.held", "id:pb", "id:held", "id:false", "call:pb.cond.Broadcast", "id:pb", "id:cond", "id:Broadcast"]
 def fp_drpcstream_inspectmu_inspectMutex_Lock : List String :=
-  ["call:m.Mutex.Lock", "call:atomic.StoreUint32", "u&", "1"]
+  ["call:m.Mutex.Lock", "id:m", "id:Mutex", "id:Lock", "call:atomic.StoreUint32", "id:atomic", 
+    "id:StoreUint32", "u&", "id:m", "id:held", "1"]
 def fp_drpcstream_inspectmu_inspectMutex_TryLock : List String :=
-  ["if", "call:m.Mutex.TryLock", "call:atomic.StoreUint32", "u&", "1", "return", "return"]
+  ["if", "call:m.Mutex.TryLock", "id:m", "id:Mutex", "id:TryLock", "call:atomic.StoreUint32", 
+    "id:atomic", "id:StoreUint32", "u&", "id:m", "id:held", "1", "return", "id:true", "return", 
+    "id:false"]
 def fp_drpcstream_inspectmu_inspectMutex_Unlock : List String :=
-  ["call:atomic.StoreUint32", "u&", "0", "call:m.Mutex.Unlock"]
+  ["call:atomic.StoreUint32", "id:atomic", "id:StoreUint32", "u&", "id:m", "id:held", "0", "call:m.Mutex.Unlock", 
+    "id:m", "id:Mutex", "id:Unlock"]
 def fp_drpcstream_inspectmu_inspectMutex_Unlocked : List String :=
-  ["return", "==", "call:atomic.LoadUint32", "u&", "0"]
+  ["return", "==", "call:atomic.LoadUint32", "id:atomic", "id:LoadUint32", "u&", "id:m", "id:held", 
+    "0"]
 def fp_drpcstream_stream_Stream_HandlePacket : List String :=
-  ["if", "!=", "return", "call:drpcopts.GetStreamStats().AddRead", "call:drpcopts.GetStreamStats", 
-    "u&", "call:uint64", "call:len", "if", "call:s.sigs.term.IsSet", "return", "call:s.log", "s:HANDLE", 
-    "if", "==", "call:s.pbuf.Put", "return", "call:s.mu.Lock", "defer", "call:s.mu.Unlock", "switch", 
-    "case", "=err", "call:drpc.ProtocolError.New", "s:invoke on existing stream", "call:s.terminate", 
-    "return", "case", "=err", "call:drpcwire.UnmarshalError", "call:s.sigs.send.Set", "call:s.terminate", 
-    "return", "case", "=err", "call:s.sigs.cancel.Set", "call:s.sigs.send.Set", "call:s.terminate", 
-    "return", "case", "call:s.sigs.recv.Set", "call:s.pbuf.Close", "call:s.terminate", "call:drpc.ClosedError.New", 
-    "s:remote closed the stream", "return", "case", "call:s.sigs.recv.Set", "call:s.pbuf.Close", 
-    "call:s.terminateIfBothClosed", "return", "default", "if", "return", "=err", "call:drpc.InternalError.New", 
-    "s:unknown packet kind: %s", "call:s.terminate", "return"]
+  ["if", "!=", "id:pkt", "id:ID", "id:Stream", "id:s", "id:id", "id:Stream", "return", "id:nil", 
+    "call:drpcopts.GetStreamStats().AddRead", "call:drpcopts.GetStreamStats", "id:drpcopts", "id:GetStreamStats", 
+    "u&", "id:s", "id:opts", "id:Internal", "id:AddRead", "call:uint64", "id:uint64", "call:len", 
+    "id:len", "id:pkt", "id:Data", "if", "call:s.sigs.term.IsSet", "id:s", "id:sigs", "id:term", 
+    "id:IsSet", "return", "id:nil", "call:s.log", "id:s", "id:log", "s:HANDLE", "id:pkt", "id:String", 
+    "if", "==", "id:pkt", "id:Kind", "id:drpcwire", "id:KindMessage", "call:s.pbuf.Put", "id:s", 
+    "id:pbuf", "id:Put", "id:pkt", "id:Data", "return", "id:nil", "call:s.mu.Lock", "id:s", "id:mu", 
+    "id:Lock", "defer", "call:s.mu.Unlock", "id:s", "id:mu", "id:Unlock", "switch", "id:pkt", "id:Kind", 
+    "case", "id:drpcwire", "id:KindInvoke", "=err", "id:err", "call:drpc.ProtocolError.New", "id:drpc", 
+    "id:ProtocolError", "id:New", "s:invoke on existing stream", "call:s.terminate", "id:s", "id:terminate", 
+    "id:err", "return", "id:err", "case", "id:drpcwire", "id:KindError", "=err", "id:err", "call:drpcwire.UnmarshalError", 
+    "id:drpcwire", "id:UnmarshalError", "id:pkt", "id:Data", "call:s.sigs.send.Set", "id:s", "id:sigs", 
+    "id:send", "id:Set", "id:io", "id:EOF", "call:s.terminate", "id:s", "id:terminate", "id:err", 
+    "return", "id:nil", "case", "id:drpcwire", "id:KindCancel", "=err", "id:err", "id:context", 
+    "id:Canceled", "call:s.sigs.cancel.Set", "id:s", "id:sigs", "id:cancel", "id:Set", "id:err", 
+    "call:s.sigs.send.Set", "id:s", "id:sigs", "id:send", "id:Set", "id:io", "id:EOF", "call:s.terminate", 
+    "id:s", "id:terminate", "id:err", "return", "id:nil", "case", "id:drpcwire", "id:KindClose", 
+    "call:s.sigs.recv.Set", "id:s", "id:sigs", "id:recv", "id:Set", "id:io", "id:EOF", "call:s.pbuf.Close", 
+    "id:s", "id:pbuf", "id:Close", "id:io", "id:EOF", "call:s.terminate", "id:s", "id:terminate", 
+    "call:drpc.ClosedError.New", "id:drpc", "id:ClosedError", "id:New", "s:remote closed the stream", 
+    "return", "id:nil", "case", "id:drpcwire", "id:KindCloseSend", "call:s.sigs.recv.Set", "id:s", 
+    "id:sigs", "id:recv", "id:Set", "id:io", "id:EOF", "call:s.pbuf.Close", "id:s", "id:pbuf", 
+    "id:Close", "id:io", "id:EOF", "call:s.terminateIfBothClosed", "id:s", "id:terminateIfBothClosed", 
+    "return", "id:nil", "default", "if", "id:pkt", "id:Control", "return", "id:nil", "=err", "id:err", 
+    "call:drpc.InternalError.New", "id:drpc", "id:InternalError", "id:New", "s:unknown packet kind: %s", 
+    "id:pkt", "id:Kind", "call:s.terminate", "id:s", "id:terminate", "id:err", "return", "id:err"]
 def fp_drpcstream_stream_Stream_checkFinished : List String :=
-  ["if", "&&", "&&", "call:s.sigs.term.IsSet", "call:s.write.Unlocked", "call:s.read.Unlocked", 
-    "if", "call:s.sigs.fin.Set", "call:s.log", "s:FIN", "return", "s:", "call:s.ctx.sig.Set", "if", 
-    "!=", "send", "if", "!=", "call:s.task.End"]
+  ["if", "&&", "&&", "call:s.sigs.term.IsSet", "id:s", "id:sigs", "id:term", "id:IsSet", "call:s.write.Unlocked", 
+    "id:s", "id:write", "id:Unlocked", "call:s.read.Unlocked", "id:s", "id:read", "id:Unlocked", 
+    "if", "call:s.sigs.fin.Set", "id:s", "id:sigs", "id:fin", "id:Set", "id:nil", "call:s.log", 
+    "id:s", "id:log", "s:FIN", "id:string", "return", "s:", "call:s.ctx.sig.Set", "id:s", "id:ctx", 
+    "id:sig", "id:Set", "id:context", "id:Canceled", "if", "!=", "id:s", "id:fin", "id:nil", "send", 
+    "id:s", "id:fin", "if", "!=", "id:s", "id:task", "id:nil", "call:s.task.End", "id:s", "id:task", 
+    "id:End"]
 def fp_drpcstream_stream_Stream_checkCancelError : List String :=
-  ["if", "call:s.sigs.cancel.IsSet", "return", "call:s.sigs.cancel.Err", "return"]
+  ["if", "call:s.sigs.cancel.IsSet", "id:s", "id:sigs", "id:cancel", "id:IsSet", "return", "call:s.sigs.cancel.Err", 
+    "id:s", "id:sigs", "id:cancel", "id:Err", "return", "id:err"]
 def fp_drpcstream_stream_Stream_newFrameLocked : List String :=
-  ["++", "return"]
+  ["++", "id:s", "id:id", "id:Message", "return", "id:drpcwire", "id:Frame", "id:ID", "id:s", 
+    "id:id", "id:Kind", "id:kind"]
 def fp_drpcstream_stream_Stream_sendPacketLocked : List String :=
-  ["=fr", "call:s.newFrameLocked", "=fr.Data", "=fr.Control", "=fr.Done", "call:drpcopts.GetStreamStats().AddWritten", 
-    "call:drpcopts.GetStreamStats", "u&", "call:uint64", "call:len", "call:s.log", "s:SEND", "if", 
-    "=err", "call:s.wr.WriteFrame", "!=", "return", "call:errs.Wrap", "if", "=err", "call:s.wr.Flush", 
-    "!=", "return", "call:errs.Wrap", "return"]
+  ["=fr", "id:fr", "call:s.newFrameLocked", "id:s", "id:newFrameLocked", "id:kind", "=fr.Data", 
+    "id:fr", "id:Data", "id:data", "=fr.Control", "id:fr", "id:Control", "id:control", "=fr.Done", 
+    "id:fr", "id:Done", "id:true", "call:drpcopts.GetStreamStats().AddWritten", "call:drpcopts.GetStreamStats", 
+    "id:drpcopts", "id:GetStreamStats", "u&", "id:s", "id:opts", "id:Internal", "id:AddWritten", 
+    "call:uint64", "id:uint64", "call:len", "id:len", "id:data", "call:s.log", "id:s", "id:log", 
+    "s:SEND", "id:fr", "id:String", "if", "=err", "id:err", "call:s.wr.WriteFrame", "id:s", "id:wr", 
+    "id:WriteFrame", "id:fr", "!=", "id:err", "id:nil", "return", "call:errs.Wrap", "id:errs", 
+    "id:Wrap", "id:err", "if", "=err", "id:err", "call:s.wr.Flush", "id:s", "id:wr", "id:Flush", 
+    "!=", "id:err", "id:nil", "return", "call:errs.Wrap", "id:errs", "id:Wrap", "id:err", "return", 
+    "id:nil"]
 def fp_drpcstream_stream_Stream_terminateIfBothClosed : List String :=
-  ["if", "&&", "call:s.sigs.send.IsSet", "call:s.sigs.recv.IsSet", "call:s.terminate"]
+  ["if", "&&", "call:s.sigs.send.IsSet", "id:s", "id:sigs", "id:send", "id:IsSet", "call:s.sigs.recv.IsSet", 
+    "id:s", "id:sigs", "id:recv", "id:IsSet", "call:s.terminate", "id:s", "id:terminate", "id:termBothClosed"]
 def fp_drpcstream_stream_Stream_terminate : List String :=
-  ["call:s.sigs.send.Set", "call:s.sigs.recv.Set", "call:s.sigs.term.Set", "call:s.pbuf.Close", 
-    "call:s.checkFinished"]
+  ["call:s.sigs.send.Set", "id:s", "id:sigs", "id:send", "id:Set", "id:err", "call:s.sigs.recv.Set", 
+    "id:s", "id:sigs", "id:recv", "id:Set", "id:err", "call:s.sigs.term.Set", "id:s", "id:sigs", 
+    "id:term", "id:Set", "id:err", "call:s.pbuf.Close", "id:s", "id:pbuf", "id:Close", "id:err", 
+    "call:s.checkFinished", "id:s", "id:checkFinished"]
 def fp_drpcstream_stream_Stream_RawWrite : List String :=
-  ["defer", "call:s.checkFinished", "call:s.write.Lock", "defer", "call:s.write.Unlock", "return", 
-    "call:s.rawWriteLocked"]
+  ["defer", "call:s.checkFinished", "id:s", "id:checkFinished", "call:s.write.Lock", "id:s", "id:write", 
+    "id:Lock", "defer", "call:s.write.Unlock", "id:s", "id:write", "id:Unlock", "return", "call:s.rawWriteLocked", 
+    "id:s", "id:rawWriteLocked", "id:kind", "id:data"]
 def fp_drpcstream_stream_Stream_rawWriteLocked : List String :=
-  ["=fr", "call:s.newFrameLocked", "=n", "for", "switch", "case", "call:s.sigs.send.IsSet", "return", 
-    "call:s.sigs.send.Err", "case", "call:s.sigs.term.IsSet", "return", "call:s.sigs.term.Err", 
-    "=fr.Data", "=data", "call:drpcwire.SplitData", "=fr.Done", "==", "call:len", "0", "call:drpcopts.GetStreamStats().AddWritten", 
-    "call:drpcopts.GetStreamStats", "u&", "call:uint64", "call:len", "call:s.log", "s:SEND", "if", 
-    "=err", "call:s.wr.WriteFrame", "!=", "return", "call:s.checkCancelError", "call:errs.Wrap", 
-    "if", "return"]
+  ["=fr", "id:fr", "call:s.newFrameLocked", "id:s", "id:newFrameLocked", "id:kind", "=n", "id:n", 
+    "id:s", "id:opts", "id:SplitSize", "for", "switch", "case", "call:s.sigs.send.IsSet", "id:s", 
+    "id:sigs", "id:send", "id:IsSet", "return", "call:s.sigs.send.Err", "id:s", "id:sigs", "id:send", 
+    "id:Err", "case", "call:s.sigs.term.IsSet", "id:s", "id:sigs", "id:term", "id:IsSet", "return", 
+    "call:s.sigs.term.Err", "id:s", "id:sigs", "id:term", "id:Err", "=fr.Data", "=data", "id:fr", 
+    "id:Data", "id:data", "call:drpcwire.SplitData", "id:drpcwire", "id:SplitData", "id:data", 
+    "id:n", "=fr.Done", "id:fr", "id:Done", "==", "call:len", "id:len", "id:data", "0", "call:drpcopts.GetStreamStats().AddWritten", 
+    "call:drpcopts.GetStreamStats", "id:drpcopts", "id:GetStreamStats", "u&", "id:s", "id:opts", 
+    "id:Internal", "id:AddWritten", "call:uint64", "id:uint64", "call:len", "id:len", "id:fr", 
+    "id:Data", "call:s.log", "id:s", "id:log", "s:SEND", "id:fr", "id:String", "if", "=err", "id:err", 
+    "call:s.wr.WriteFrame", "id:s", "id:wr", "id:WriteFrame", "id:fr", "!=", "id:err", "id:nil", 
+    "return", "call:s.checkCancelError", "id:s", "id:checkCancelError", "call:errs.Wrap", "id:errs", 
+    "id:Wrap", "id:err", "if", "id:fr", "id:Done", "return", "id:nil"]
 def fp_drpcstream_stream_Stream_RawFlush : List String :=
-  ["defer", "call:s.checkFinished", "call:s.write.Lock", "defer", "call:s.write.Unlock", "return", 
-    "call:s.rawFlushLocked"]
+  ["defer", "call:s.checkFinished", "id:s", "id:checkFinished", "call:s.write.Lock", "id:s", "id:write", 
+    "id:Lock", "defer", "call:s.write.Unlock", "id:s", "id:write", "id:Unlock", "return", "call:s.rawFlushLocked", 
+    "id:s", "id:rawFlushLocked"]
 def fp_drpcstream_stream_Stream_rawFlushLocked : List String :=
-  ["if", "call:s.wr.Empty", "return", "switch", "case", "call:s.sigs.cancel.IsSet", "return", 
-    "call:s.sigs.cancel.Err", "case", "call:s.sigs.send.IsSet", "return", "call:s.sigs.send.Err", 
-    "case", "call:s.sigs.term.IsSet", "return", "call:s.sigs.term.Err", "call:s.log", "s:FLUSH", 
-    "return", "s:", "return", "call:s.checkCancelError", "call:errs.Wrap", "call:s.wr.Flush"]
+  ["if", "call:s.wr.Empty", "id:s", "id:wr", "id:Empty", "return", "id:nil", "switch", "case", 
+    "call:s.sigs.cancel.IsSet", "id:s", "id:sigs", "id:cancel", "id:IsSet", "return", "call:s.sigs.cancel.Err", 
+    "id:s", "id:sigs", "id:cancel", "id:Err", "case", "call:s.sigs.send.IsSet", "id:s", "id:sigs", 
+    "id:send", "id:IsSet", "return", "call:s.sigs.send.Err", "id:s", "id:sigs", "id:send", "id:Err", 
+    "case", "call:s.sigs.term.IsSet", "id:s", "id:sigs", "id:term", "id:IsSet", "return", "call:s.sigs.term.Err", 
+    "id:s", "id:sigs", "id:term", "id:Err", "call:s.log", "id:s", "id:log", "s:FLUSH", "id:string", 
+    "return", "s:", "return", "call:s.checkCancelError", "id:s", "id:checkCancelError", "call:errs.Wrap", 
+    "id:errs", "id:Wrap", "call:s.wr.Flush", "id:s", "id:wr", "id:Flush"]
 def fp_drpcstream_stream_Stream_checkRecvFlush : List String :=
-  ["call:s.flush.Do", "=err", "call:s.RawFlush", "if", "&&", "&&", "==", "u!", "call:s.wr.Empty", 
-    "=err", "call:s.RawFlush", "if", "&&", "!=", "call:s.sigs.term.IsSet", "return", "return"]
+  ["call:s.flush.Do", "id:s", "id:flush", "id:Do", "=err", "id:err", "call:s.RawFlush", "id:s", 
+    "id:RawFlush", "if", "&&", "&&", "==", "id:err", "id:nil", "id:s", "id:opts", "id:ManualFlush", 
+    "u!", "call:s.wr.Empty", "id:s", "id:wr", "id:Empty", "=err", "id:err", "call:s.RawFlush", 
+    "id:s", "id:RawFlush", "if", "&&", "!=", "id:err", "id:nil", "call:s.sigs.term.IsSet", "id:s", 
+    "id:sigs", "id:term", "id:IsSet", "return", "id:nil", "return", "id:err"]
 def fp_drpcstream_stream_Stream_RawRecv : List String :=
-  ["if", "=err", "call:s.checkRecvFlush", "!=", "return", "defer", "call:s.checkFinished", "call:s.read.Lock", 
-    "defer", "call:s.read.Unlock", "=data", "=err", "call:s.pbuf.Get", "if", "!=", "return", "=data", 
-    "call:append", "call:[]byte", "call:s.pbuf.Done", "return"]
+  ["if", "=err", "id:err", "call:s.checkRecvFlush", "id:s", "id:checkRecvFlush", "!=", "id:err", 
+    "id:nil", "return", "id:nil", "id:err", "defer", "call:s.checkFinished", "id:s", "id:checkFinished", 
+    "call:s.read.Lock", "id:s", "id:read", "id:Lock", "defer", "call:s.read.Unlock", "id:s", "id:read", 
+    "id:Unlock", "=data", "=err", "id:data", "id:err", "call:s.pbuf.Get", "id:s", "id:pbuf", "id:Get", 
+    "if", "!=", "id:err", "id:nil", "return", "id:nil", "id:err", "=data", "id:data", "call:append", 
+    "id:append", "call:[]byte", "id:byte", "id:nil", "id:data", "call:s.pbuf.Done", "id:s", "id:pbuf", 
+    "id:Done", "return", "id:data", "id:nil"]
 def fp_drpcstream_stream_Stream_MsgSend : List String :=
-  ["call:s.flush.Do", "defer", "call:s.checkFinished", "call:s.write.Lock", "defer", "call:s.write.Unlock", 
-    "=wbuf", "=err", "call:drpcenc.MarshalAppend", "slice", "0", "if", "!=", "return", "call:errs.Wrap", 
-    "if", "||", "==", "0", "<", "call:len", "=s.wbuf", "if", "=err", "call:s.rawWriteLocked", "!=", 
-    "return", "if", "u!", "return", "call:s.rawFlushLocked", "return"]
+  ["call:s.flush.Do", "id:s", "id:flush", "id:Do", "defer", "call:s.checkFinished", "id:s", "id:checkFinished", 
+    "call:s.write.Lock", "id:s", "id:write", "id:Lock", "defer", "call:s.write.Unlock", "id:s", 
+    "id:write", "id:Unlock", "=wbuf", "=err", "id:wbuf", "id:err", "call:drpcenc.MarshalAppend", 
+    "id:drpcenc", "id:MarshalAppend", "id:msg", "id:enc", "slice", "id:s", "id:wbuf", "0", "if", 
+    "!=", "id:err", "id:nil", "return", "call:errs.Wrap", "id:errs", "id:Wrap", "id:err", "if", 
+    "||", "==", "id:s", "id:opts", "id:MaximumBufferSize", "0", "<", "call:len", "id:len", "id:wbuf", 
+    "id:s", "id:opts", "id:MaximumBufferSize", "=s.wbuf", "id:s", "id:wbuf", "id:wbuf", "if", "=err", 
+    "id:err", "call:s.rawWriteLocked", "id:s", "id:rawWriteLocked", "id:drpcwire", "id:KindMessage", 
+    "id:wbuf", "!=", "id:err", "id:nil", "return", "id:err", "if", "u!", "id:s", "id:opts", "id:ManualFlush", 
+    "return", "call:s.rawFlushLocked", "id:s", "id:rawFlushLocked", "return", "id:nil"]
 def fp_drpcstream_stream_Stream_MsgRecv : List String :=
-  ["if", "=err", "call:s.checkRecvFlush", "!=", "return", "defer", "call:s.checkFinished", "call:s.read.Lock", 
-    "defer", "call:s.read.Unlock", "=data", "=err", "call:s.pbuf.Get", "if", "!=", "return", "=err", 
-    "call:enc.Unmarshal", "call:s.pbuf.Done", "return"]
+  ["if", "=err", "id:err", "call:s.checkRecvFlush", "id:s", "id:checkRecvFlush", "!=", "id:err", 
+    "id:nil", "return", "id:err", "defer", "call:s.checkFinished", "id:s", "id:checkFinished", 
+    "call:s.read.Lock", "id:s", "id:read", "id:Lock", "defer", "call:s.read.Unlock", "id:s", "id:read", 
+    "id:Unlock", "=data", "=err", "id:data", "id:err", "call:s.pbuf.Get", "id:s", "id:pbuf", "id:Get", 
+    "if", "!=", "id:err", "id:nil", "return", "id:err", "=err", "id:err", "call:enc.Unmarshal", 
+    "id:enc", "id:Unmarshal", "id:data", "id:msg", "call:s.pbuf.Done", "id:s", "id:pbuf", "id:Done", 
+    "return", "id:err"]
 def fp_drpcstream_stream_Stream_SendError : List String :=
-  ["call:s.log", "s:CALL", "return", "call:fmt.Sprintf", "s:SendError(%v)", "call:s.mu.Lock", 
-    "if", "call:s.sigs.term.IsSet", "call:s.mu.Unlock", "return", "defer", "call:s.checkFinished", 
-    "call:s.write.Lock", "defer", "call:s.write.Unlock", "call:s.sigs.send.Set", "call:s.terminate", 
-    "call:s.mu.Unlock", "return", "call:s.checkCancelError", "call:s.sendPacketLocked", "call:drpcwire.MarshalError"]
+  ["call:s.log", "id:s", "id:log", "s:CALL", "id:string", "return", "call:fmt.Sprintf", "id:fmt", 
+    "id:Sprintf", "s:SendError(%v)", "id:serr", "call:s.mu.Lock", "id:s", "id:mu", "id:Lock", "if", 
+    "call:s.sigs.term.IsSet", "id:s", "id:sigs", "id:term", "id:IsSet", "call:s.mu.Unlock", "id:s", 
+    "id:mu", "id:Unlock", "return", "id:nil", "defer", "call:s.checkFinished", "id:s", "id:checkFinished", 
+    "call:s.write.Lock", "id:s", "id:write", "id:Lock", "defer", "call:s.write.Unlock", "id:s", 
+    "id:write", "id:Unlock", "call:s.sigs.send.Set", "id:s", "id:sigs", "id:send", "id:Set", "id:io", 
+    "id:EOF", "call:s.terminate", "id:s", "id:terminate", "id:termError", "call:s.mu.Unlock", "id:s", 
+    "id:mu", "id:Unlock", "return", "call:s.checkCancelError", "id:s", "id:checkCancelError", "call:s.sendPacketLocked", 
+    "id:s", "id:sendPacketLocked", "id:drpcwire", "id:KindError", "id:false", "call:drpcwire.MarshalError", 
+    "id:drpcwire", "id:MarshalError", "id:serr"]
 def fp_drpcstream_stream_Stream_SendCancel : List String :=
-  ["call:s.log", "s:CALL", "return", "s:SendCancel()", "if", "u!", "call:s.mu.TryLock", "return", 
-    "if", "u!", "call:s.write.TryLock", "call:s.mu.Unlock", "return", "defer", "call:s.checkFinished", 
-    "defer", "call:s.write.Unlock", "if", "call:s.sigs.term.IsSet", "call:s.mu.Unlock", "return", 
-    "call:s.sigs.send.Set", "call:s.terminate", "call:s.mu.Unlock", "return", "call:s.checkCancelError", 
-    "call:s.sendPacketLocked"]
+  ["call:s.log", "id:s", "id:log", "s:CALL", "id:string", "return", "s:SendCancel()", "if", "u!", 
+    "call:s.mu.TryLock", "id:s", "id:mu", "id:TryLock", "return", "id:true", "id:nil", "if", "u!", 
+    "call:s.write.TryLock", "id:s", "id:write", "id:TryLock", "call:s.mu.Unlock", "id:s", "id:mu", 
+    "id:Unlock", "return", "id:true", "id:nil", "defer", "call:s.checkFinished", "id:s", "id:checkFinished", 
+    "defer", "call:s.write.Unlock", "id:s", "id:write", "id:Unlock", "if", "call:s.sigs.term.IsSet", 
+    "id:s", "id:sigs", "id:term", "id:IsSet", "call:s.mu.Unlock", "id:s", "id:mu", "id:Unlock", 
+    "return", "id:false", "id:nil", "call:s.sigs.send.Set", "id:s", "id:sigs", "id:send", "id:Set", 
+    "id:io", "id:EOF", "call:s.terminate", "id:s", "id:terminate", "id:err", "call:s.mu.Unlock", 
+    "id:s", "id:mu", "id:Unlock", "return", "id:false", "call:s.checkCancelError", "id:s", "id:checkCancelError", 
+    "call:s.sendPacketLocked", "id:s", "id:sendPacketLocked", "id:drpcwire", "id:KindCancel", "id:true", 
+    "id:nil"]
 def fp_drpcstream_stream_Stream_Close : List String :=
-  ["call:s.log", "s:CALL", "return", "s:Close()", "call:s.mu.Lock", "if", "call:s.sigs.term.IsSet", 
-    "call:s.mu.Unlock", "return", "defer", "call:s.checkFinished", "call:s.write.Lock", "defer", 
-    "call:s.write.Unlock", "call:s.terminate", "call:s.mu.Unlock", "return", "call:s.checkCancelError", 
-    "call:s.sendPacketLocked"]
+  ["call:s.log", "id:s", "id:log", "s:CALL", "id:string", "return", "s:Close()", "call:s.mu.Lock", 
+    "id:s", "id:mu", "id:Lock", "if", "call:s.sigs.term.IsSet", "id:s", "id:sigs", "id:term", "id:IsSet", 
+    "call:s.mu.Unlock", "id:s", "id:mu", "id:Unlock", "return", "id:nil", "defer", "call:s.checkFinished", 
+    "id:s", "id:checkFinished", "call:s.write.Lock", "id:s", "id:write", "id:Lock", "defer", "call:s.write.Unlock", 
+    "id:s", "id:write", "id:Unlock", "call:s.terminate", "id:s", "id:terminate", "id:termClosed", 
+    "call:s.mu.Unlock", "id:s", "id:mu", "id:Unlock", "return", "call:s.checkCancelError", "id:s", 
+    "id:checkCancelError", "call:s.sendPacketLocked", "id:s", "id:sendPacketLocked", "id:drpcwire", 
+    "id:KindClose", "id:false", "id:nil"]
 def fp_drpcstream_stream_Stream_CloseSend : List String :=
-  ["call:s.log", "s:CALL", "return", "s:CloseSend()", "call:s.mu.Lock", "if", "||", "call:s.sigs.send.IsSet", 
-    "call:s.sigs.term.IsSet", "call:s.mu.Unlock", "return", "defer", "call:s.checkFinished", "call:s.write.Lock", 
-    "defer", "call:s.write.Unlock", "call:s.sigs.send.Set", "call:s.terminateIfBothClosed", "call:s.mu.Unlock", 
-    "return", "call:s.checkCancelError", "call:s.sendPacketLocked"]
+  ["call:s.log", "id:s", "id:log", "s:CALL", "id:string", "return", "s:CloseSend()", "call:s.mu.Lock", 
+    "id:s", "id:mu", "id:Lock", "if", "||", "call:s.sigs.send.IsSet", "id:s", "id:sigs", "id:send", 
+    "id:IsSet", "call:s.sigs.term.IsSet", "id:s", "id:sigs", "id:term", "id:IsSet", "call:s.mu.Unlock", 
+    "id:s", "id:mu", "id:Unlock", "return", "id:nil", "defer", "call:s.checkFinished", "id:s", 
+    "id:checkFinished", "call:s.write.Lock", "id:s", "id:write", "id:Lock", "defer", "call:s.write.Unlock", 
+    "id:s", "id:write", "id:Unlock", "call:s.sigs.send.Set", "id:s", "id:sigs", "id:send", "id:Set", 
+    "id:sendClosed", "call:s.terminateIfBothClosed", "id:s", "id:terminateIfBothClosed", "call:s.mu.Unlock", 
+    "id:s", "id:mu", "id:Unlock", "return", "call:s.checkCancelError", "id:s", "id:checkCancelError", 
+    "call:s.sendPacketLocked", "id:s", "id:sendPacketLocked", "id:drpcwire", "id:KindCloseSend", 
+    "id:false", "id:nil"]
 def fp_drpcstream_stream_Stream_Cancel : List String :=
-  ["call:s.log", "s:CALL", "return", "call:fmt.Sprintf", "s:Cancel(%v)", "call:s.mu.Lock", "defer", 
-    "call:s.mu.Unlock", "if", "call:s.IsFinished", "return", "call:s.sigs.cancel.Set", "call:s.sigs.send.Set", 
-    "call:s.terminate", "return"]
+  ["call:s.log", "id:s", "id:log", "s:CALL", "id:string", "return", "call:fmt.Sprintf", "id:fmt", 
+    "id:Sprintf", "s:Cancel(%v)", "id:err", "call:s.mu.Lock", "id:s", "id:mu", "id:Lock", "defer", 
+    "call:s.mu.Unlock", "id:s", "id:mu", "id:Unlock", "if", "call:s.IsFinished", "id:s", "id:IsFinished", 
+    "return", "id:true", "call:s.sigs.cancel.Set", "id:s", "id:sigs", "id:cancel", "id:Set", "id:err", 
+    "call:s.sigs.send.Set", "id:s", "id:sigs", "id:send", "id:Set", "id:io", "id:EOF", "call:s.terminate", 
+    "id:s", "id:terminate", "id:err", "return", "id:false"]
 def fp_drpcstream_stream_NewWithOptions : List String :=
-  ["if", "call:trace.IsEnabled", "=kind", "=rpc", "call:drpcopts.GetStreamKind", "u&", "call:drpcopts.GetStreamRPC", 
-    "u&", "if", "&&", "!=", "s:", "!=", "s:", "=ctx", "=task", "call:trace.NewTask", "+", "=s", 
-    "u&", "call:drpcopts.GetStreamTransport", "u&", "call:drpcopts.GetStreamFin", "u&", "call:wr.Reset", 
-    "call:s.pbuf.init", "return"]
+  ["id:task", "id:trace", "id:Task", "if", "call:trace.IsEnabled", "id:trace", "id:IsEnabled", 
+    "=kind", "=rpc", "id:kind", "id:rpc", "call:drpcopts.GetStreamKind", "id:drpcopts", "id:GetStreamKind", 
+    "u&", "id:opts", "id:Internal", "call:drpcopts.GetStreamRPC", "id:drpcopts", "id:GetStreamRPC", 
+    "u&", "id:opts", "id:Internal", "if", "&&", "!=", "id:kind", "s:", "!=", "id:rpc", "s:", "=ctx", 
+    "=task", "id:ctx", "id:task", "call:trace.NewTask", "id:trace", "id:NewTask", "id:ctx", "+", 
+    "id:kind", "id:rpc", "=s", "id:s", "u&", "id:Stream", "id:ctx", "id:streamCtx", "id:Context", 
+    "id:ctx", "id:tr", "call:drpcopts.GetStreamTransport", "id:drpcopts", "id:GetStreamTransport", 
+    "u&", "id:opts", "id:Internal", "id:opts", "id:opts", "id:fin", "call:drpcopts.GetStreamFin", 
+    "id:drpcopts", "id:GetStreamFin", "u&", "id:opts", "id:Internal", "id:task", "id:task", "id:id", 
+    "id:drpcwire", "id:ID", "id:Stream", "id:sid", "id:wr", "call:wr.Reset", "id:wr", "id:Reset", 
+    "call:s.pbuf.init", "id:s", "id:pbuf", "id:init", "return", "id:s"]
 def fp_drpcmanager_manager_NewWithOptions : List String :=
-  ["=m", "u&", "call:drpcwire.NewWriter", "call:drpcwire.NewReaderWithOptions", "call:make", "call:make", 
-    "1", "call:make", "call:m.sbuf.init", "call:m.sem.Make", "1", "call:m.pdone.Make", "1", "call:drpcopts.SetStreamTransport", 
-    "u&", "call:drpcopts.SetStreamFin", "u&", "go", "call:m.manageReader", "go", "call:m.manageStreams", 
-    "return"]
+  ["=m", "id:m", "u&", "id:Manager", "id:tr", "id:tr", "id:wr", "call:drpcwire.NewWriter", "id:drpcwire", 
+    "id:NewWriter", "id:tr", "id:opts", "id:WriterBufferSize", "id:rd", "call:drpcwire.NewReaderWithOptions", 
+    "id:drpcwire", "id:NewReaderWithOptions", "id:tr", "id:opts", "id:Reader", "id:opts", "id:opts", 
+    "id:pkts", "call:make", "id:make", "id:drpcwire", "id:Packet", "id:sfin", "call:make", "id:make", 
+    "1", "id:streams", "call:make", "id:make", "id:streamInfo", "call:m.sbuf.init", "id:m", "id:sbuf", 
+    "id:init", "call:m.sem.Make", "id:m", "id:sem", "id:Make", "1", "call:m.pdone.Make", "id:m", 
+    "id:pdone", "id:Make", "1", "call:drpcopts.SetStreamTransport", "id:drpcopts", "id:SetStreamTransport", 
+    "u&", "id:m", "id:opts", "id:Stream", "id:Internal", "id:m", "id:tr", "call:drpcopts.SetStreamFin", 
+    "id:drpcopts", "id:SetStreamFin", "u&", "id:m", "id:opts", "id:Stream", "id:Internal", "id:m", 
+    "id:sfin", "go", "call:m.manageReader", "id:m", "id:manageReader", "go", "call:m.manageStreams", 
+    "id:m", "id:manageStreams", "return", "id:m"]
 def fp_drpcmanager_manager_Manager_acquireSemaphore : List String :=
-  ["if", "=err", "=ok", "call:m.sigs.term.Get", "return", "if", "=err", "call:ctx.Err", "!=", 
-    "return", "select", "u<-", "call:ctx.Done", "return", "call:ctx.Err", "u<-", "call:m.sigs.term.Signal", 
-    "return", "call:m.sigs.term.Err", "send", "call:m.sem.Get", "call:drpcdebug.Event", "s:sem.acq", 
-    "0", "if", "=err", "call:m.waitForPreviousStream", "!=", "call:drpcdebug.Event", "s:sem.rel", 
-    "0", "call:m.sem.Recv", "return", "return"]
+  ["if", "=err", "=ok", "id:err", "id:ok", "call:m.sigs.term.Get", "id:m", "id:sigs", "id:term", 
+    "id:Get", "id:ok", "return", "id:err", "if", "=err", "id:err", "call:ctx.Err", "id:ctx", "id:Err", 
+    "!=", "id:err", "id:nil", "return", "id:err", "select", "u<-", "call:ctx.Done", "id:ctx", "id:Done", 
+    "return", "call:ctx.Err", "id:ctx", "id:Err", "u<-", "call:m.sigs.term.Signal", "id:m", "id:sigs", 
+    "id:term", "id:Signal", "return", "call:m.sigs.term.Err", "id:m", "id:sigs", "id:term", "id:Err", 
+    "send", "call:m.sem.Get", "id:m", "id:sem", "id:Get", "call:drpcdebug.Event", "id:drpcdebug", 
+    "id:Event", "id:m", "s:sem.acq", "0", "if", "=err", "id:err", "call:m.waitForPreviousStream", 
+    "id:m", "id:waitForPreviousStream", "id:ctx", "!=", "id:err", "id:nil", "call:drpcdebug.Event", 
+    "id:drpcdebug", "id:Event", "id:m", "s:sem.rel", "0", "call:m.sem.Recv", "id:m", "id:sem", 
+    "id:Recv", "return", "id:err", "return", "id:nil"]
 def fp_drpcmanager_manager_Manager_waitForPreviousStream : List String :=
-  ["=prev", "call:m.sbuf.Get", "if", "==", "call:drpcdebug.Event", "s:prev.none", "0", "return", 
-    "if", "call:prev.IsFinished", "call:drpcdebug.Event", "s:prev.done", "call:prev.ID", "return", 
-    "call:m.log", "s:WAIT", "select", "u<-", "call:ctx.Done", "return", "call:ctx.Err", "u<-", 
-    "call:m.sigs.term.Signal", "return", "call:m.sigs.term.Err", "u<-", "call:prev.Finished", "call:drpcdebug.Event", 
-    "s:prev.done", "call:prev.ID", "return"]
+  ["=prev", "id:prev", "call:m.sbuf.Get", "id:m", "id:sbuf", "id:Get", "if", "==", "id:prev", 
+    "id:nil", "call:drpcdebug.Event", "id:drpcdebug", "id:Event", "id:m", "s:prev.none", "0", "return", 
+    "id:nil", "if", "call:prev.IsFinished", "id:prev", "id:IsFinished", "call:drpcdebug.Event", 
+    "id:drpcdebug", "id:Event", "id:m", "s:prev.done", "call:prev.ID", "id:prev", "id:ID", "return", 
+    "id:nil", "call:m.log", "id:m", "id:log", "s:WAIT", "id:prev", "id:String", "select", "u<-", 
+    "call:ctx.Done", "id:ctx", "id:Done", "return", "call:ctx.Err", "id:ctx", "id:Err", "u<-", 
+    "call:m.sigs.term.Signal", "id:m", "id:sigs", "id:term", "id:Signal", "return", "call:m.sigs.term.Err", 
+    "id:m", "id:sigs", "id:term", "id:Err", "u<-", "call:prev.Finished", "id:prev", "id:Finished", 
+    "call:drpcdebug.Event", "id:drpcdebug", "id:Event", "id:m", "s:prev.done", "call:prev.ID", 
+    "id:prev", "id:ID", "return", "id:nil"]
 def fp_drpcmanager_manager_Manager_terminate : List String :=
-  ["if", "call:m.sigs.term.Set", "call:drpcdebug.Event", "s:term", "0", "call:m.log", "s:TERM", 
-    "return", "call:fmt.Sprint", "call:drpcdebug.Event", "s:tport.close", "0", "call:m.sigs.tport.Set", 
-    "call:m.tr.Close", "call:m.sbuf.Close"]
+  ["if", "call:m.sigs.term.Set", "id:m", "id:sigs", "id:term", "id:Set", "id:err", "call:drpcdebug.Event", 
+    "id:drpcdebug", "id:Event", "id:m", "s:term", "0", "call:m.log", "id:m", "id:log", "s:TERM", 
+    "id:string", "return", "call:fmt.Sprint", "id:fmt", "id:Sprint", "id:err", "call:drpcdebug.Event", 
+    "id:drpcdebug", "id:Event", "id:m", "s:tport.close", "0", "call:m.sigs.tport.Set", "id:m", 
+    "id:sigs", "id:tport", "id:Set", "call:m.tr.Close", "id:m", "id:tr", "id:Close", "call:m.sbuf.Close", 
+    "id:m", "id:sbuf", "id:Close"]
 def fp_drpcmanager_manager_Manager_manageReader : List String :=
-  ["defer", "call:m.sigs.read.Set", "for", "u!", "call:m.sigs.term.IsSet", "if", ">", "10", "=pkt.Data", 
-    "=run", "0", "=pkt", "=err", "call:m.rd.ReadPacketUsing", "slice", "0", "if", "!=", "if", "call:isConnectionReset", 
-    "=err", "call:drpc.ClosedError.Wrap", "call:m.terminate", "call:managerClosed.Wrap", "return", 
-    "if", "<", "call:len", "/", "call:cap", "4", "++", "=run", "0", "call:m.log", "s:READ", "switch", 
-    "=curr", "call:m.sbuf.Get", "case", "&&", "!=", "==", "call:curr.ID", "call:drpcdebug.Event", 
-    "s:rd.deliver", "if", "=err", "call:curr.HandlePacket", "!=", "call:m.terminate", "call:managerClosed.Wrap", 
-    "return", "case", "&&", "!=", "<", "call:curr.ID", "call:drpcdebug.Event", "s:rd.drop", "case", 
-    "||", "==", "==", "if", "&&", "!=", "u!", "call:curr.IsTerminated", "call:curr.Cancel", "if", 
-    "==", "=invoked", "call:drpcdebug.Event", "s:rd.queue", "select", "send", "call:m.pdone.Recv", 
-    "u<-", "call:m.sigs.term.Signal", "return", "default", "if", "&&", "!=", "u!", "call:curr.IsTerminated", 
-    "call:curr.Cancel", "if", "!=", "call:drpcdebug.Event", "s:rd.orphan", "break", "call:drpcdebug.Event", 
-    "s:rd.wait", "if", "u!", "call:m.sbuf.Wait", "call:curr.ID", "return", "goto"]
+  ["defer", "call:m.sigs.read.Set", "id:m", "id:sigs", "id:read", "id:Set", "id:nil", "id:pkt", 
+    "id:drpcwire", "id:Packet", "id:err", "id:error", "id:run", "id:int", "id:invoked", "id:uint64", 
+    "for", "u!", "call:m.sigs.term.IsSet", "id:m", "id:sigs", "id:term", "id:IsSet", "if", ">", 
+    "id:run", "10", "=pkt.Data", "id:pkt", "id:Data", "id:nil", "=run", "id:run", "0", "=pkt", 
+    "=err", "id:pkt", "id:err", "call:m.rd.ReadPacketUsing", "id:m", "id:rd", "id:ReadPacketUsing", 
+    "slice", "id:pkt", "id:Data", "0", "if", "!=", "id:err", "id:nil", "if", "call:isConnectionReset", 
+    "id:isConnectionReset", "id:err", "=err", "id:err", "call:drpc.ClosedError.Wrap", "id:drpc", 
+    "id:ClosedError", "id:Wrap", "id:err", "call:m.terminate", "id:m", "id:terminate", "call:managerClosed.Wrap", 
+    "id:managerClosed", "id:Wrap", "id:err", "return", "if", "<", "call:len", "id:len", "id:pkt", 
+    "id:Data", "/", "call:cap", "id:cap", "id:pkt", "id:Data", "4", "++", "id:run", "=run", "id:run", 
+    "0", "call:m.log", "id:m", "id:log", "s:READ", "id:pkt", "id:String", "id:again", "switch", 
+    "=curr", "id:curr", "call:m.sbuf.Get", "id:m", "id:sbuf", "id:Get", "case", "&&", "!=", "id:curr", 
+    "id:nil", "==", "id:pkt", "id:ID", "id:Stream", "call:curr.ID", "id:curr", "id:ID", "call:drpcdebug.Event", 
+    "id:drpcdebug", "id:Event", "id:m", "s:rd.deliver", "id:pkt", "id:ID", "id:Stream", "if", "=err", 
+    "id:err", "call:curr.HandlePacket", "id:curr", "id:HandlePacket", "id:pkt", "!=", "id:err", 
+    "id:nil", "call:m.terminate", "id:m", "id:terminate", "call:managerClosed.Wrap", "id:managerClosed", 
+    "id:Wrap", "id:err", "return", "case", "&&", "!=", "id:curr", "id:nil", "<", "id:pkt", "id:ID", 
+    "id:Stream", "call:curr.ID", "id:curr", "id:ID", "call:drpcdebug.Event", "id:drpcdebug", "id:Event", 
+    "id:m", "s:rd.drop", "id:pkt", "id:ID", "id:Stream", "case", "||", "==", "id:pkt", "id:Kind", 
+    "id:drpcwire", "id:KindInvoke", "==", "id:pkt", "id:Kind", "id:drpcwire", "id:KindInvokeMetadata", 
+    "if", "&&", "!=", "id:curr", "id:nil", "u!", "call:curr.IsTerminated", "id:curr", "id:IsTerminated", 
+    "call:curr.Cancel", "id:curr", "id:Cancel", "id:context", "id:Canceled", "if", "==", "id:pkt", 
+    "id:Kind", "id:drpcwire", "id:KindInvoke", "=invoked", "id:invoked", "id:pkt", "id:ID", "id:Stream", 
+    "call:drpcdebug.Event", "id:drpcdebug", "id:Event", "id:m", "s:rd.queue", "id:pkt", "id:ID", 
+    "id:Stream", "select", "send", "id:m", "id:pkts", "id:pkt", "call:m.pdone.Recv", "id:m", "id:pdone", 
+    "id:Recv", "u<-", "call:m.sigs.term.Signal", "id:m", "id:sigs", "id:term", "id:Signal", "return", 
+    "default", "if", "&&", "!=", "id:curr", "id:nil", "u!", "call:curr.IsTerminated", "id:curr", 
+    "id:IsTerminated", "call:curr.Cancel", "id:curr", "id:Cancel", "id:context", "id:Canceled", 
+    "if", "!=", "id:pkt", "id:ID", "id:Stream", "id:invoked", "call:drpcdebug.Event", "id:drpcdebug", 
+    "id:Event", "id:m", "s:rd.orphan", "id:pkt", "id:ID", "id:Stream", "break", "call:drpcdebug.Event", 
+    "id:drpcdebug", "id:Event", "id:m", "s:rd.wait", "id:pkt", "id:ID", "id:Stream", "if", "u!", 
+    "call:m.sbuf.Wait", "id:m", "id:sbuf", "id:Wait", "call:curr.ID", "id:curr", "id:ID", "return", 
+    "goto", "id:again"]
 def fp_drpcmanager_manager_Manager_newStream : List String :=
-  ["=opts", "call:drpcopts.SetStreamKind", "u&", "call:drpcopts.SetStreamRPC", "u&", "if", "=cb", 
-    "call:drpcopts.GetManagerStatsCB", "u&", "!=", "call:drpcopts.SetStreamStats", "u&", "call:cb", 
-    "=stream", "call:drpcstream.NewWithOptions", "call:drpcdebug.Event", "s:stream.new.begin", 
-    "call:m.sbuf.Set", "call:drpcdebug.Event", "s:stream.new.end", "call:drpcdebug.Event", "s:stream.new.offer", 
-    "select", "send", "call:drpcdebug.Point", "s:manager.newStream.handoff", "call:m.log", "s:STREAM", 
-    "return", "u<-", "call:m.sigs.term.Signal", "call:drpcdebug.Event", "s:stream.new.retract", 
-    "return", "call:m.sigs.term.Err"]
+  ["=opts", "id:opts", "id:m", "id:opts", "id:Stream", "call:drpcopts.SetStreamKind", "id:drpcopts", 
+    "id:SetStreamKind", "u&", "id:opts", "id:Internal", "id:kind", "call:drpcopts.SetStreamRPC", 
+    "id:drpcopts", "id:SetStreamRPC", "u&", "id:opts", "id:Internal", "id:rpc", "if", "=cb", "id:cb", 
+    "call:drpcopts.GetManagerStatsCB", "id:drpcopts", "id:GetManagerStatsCB", "u&", "id:m", "id:opts", 
+    "id:Internal", "!=", "id:cb", "id:nil", "call:drpcopts.SetStreamStats", "id:drpcopts", "id:SetStreamStats", 
+    "u&", "id:opts", "id:Internal", "call:cb", "id:cb", "id:rpc", "=stream", "id:stream", "call:drpcstream.NewWithOptions", 
+    "id:drpcstream", "id:NewWithOptions", "id:ctx", "id:sid", "id:m", "id:wr", "id:opts", "call:drpcdebug.Event", 
+    "id:drpcdebug", "id:Event", "id:m", "s:stream.new.begin", "id:sid", "call:m.sbuf.Set", "id:m", 
+    "id:sbuf", "id:Set", "id:stream", "call:drpcdebug.Event", "id:drpcdebug", "id:Event", "id:m", 
+    "s:stream.new.end", "id:sid", "call:drpcdebug.Event", "id:drpcdebug", "id:Event", "id:m", "s:stream.new.offer", 
+    "id:sid", "select", "send", "id:m", "id:streams", "id:streamInfo", "id:ctx", "id:ctx", "id:stream", 
+    "id:stream", "call:drpcdebug.Point", "id:drpcdebug", "id:Point", "s:manager.newStream.handoff", 
+    "call:m.log", "id:m", "id:log", "s:STREAM", "id:stream", "id:String", "return", "id:stream", 
+    "id:nil", "u<-", "call:m.sigs.term.Signal", "id:m", "id:sigs", "id:term", "id:Signal", "call:drpcdebug.Event", 
+    "id:drpcdebug", "id:Event", "id:m", "s:stream.new.retract", "id:sid", "return", "id:nil", "call:m.sigs.term.Err", 
+    "id:m", "id:sigs", "id:term", "id:Err"]
 def fp_drpcmanager_manager_Manager_manageStreams : List String :=
-  ["defer", "call:m.sigs.stream.Set", "for", "select", "=si", "u<-", "call:m.manageStream", "u<-", 
-    "call:m.sigs.term.Signal", "return"]
+  ["defer", "call:m.sigs.stream.Set", "id:m", "id:sigs", "id:stream", "id:Set", "id:nil", "for", 
+    "select", "=si", "id:si", "u<-", "id:m", "id:streams", "call:m.manageStream", "id:m", "id:manageStream", 
+    "id:si", "id:ctx", "id:si", "id:stream", "u<-", "call:m.sigs.term.Signal", "id:m", "id:sigs", 
+    "id:term", "id:Signal", "return"]
 def fp_drpcmanager_manager_Manager_manageStream : List String :=
-  ["select", "u<-", "call:m.sigs.term.Signal", "=err", "call:m.sigs.term.Err", "if", "call:errors.Is", 
-    "=err", "call:stream.Cancel", "u<-", "call:drpcdebug.Event", "s:sfin.recv", "call:stream.ID", 
-    "call:drpcdebug.Event", "s:sem.rel", "0", "call:m.sem.Recv", "u<-", "call:drpcdebug.Event", 
-    "s:sfin.recv", "call:stream.ID", "call:drpcdebug.Event", "s:sem.rel", "0", "call:m.sem.Recv", 
-    "u<-", "call:ctx.Done", "call:m.log", "s:CANCEL", "if", "call:drpcdebug.Event", "s:sem.rel", 
-    "0", "call:m.sem.Recv", "if", "=busy", "=err", "call:stream.SendCancel", "call:ctx.Err", "!=", 
-    "call:m.terminate", "if", "call:m.log", "s:BUSY", "call:m.terminate", "call:ctx.Err", "call:stream.Cancel", 
-    "call:ctx.Err", "u<-", "call:drpcdebug.Event", "s:sfin.recv", "call:stream.ID", "if", "u!", 
-    "call:stream.Cancel", "call:ctx.Err", "call:m.log", "s:UNFIN", "call:m.terminate", "call:ctx.Err", 
-    "call:m.log", "s:CLEAN", "u<-", "call:drpcdebug.Event", "s:sfin.recv", "call:stream.ID", "call:drpcdebug.Event", 
-    "s:sem.rel", "0", "call:m.sem.Recv"]
+  ["select", "u<-", "call:m.sigs.term.Signal", "id:m", "id:sigs", "id:term", "id:Signal", "=err", 
+    "id:err", "call:m.sigs.term.Err", "id:m", "id:sigs", "id:term", "id:Err", "if", "call:errors.Is", 
+    "id:errors", "id:Is", "id:err", "id:io", "id:EOF", "=err", "id:err", "id:context", "id:Canceled", 
+    "call:stream.Cancel", "id:stream", "id:Cancel", "id:err", "u<-", "id:m", "id:sfin", "call:drpcdebug.Event", 
+    "id:drpcdebug", "id:Event", "id:m", "s:sfin.recv", "call:stream.ID", "id:stream", "id:ID", 
+    "call:drpcdebug.Event", "id:drpcdebug", "id:Event", "id:m", "s:sem.rel", "0", "call:m.sem.Recv", 
+    "id:m", "id:sem", "id:Recv", "u<-", "id:m", "id:sfin", "call:drpcdebug.Event", "id:drpcdebug", 
+    "id:Event", "id:m", "s:sfin.recv", "call:stream.ID", "id:stream", "id:ID", "call:drpcdebug.Event", 
+    "id:drpcdebug", "id:Event", "id:m", "s:sem.rel", "0", "call:m.sem.Recv", "id:m", "id:sem", 
+    "id:Recv", "u<-", "call:ctx.Done", "id:ctx", "id:Done", "call:m.log", "id:m", "id:log", "s:CANCEL", 
+    "id:stream", "id:String", "if", "id:m", "id:opts", "id:SoftCancel", "call:drpcdebug.Event", 
+    "id:drpcdebug", "id:Event", "id:m", "s:sem.rel", "0", "call:m.sem.Recv", "id:m", "id:sem", 
+    "id:Recv", "if", "=busy", "=err", "id:busy", "id:err", "call:stream.SendCancel", "id:stream", 
+    "id:SendCancel", "call:ctx.Err", "id:ctx", "id:Err", "!=", "id:err", "id:nil", "call:m.terminate", 
+    "id:m", "id:terminate", "id:err", "if", "id:busy", "call:m.log", "id:m", "id:log", "s:BUSY", 
+    "id:stream", "id:String", "call:m.terminate", "id:m", "id:terminate", "call:ctx.Err", "id:ctx", 
+    "id:Err", "call:stream.Cancel", "id:stream", "id:Cancel", "call:ctx.Err", "id:ctx", "id:Err", 
+    "u<-", "id:m", "id:sfin", "call:drpcdebug.Event", "id:drpcdebug", "id:Event", "id:m", "s:sfin.recv", 
+    "call:stream.ID", "id:stream", "id:ID", "if", "u!", "call:stream.Cancel", "id:stream", "id:Cancel", 
+    "call:ctx.Err", "id:ctx", "id:Err", "call:m.log", "id:m", "id:log", "s:UNFIN", "id:stream", 
+    "id:String", "call:m.terminate", "id:m", "id:terminate", "call:ctx.Err", "id:ctx", "id:Err", 
+    "call:m.log", "id:m", "id:log", "s:CLEAN", "id:stream", "id:String", "u<-", "id:m", "id:sfin", 
+    "call:drpcdebug.Event", "id:drpcdebug", "id:Event", "id:m", "s:sfin.recv", "call:stream.ID", 
+    "id:stream", "id:ID", "call:drpcdebug.Event", "id:drpcdebug", "id:Event", "id:m", "s:sem.rel", 
+    "0", "call:m.sem.Recv", "id:m", "id:sem", "id:Recv"]
 def fp_drpcmanager_manager_Manager_Close : List String :=
-  ["call:m.terminate", "call:managerClosed.New", "s:Close called", "call:m.sigs.stream.Wait", 
-    "call:m.sigs.read.Wait", "call:m.sigs.tport.Wait", "return", "call:m.sigs.tport.Err"]
+  ["call:m.terminate", "id:m", "id:terminate", "call:managerClosed.New", "id:managerClosed", "id:New", 
+    "s:Close called", "call:m.sigs.stream.Wait", "id:m", "id:sigs", "id:stream", "id:Wait", "call:m.sigs.read.Wait", 
+    "id:m", "id:sigs", "id:read", "id:Wait", "call:m.sigs.tport.Wait", "id:m", "id:sigs", "id:tport", 
+    "id:Wait", "return", "call:m.sigs.tport.Err", "id:m", "id:sigs", "id:tport", "id:Err"]
 def fp_drpcmanager_manager_Manager_NewClientStream : List String :=
-  ["if", "=err", "call:m.acquireSemaphore", "!=", "return", "return", "call:m.newStream", "+", 
-    "call:m.sbuf.Get().ID", "call:m.sbuf.Get", "1", "s:cli"]
+  ["if", "=err", "id:err", "call:m.acquireSemaphore", "id:m", "id:acquireSemaphore", "id:ctx", 
+    "!=", "id:err", "id:nil", "return", "id:nil", "id:err", "return", "call:m.newStream", "id:m", 
+    "id:newStream", "id:ctx", "+", "call:m.sbuf.Get().ID", "call:m.sbuf.Get", "id:m", "id:sbuf", 
+    "id:Get", "id:ID", "1", "s:cli", "id:rpc"]
 def fp_drpcmanager_manager_Manager_NewServerStream : List String :=
-  ["if", "=err", "call:m.acquireSemaphore", "!=", "return", "s:", "defer", "call:func", "if", 
-    "!=", "call:drpcdebug.Event", "s:sem.rel", "0", "call:m.sem.Recv", "if", "=timeout", ">", "0", 
-    "=timer", "call:time.NewTimer", "defer", "call:timer.Stop", "=timeoutCh", "for", "select", 
-    "u<-", "return", "s:", "u<-", "call:ctx.Done", "return", "s:", "call:ctx.Err", "u<-", "call:m.sigs.term.Signal", 
-    "return", "s:", "call:m.sigs.term.Err", "=pkt", "u<-", "switch", "case", "=meta", "=err", "call:drpcmetadata.Decode", 
-    "call:m.pdone.Send", "if", "!=", "return", "s:", "=metaID", "case", "=rpc", "call:string", 
-    "call:m.pdone.Send", "if", "==", "=ctx", "call:drpcmetadata.AddPairs", "=stream", "=err", "call:m.newStream", 
-    "s:srv", "return", "default", "call:m.pdone.Send"]
+  ["if", "=err", "id:err", "call:m.acquireSemaphore", "id:m", "id:acquireSemaphore", "id:ctx", 
+    "!=", "id:err", "id:nil", "return", "id:nil", "s:", "id:err", "defer", "call:func", "if", "!=", 
+    "id:err", "id:nil", "call:drpcdebug.Event", "id:drpcdebug", "id:Event", "id:m", "s:sem.rel", 
+    "0", "call:m.sem.Recv", "id:m", "id:sem", "id:Recv", "id:meta", "id:string", "id:string", "id:metaID", 
+    "id:uint64", "id:timeoutCh", "id:time", "id:Time", "if", "=timeout", "id:timeout", "id:m", 
+    "id:opts", "id:InactivityTimeout", ">", "id:timeout", "0", "=timer", "id:timer", "call:time.NewTimer", 
+    "id:time", "id:NewTimer", "id:timeout", "defer", "call:timer.Stop", "id:timer", "id:Stop", 
+    "=timeoutCh", "id:timeoutCh", "id:timer", "id:C", "for", "select", "u<-", "id:timeoutCh", "return", 
+    "id:nil", "s:", "id:context", "id:DeadlineExceeded", "u<-", "call:ctx.Done", "id:ctx", "id:Done", 
+    "return", "id:nil", "s:", "call:ctx.Err", "id:ctx", "id:Err", "u<-", "call:m.sigs.term.Signal", 
+    "id:m", "id:sigs", "id:term", "id:Signal", "return", "id:nil", "s:", "call:m.sigs.term.Err", 
+    "id:m", "id:sigs", "id:term", "id:Err", "=pkt", "id:pkt", "u<-", "id:m", "id:pkts", "switch", 
+    "id:pkt", "id:Kind", "case", "id:drpcwire", "id:KindInvokeMetadata", "=meta", "=err", "id:meta", 
+    "id:err", "call:drpcmetadata.Decode", "id:drpcmetadata", "id:Decode", "id:pkt", "id:Data", 
+    "call:m.pdone.Send", "id:m", "id:pdone", "id:Send", "if", "!=", "id:err", "id:nil", "return", 
+    "id:nil", "s:", "id:err", "=metaID", "id:metaID", "id:pkt", "id:ID", "id:Stream", "case", "id:drpcwire", 
+    "id:KindInvoke", "=rpc", "id:rpc", "call:string", "id:string", "id:pkt", "id:Data", "call:m.pdone.Send", 
+    "id:m", "id:pdone", "id:Send", "if", "==", "id:metaID", "id:pkt", "id:ID", "id:Stream", "=ctx", 
+    "id:ctx", "call:drpcmetadata.AddPairs", "id:drpcmetadata", "id:AddPairs", "id:ctx", "id:meta", 
+    "=stream", "=err", "id:stream", "id:err", "call:m.newStream", "id:m", "id:newStream", "id:ctx", 
+    "id:pkt", "id:ID", "id:Stream", "s:srv", "id:rpc", "return", "id:stream", "id:rpc", "id:err", 
+    "default", "call:m.pdone.Send", "id:m", "id:pdone", "id:Send"]
 def fp_drpcmanager_manager_Manager_Unblocked : List String :=
-  ["if", "=prev", "call:m.sbuf.Get", "!=", "return", "call:prev.Context().Done", "call:prev.Context", 
-    "return"]
+  ["if", "=prev", "id:prev", "call:m.sbuf.Get", "id:m", "id:sbuf", "id:Get", "!=", "id:prev", 
+    "id:nil", "return", "call:prev.Context().Done", "call:prev.Context", "id:prev", "id:Context", 
+    "id:Done", "return", "id:closedCh"]
 def fp_drpcmanager_streambuf_streamBuffer_Close : List String :=
-  ["call:sb.mu.Lock", "defer", "call:sb.mu.Unlock", "=sb.closed", "call:sb.cond.Broadcast"]
+  ["call:sb.mu.Lock", "id:sb", "id:mu", "id:Lock", "defer", "call:sb.mu.Unlock", "id:sb", "id:mu", 
+    "id:Unlock", "=sb.closed", "id:sb", "id:closed", "id:true", "call:sb.cond.Broadcast", "id:sb", 
+    "id:cond", "id:Broadcast"]
 def fp_drpcmanager_streambuf_streamBuffer_Set : List String :=
-  ["call:sb.mu.Lock", "defer", "call:sb.mu.Unlock", "if", "return", "call:sb.stream.Store", "call:sb.cond.Broadcast"]
+  ["call:sb.mu.Lock", "id:sb", "id:mu", "id:Lock", "defer", "call:sb.mu.Unlock", "id:sb", "id:mu", 
+    "id:Unlock", "if", "id:sb", "id:closed", "return", "call:sb.stream.Store", "id:sb", "id:stream", 
+    "id:Store", "id:stream", "call:sb.cond.Broadcast", "id:sb", "id:cond", "id:Broadcast"]
 def fp_drpcmanager_streambuf_streamBuffer_Wait : List String :=
-  ["call:sb.mu.Lock", "defer", "call:sb.mu.Unlock", "for", "&&", "u!", "==", "call:sb.Get().ID", 
-    "call:sb.Get", "call:sb.cond.Wait", "return", "u!"]
+  ["call:sb.mu.Lock", "id:sb", "id:mu", "id:Lock", "defer", "call:sb.mu.Unlock", "id:sb", "id:mu", 
+    "id:Unlock", "for", "&&", "u!", "id:sb", "id:closed", "==", "call:sb.Get().ID", "call:sb.Get", 
+    "id:sb", "id:Get", "id:ID", "id:sid", "call:sb.cond.Wait", "id:sb", "id:cond", "id:Wait", "return", 
+    "u!", "id:sb", "id:closed"]
 def fp_drpcmanager_streambuf_streamBuffer_Get : List String :=
-  ["return", "call:sb.stream.Load"]
+  ["return", "call:sb.stream.Load", "id:sb", "id:stream", "id:Load"]
 def fp_drpcconn_conn_Conn_Invoke : List String :=
-  ["if", "=md", "=ok", "call:drpcmetadata.Get", "=metadata", "=err", "call:drpcmetadata.Encode", 
-    "if", "!=", "return", "=stream", "=err", "call:c.man.NewClientStream", "if", "!=", "return", 
-    "defer", "call:func", "=err", "call:errs.Combine", "call:stream.Close", "call:c.mu.Lock", "defer", 
-    "call:c.mu.Unlock", "=c.wbuf", "=err", "call:drpcenc.MarshalAppend", "slice", "0", "if", "!=", 
-    "return", "if", "=err", "call:c.doInvoke", "!=", "return", "return"]
+  ["id:metadata", "id:byte", "if", "=md", "=ok", "id:md", "id:ok", "call:drpcmetadata.Get", "id:drpcmetadata", 
+    "id:Get", "id:ctx", "id:ok", "=metadata", "=err", "id:metadata", "id:err", "call:drpcmetadata.Encode", 
+    "id:drpcmetadata", "id:Encode", "id:metadata", "id:md", "if", "!=", "id:err", "id:nil", "return", 
+    "id:err", "=stream", "=err", "id:stream", "id:err", "call:c.man.NewClientStream", "id:c", "id:man", 
+    "id:NewClientStream", "id:ctx", "id:rpc", "if", "!=", "id:err", "id:nil", "return", "id:err", 
+    "defer", "call:func", "=err", "id:err", "call:errs.Combine", "id:errs", "id:Combine", "id:err", 
+    "call:stream.Close", "id:stream", "id:Close", "call:c.mu.Lock", "id:c", "id:mu", "id:Lock", 
+    "defer", "call:c.mu.Unlock", "id:c", "id:mu", "id:Unlock", "=c.wbuf", "=err", "id:c", "id:wbuf", 
+    "id:err", "call:drpcenc.MarshalAppend", "id:drpcenc", "id:MarshalAppend", "id:in", "id:enc", 
+    "slice", "id:c", "id:wbuf", "0", "if", "!=", "id:err", "id:nil", "return", "id:err", "if", 
+    "=err", "id:err", "call:c.doInvoke", "id:c", "id:doInvoke", "id:stream", "id:enc", "id:rpc", 
+    "id:c", "id:wbuf", "id:metadata", "id:out", "!=", "id:err", "id:nil", "return", "id:err", "return", 
+    "id:nil"]
 def fp_drpcconn_conn_Conn_doInvoke : List String :=
-  ["if", ">", "call:len", "0", "if", "=err", "call:stream.RawWrite", "!=", "return", "if", "=err", 
-    "call:stream.RawWrite", "call:[]byte", "!=", "return", "if", "=err", "call:stream.RawWrite", 
-    "!=", "return", "if", "=err", "call:stream.CloseSend", "!=", "return", "if", "=err", "call:stream.MsgRecv", 
-    "!=", "return", "return"]
+  ["if", ">", "call:len", "id:len", "id:metadata", "0", "if", "=err", "id:err", "call:stream.RawWrite", 
+    "id:stream", "id:RawWrite", "id:drpcwire", "id:KindInvokeMetadata", "id:metadata", "!=", "id:err", 
+    "id:nil", "return", "id:err", "if", "=err", "id:err", "call:stream.RawWrite", "id:stream", 
+    "id:RawWrite", "id:drpcwire", "id:KindInvoke", "call:[]byte", "id:byte", "id:rpc", "!=", "id:err", 
+    "id:nil", "return", "id:err", "if", "=err", "id:err", "call:stream.RawWrite", "id:stream", 
+    "id:RawWrite", "id:drpcwire", "id:KindMessage", "id:data", "!=", "id:err", "id:nil", "return", 
+    "id:err", "if", "=err", "id:err", "call:stream.CloseSend", "id:stream", "id:CloseSend", "!=", 
+    "id:err", "id:nil", "return", "id:err", "if", "=err", "id:err", "call:stream.MsgRecv", "id:stream", 
+    "id:MsgRecv", "id:out", "id:enc", "!=", "id:err", "id:nil", "return", "id:err", "return", "id:nil"]
 def fp_drpcconn_conn_Conn_NewStream : List String :=
-  ["if", "=md", "=ok", "call:drpcmetadata.Get", "=metadata", "=err", "call:drpcmetadata.Encode", 
-    "if", "!=", "return", "=stream", "=err", "call:c.man.NewClientStream", "if", "!=", "return", 
-    "if", "=err", "call:c.doNewStream", "!=", "return", "call:errs.Combine", "call:stream.Close", 
-    "return"]
+  ["id:metadata", "id:byte", "if", "=md", "=ok", "id:md", "id:ok", "call:drpcmetadata.Get", "id:drpcmetadata", 
+    "id:Get", "id:ctx", "id:ok", "=metadata", "=err", "id:metadata", "id:err", "call:drpcmetadata.Encode", 
+    "id:drpcmetadata", "id:Encode", "id:metadata", "id:md", "if", "!=", "id:err", "id:nil", "return", 
+    "id:nil", "id:err", "=stream", "=err", "id:stream", "id:err", "call:c.man.NewClientStream", 
+    "id:c", "id:man", "id:NewClientStream", "id:ctx", "id:rpc", "if", "!=", "id:err", "id:nil", 
+    "return", "id:nil", "id:err", "if", "=err", "id:err", "call:c.doNewStream", "id:c", "id:doNewStream", 
+    "id:stream", "id:rpc", "id:metadata", "!=", "id:err", "id:nil", "return", "id:nil", "call:errs.Combine", 
+    "id:errs", "id:Combine", "id:err", "call:stream.Close", "id:stream", "id:Close", "return", 
+    "id:stream", "id:nil"]
 def fp_drpcconn_conn_Conn_doNewStream : List String :=
-  ["if", ">", "call:len", "0", "if", "=err", "call:stream.RawWrite", "!=", "return", "if", "=err", 
-    "call:stream.RawWrite", "call:[]byte", "!=", "return", "return"]
+  ["if", ">", "call:len", "id:len", "id:metadata", "0", "if", "=err", "id:err", "call:stream.RawWrite", 
+    "id:stream", "id:RawWrite", "id:drpcwire", "id:KindInvokeMetadata", "id:metadata", "!=", "id:err", 
+    "id:nil", "return", "id:err", "if", "=err", "id:err", "call:stream.RawWrite", "id:stream", 
+    "id:RawWrite", "id:drpcwire", "id:KindInvoke", "call:[]byte", "id:byte", "id:rpc", "!=", "id:err", 
+    "id:nil", "return", "id:err", "return", "id:nil"]
 def fp_drpcserver_server_Server_ServeOne : List String :=
-  ["=man", "call:drpcmanager.NewWithOptions", "defer", "call:func", "=err", "call:errs.Combine", 
-    "call:man.Close", "=cache", "call:drpccache.New", "defer", "call:cache.Clear", "=ctx", "call:drpccache.WithContext", 
-    "for", "=stream", "=rpc", "=err", "call:man.NewServerStream", "if", "!=", "return", "call:errs.Wrap", 
-    "if", "=err", "call:s.handleRPC", "!=", "return", "call:errs.Wrap"]
+  ["=man", "id:man", "call:drpcmanager.NewWithOptions", "id:drpcmanager", "id:NewWithOptions", 
+    "id:tr", "id:s", "id:opts", "id:Manager", "defer", "call:func", "=err", "id:err", "call:errs.Combine", 
+    "id:errs", "id:Combine", "id:err", "call:man.Close", "id:man", "id:Close", "=cache", "id:cache", 
+    "call:drpccache.New", "id:drpccache", "id:New", "defer", "call:cache.Clear", "id:cache", "id:Clear", 
+    "=ctx", "id:ctx", "call:drpccache.WithContext", "id:drpccache", "id:WithContext", "id:ctx", 
+    "id:cache", "for", "=stream", "=rpc", "=err", "id:stream", "id:rpc", "id:err", "call:man.NewServerStream", 
+    "id:man", "id:NewServerStream", "id:ctx", "if", "!=", "id:err", "id:nil", "return", "call:errs.Wrap", 
+    "id:errs", "id:Wrap", "id:err", "if", "=err", "id:err", "call:s.handleRPC", "id:s", "id:handleRPC", 
+    "id:stream", "id:rpc", "!=", "id:err", "id:nil", "return", "call:errs.Wrap", "id:errs", "id:Wrap", 
+    "id:err"]
 def fp_drpcserver_server_Server_Serve : List String :=
-  ["=tracker", "call:drpcctx.NewTracker", "defer", "call:tracker.Wait", "defer", "call:tracker.Cancel", 
-    "call:tracker.Run", "u<-", "call:ctx.Done", "=_", "call:lis.Close", "for", "=conn", "=err", 
-    "call:lis.Accept", "if", "!=", "if", "!=", "call:ctx.Err", "return", "if", "call:isTemporary", 
-    "if", "!=", "call:s.opts.Log", "=t", "call:time.NewTimer", "select", "u<-", "u<-", "call:ctx.Done", 
-    "call:t.Stop", "return", "continue", "return", "call:errs.Wrap", "call:tracker.Run", "=err", 
-    "call:s.ServeOne", "if", "&&", "!=", "!=", "call:s.opts.Log"]
+  ["=tracker", "id:tracker", "call:drpcctx.NewTracker", "id:drpcctx", "id:NewTracker", "id:ctx", 
+    "defer", "call:tracker.Wait", "id:tracker", "id:Wait", "defer", "call:tracker.Cancel", "id:tracker", 
+    "id:Cancel", "call:tracker.Run", "id:tracker", "id:Run", "id:ctx", "id:context", "id:Context", 
+    "u<-", "call:ctx.Done", "id:ctx", "id:Done", "=_", "id:_", "call:lis.Close", "id:lis", "id:Close", 
+    "for", "=conn", "=err", "id:conn", "id:err", "call:lis.Accept", "id:lis", "id:Accept", "if", 
+    "!=", "id:err", "id:nil", "if", "!=", "call:ctx.Err", "id:ctx", "id:Err", "id:nil", "return", 
+    "id:nil", "if", "call:isTemporary", "id:isTemporary", "id:err", "if", "!=", "id:s", "id:opts", 
+    "id:Log", "id:nil", "call:s.opts.Log", "id:s", "id:opts", "id:Log", "id:err", "=t", "id:t", 
+    "call:time.NewTimer", "id:time", "id:NewTimer", "id:temporarySleep", "select", "u<-", "id:t", 
+    "id:C", "u<-", "call:ctx.Done", "id:ctx", "id:Done", "call:t.Stop", "id:t", "id:Stop", "return", 
+    "id:nil", "continue", "return", "call:errs.Wrap", "id:errs", "id:Wrap", "id:err", "call:tracker.Run", 
+    "id:tracker", "id:Run", "id:ctx", "id:context", "id:Context", "=err", "id:err", "call:s.ServeOne", 
+    "id:s", "id:ServeOne", "id:ctx", "id:conn", "if", "&&", "!=", "id:err", "id:nil", "!=", "id:s", 
+    "id:opts", "id:Log", "id:nil", "call:s.opts.Log", "id:s", "id:opts", "id:Log", "id:err"]
 def fp_drpcserver_server_Server_handleRPC : List String :=
-  ["=err", "call:s.handler.HandleRPC", "if", "!=", "return", "call:errs.Wrap", "call:stream.SendError", 
-    "=err", "call:stream.CloseSend", "call:stream.Cancel", "return", "call:errs.Wrap"]
+  ["=err", "id:err", "call:s.handler.HandleRPC", "id:s", "id:handler", "id:HandleRPC", "id:stream", 
+    "id:rpc", "if", "!=", "id:err", "id:nil", "return", "call:errs.Wrap", "id:errs", "id:Wrap", 
+    "call:stream.SendError", "id:stream", "id:SendError", "id:err", "=err", "id:err", "call:stream.CloseSend", 
+    "id:stream", "id:CloseSend", "call:stream.Cancel", "id:stream", "id:Cancel", "id:context", 
+    "id:Canceled", "return", "call:errs.Wrap", "id:errs", "id:Wrap", "id:err"]
 def fp_drpcmux_handle_rpc_Mux_HandleRPC : List String :=
-  ["=data", "=ok", "index", "if", "u!", "return", "call:drpc.ProtocolError.New", "s:unknown rpc: %q", 
-    "=in", "call:interface", "if", "!=", "=msg", "=ok", "call:reflect.New().Interface", "call:reflect.New", 
-    "call:data.in1.Elem", "if", "u!", "return", "call:drpc.InternalError.New", "s:invalid rpc input type", 
-    "if", "=err", "call:stream.MsgRecv", "!=", "return", "call:errs.Wrap", "=in", "=out", "=err", 
-    "call:data.receiver", "call:stream.Context", "switch", "case", "!=", "return", "call:errs.Wrap", 
-    "case", "&&", "!=", "u!", "call:reflect.ValueOf().IsNil", "call:reflect.ValueOf", "return", 
-    "call:stream.MsgSend", "default", "return", "call:stream.CloseSend"]
+  ["=data", "=ok", "id:data", "id:ok", "index", "id:m", "id:rpcs", "id:rpc", "if", "u!", "id:ok", 
+    "return", "call:drpc.ProtocolError.New", "id:drpc", "id:ProtocolError", "id:New", "s:unknown rpc: %q", 
+    "id:rpc", "=in", "id:in", "call:interface", "id:stream", "if", "!=", "id:data", "id:in1", "id:streamType", 
+    "=msg", "=ok", "id:msg", "id:ok", "call:reflect.New().Interface", "call:reflect.New", "id:reflect", 
+    "id:New", "call:data.in1.Elem", "id:data", "id:in1", "id:Elem", "id:Interface", "id:drpc", 
+    "id:Message", "if", "u!", "id:ok", "return", "call:drpc.InternalError.New", "id:drpc", "id:InternalError", 
+    "id:New", "s:invalid rpc input type", "if", "=err", "id:err", "call:stream.MsgRecv", "id:stream", 
+    "id:MsgRecv", "id:msg", "id:data", "id:enc", "!=", "id:err", "id:nil", "return", "call:errs.Wrap", 
+    "id:errs", "id:Wrap", "id:err", "=in", "id:in", "id:msg", "=out", "=err", "id:out", "id:err", 
+    "call:data.receiver", "id:data", "id:receiver", "id:data", "id:srv", "call:stream.Context", 
+    "id:stream", "id:Context", "id:in", "id:stream", "switch", "case", "!=", "id:err", "id:nil", 
+    "return", "call:errs.Wrap", "id:errs", "id:Wrap", "id:err", "case", "&&", "!=", "id:out", "id:nil", 
+    "u!", "call:reflect.ValueOf().IsNil", "call:reflect.ValueOf", "id:reflect", "id:ValueOf", "id:out", 
+    "id:IsNil", "return", "call:stream.MsgSend", "id:stream", "id:MsgSend", "id:out", "id:data", 
+    "id:enc", "default", "return", "call:stream.CloseSend", "id:stream", "id:CloseSend"]
 def fp_drpcmux_mux_Mux_registerOne : List String :=
-  ["=data", "switch", "=mt", "call:reflect.TypeOf", "case", "==", "call:mt.NumOut", "2", "=data.unitary", 
-    "=data.in1", "call:mt.In", "2", "if", "u!", "call:data.in1.Implements", "return", "call:errs.New", 
-    "s:input argument not a drpc message: %v", "case", "==", "call:mt.NumIn", "3", "=data.in1", 
-    "call:mt.In", "1", "if", "u!", "call:data.in1.Implements", "return", "call:errs.New", "s:input argument not a drpc message: %v", 
-    "=data.in2", "case", "==", "call:mt.NumIn", "2", "=data.in1", "default", "return", "call:errs.New", 
-    "s:unknown method type: %v", "=m.rpcs", "index", "return"]
+  ["=data", "id:data", "id:rpcData", "id:srv", "id:srv", "id:enc", "id:enc", "id:receiver", "id:receiver", 
+    "switch", "=mt", "id:mt", "call:reflect.TypeOf", "id:reflect", "id:TypeOf", "id:method", "case", 
+    "==", "call:mt.NumOut", "id:mt", "id:NumOut", "2", "=data.unitary", "id:data", "id:unitary", 
+    "id:true", "=data.in1", "id:data", "id:in1", "call:mt.In", "id:mt", "id:In", "2", "if", "u!", 
+    "call:data.in1.Implements", "id:data", "id:in1", "id:Implements", "id:messageType", "return", 
+    "call:errs.New", "id:errs", "id:New", "s:input argument not a drpc message: %v", "id:data", 
+    "id:in1", "case", "==", "call:mt.NumIn", "id:mt", "id:NumIn", "3", "=data.in1", "id:data", 
+    "id:in1", "call:mt.In", "id:mt", "id:In", "1", "if", "u!", "call:data.in1.Implements", "id:data", 
+    "id:in1", "id:Implements", "id:messageType", "return", "call:errs.New", "id:errs", "id:New", 
+    "s:input argument not a drpc message: %v", "id:data", "id:in1", "=data.in2", "id:data", "id:in2", 
+    "id:streamType", "case", "==", "call:mt.NumIn", "id:mt", "id:NumIn", "2", "=data.in1", "id:data", 
+    "id:in1", "id:streamType", "default", "return", "call:errs.New", "id:errs", "id:New", "s:unknown method type: %v", 
+    "id:mt", "=m.rpcs", "index", "id:m", "id:rpcs", "id:rpc", "id:data", "return", "id:nil"]
 def fp_drpcmux_mux_Mux_Register : List String :=
-  ["=n", "call:desc.NumMethods", "for", "=i", "0", "<", "++", "=rpc", "=enc", "=receiver", "=method", 
-    "=ok", "call:desc.Method", "if", "u!", "return", "call:errs.New", "s:Description returned invalid method for index %d", 
-    "if", "=err", "call:m.registerOne", "!=", "return", "return"]
+  ["=n", "id:n", "call:desc.NumMethods", "id:desc", "id:NumMethods", "for", "=i", "id:i", "0", 
+    "<", "id:i", "id:n", "++", "id:i", "=rpc", "=enc", "=receiver", "=method", "=ok", "id:rpc", 
+    "id:enc", "id:receiver", "id:method", "id:ok", "call:desc.Method", "id:desc", "id:Method", 
+    "id:i", "if", "u!", "id:ok", "return", "call:errs.New", "id:errs", "id:New", "s:Description returned invalid method for index %d", 
+    "id:i", "if", "=err", "id:err", "call:m.registerOne", "id:m", "id:registerOne", "id:srv", "id:rpc", 
+    "id:enc", "id:receiver", "id:method", "!=", "id:err", "id:nil", "return", "id:err", "return", 
+    "id:nil"]
 def fp_drpcpool_pool_Pool_Close : List String :=
-  ["call:p.mu.Lock", "defer", "call:p.mu.Unlock", "for", "=ent", "!=", "=ent", "call:eg.Add", 
-    "call:p.closeEntry", "=ent.global.removed", "=ent.local.removed", "=p.entries", "call:make", 
-    "=p.order", "return", "call:eg.Err"]
+  ["call:p.mu.Lock", "id:p", "id:mu", "id:Lock", "defer", "call:p.mu.Unlock", "id:p", "id:mu", 
+    "id:Unlock", "id:eg", "id:errs", "id:Group", "for", "=ent", "id:ent", "id:p", "id:order", "id:head", 
+    "!=", "id:ent", "id:nil", "=ent", "id:ent", "id:ent", "id:global", "id:next", "call:eg.Add", 
+    "id:eg", "id:Add", "call:p.closeEntry", "id:p", "id:closeEntry", "id:ent", "=ent.global.removed", 
+    "id:ent", "id:global", "id:removed", "id:true", "=ent.local.removed", "id:ent", "id:local", 
+    "id:removed", "id:true", "=p.entries", "id:p", "id:entries", "call:make", "id:make", "id:K", 
+    "id:list", "id:K", "id:V", "=p.order", "id:p", "id:order", "id:list", "id:K", "id:V", "return", 
+    "call:eg.Err", "id:eg", "id:Err"]
 def fp_drpcpool_pool_Pool_removeEntry : List String :=
-  ["call:p.mu.Lock", "defer", "call:p.mu.Unlock", "=local", "index", "if", "==", "return", "call:local.removeEntry", 
-    "call:p.order.removeEntry", "if", "==", "0", "call:delete"]
+  ["call:p.mu.Lock", "id:p", "id:mu", "id:Lock", "defer", "call:p.mu.Unlock", "id:p", "id:mu", 
+    "id:Unlock", "=local", "id:local", "index", "id:p", "id:entries", "id:ent", "id:key", "if", 
+    "==", "id:local", "id:nil", "return", "call:local.removeEntry", "id:local", "id:removeEntry", 
+    "id:ent", "id:entry", "id:K", "id:V", "id:localList", "call:p.order.removeEntry", "id:p", "id:order", 
+    "id:removeEntry", "id:ent", "id:entry", "id:K", "id:V", "id:globalList", "if", "==", "id:local", 
+    "id:count", "0", "call:delete", "id:delete", "id:p", "id:entries", "id:ent", "id:key"]
 def fp_drpcpool_pool_Pool_closeEntry : List String :=
-  ["call:p.log", "s:CLOSE", "if", "||", "==", "call:ent.exp.Stop", "return", "call:ent.val.Close", 
-    "return"]
+  ["call:p.log", "id:p", "id:log", "s:CLOSE", "id:ent", "id:String", "if", "||", "==", "id:ent", 
+    "id:exp", "id:nil", "call:ent.exp.Stop", "id:ent", "id:exp", "id:Stop", "return", "call:ent.val.Close", 
+    "id:ent", "id:val", "id:Close", "return", "id:nil"]
 def fp_drpcpool_pool_Pool_Take : List String :=
-  ["call:p.mu.Lock", "defer", "call:p.mu.Unlock", "=local", "index", "if", "==", "return", "call:new", 
-    "for", "=ent", "!=", "=ent", "if", "u!", "call:closed", "call:ent.val.Unblocked", "continue", 
-    "call:local.removeEntry", "call:p.order.removeEntry", "if", "&&", "!=", "u!", "call:ent.exp.Stop", 
-    "continue", "if", "call:closed", "call:ent.val.Closed", "continue", "call:p.log", "s:TAKEN", 
-    "return", "return", "call:new"]
+  ["call:p.mu.Lock", "id:p", "id:mu", "id:Lock", "defer", "call:p.mu.Unlock", "id:p", "id:mu", 
+    "id:Unlock", "=local", "id:local", "index", "id:p", "id:entries", "id:key", "if", "==", "id:local", 
+    "id:nil", "return", "call:new", "id:new", "id:V", "id:false", "for", "=ent", "id:ent", "id:local", 
+    "id:head", "!=", "id:ent", "id:nil", "=ent", "id:ent", "id:ent", "id:local", "id:next", "if", 
+    "u!", "call:closed", "id:closed", "call:ent.val.Unblocked", "id:ent", "id:val", "id:Unblocked", 
+    "continue", "call:local.removeEntry", "id:local", "id:removeEntry", "id:ent", "id:entry", "id:K", 
+    "id:V", "id:localList", "call:p.order.removeEntry", "id:p", "id:order", "id:removeEntry", "id:ent", 
+    "id:entry", "id:K", "id:V", "id:globalList", "if", "&&", "!=", "id:ent", "id:exp", "id:nil", 
+    "u!", "call:ent.exp.Stop", "id:ent", "id:exp", "id:Stop", "continue", "if", "call:closed", 
+    "id:closed", "call:ent.val.Closed", "id:ent", "id:val", "id:Closed", "continue", "call:p.log", 
+    "id:p", "id:log", "s:TAKEN", "id:ent", "id:String", "return", "id:ent", "id:val", "id:true", 
+    "return", "call:new", "id:new", "id:V", "id:false"]
 def fp_drpcpool_pool_Pool_Put : List String :=
-  ["if", "||", "<", "0", "<", "0", "=_", "call:val.Close", "return", "if", "call:closed", "call:val.Closed", 
-    "return", "call:p.mu.Lock", "defer", "call:p.mu.Unlock", "=local", "index", "if", "==", "=local", 
-    "call:new", "=p.entries", "index", "for", "&&", "!=", "0", ">=", "=ent", "=_", "call:p.closeEntry", 
-    "call:local.removeEntry", "call:p.order.removeEntry", "for", "&&", "!=", "0", ">=", "=ent", 
-    "=entLocal", "index", "=_", "call:p.closeEntry", "call:entLocal.removeEntry", "call:p.order.removeEntry", 
-    "if", "&&", "==", "0", "!=", "call:delete", "=ent", "u&", "call:local.appendEntry", "call:p.order.appendEntry", 
-    "call:p.log", "s:PUT", "if", ">", "0", "=ent.exp", "call:time.AfterFunc", "=_", "call:val.Close", 
-    "call:p.removeEntry"]
+  ["if", "||", "<", "id:p", "id:opts", "id:Capacity", "0", "<", "id:p", "id:opts", "id:KeyCapacity", 
+    "0", "=_", "id:_", "call:val.Close", "id:val", "id:Close", "return", "if", "call:closed", "id:closed", 
+    "call:val.Closed", "id:val", "id:Closed", "return", "call:p.mu.Lock", "id:p", "id:mu", "id:Lock", 
+    "defer", "call:p.mu.Unlock", "id:p", "id:mu", "id:Unlock", "=local", "id:local", "index", "id:p", 
+    "id:entries", "id:key", "if", "==", "id:local", "id:nil", "=local", "id:local", "call:new", 
+    "id:new", "id:list", "id:K", "id:V", "=p.entries", "index", "id:p", "id:entries", "id:key", 
+    "id:local", "for", "&&", "!=", "id:p", "id:opts", "id:KeyCapacity", "0", ">=", "id:local", 
+    "id:count", "id:p", "id:opts", "id:KeyCapacity", "=ent", "id:ent", "id:local", "id:head", "=_", 
+    "id:_", "call:p.closeEntry", "id:p", "id:closeEntry", "id:ent", "call:local.removeEntry", "id:local", 
+    "id:removeEntry", "id:ent", "id:entry", "id:K", "id:V", "id:localList", "call:p.order.removeEntry", 
+    "id:p", "id:order", "id:removeEntry", "id:ent", "id:entry", "id:K", "id:V", "id:globalList", 
+    "for", "&&", "!=", "id:p", "id:opts", "id:Capacity", "0", ">=", "id:p", "id:order", "id:count", 
+    "id:p", "id:opts", "id:Capacity", "=ent", "id:ent", "id:p", "id:order", "id:head", "=entLocal", 
+    "id:entLocal", "index", "id:p", "id:entries", "id:ent", "id:key", "=_", "id:_", "call:p.closeEntry", 
+    "id:p", "id:closeEntry", "id:ent", "call:entLocal.removeEntry", "id:entLocal", "id:removeEntry", 
+    "id:ent", "id:entry", "id:K", "id:V", "id:localList", "call:p.order.removeEntry", "id:p", "id:order", 
+    "id:removeEntry", "id:ent", "id:entry", "id:K", "id:V", "id:globalList", "if", "&&", "==", 
+    "id:entLocal", "id:count", "0", "!=", "id:entLocal", "id:local", "call:delete", "id:delete", 
+    "id:p", "id:entries", "id:ent", "id:key", "=ent", "id:ent", "u&", "id:entry", "id:K", "id:V", 
+    "id:key", "id:key", "id:val", "id:val", "call:local.appendEntry", "id:local", "id:appendEntry", 
+    "id:ent", "id:entry", "id:K", "id:V", "id:localList", "call:p.order.appendEntry", "id:p", "id:order", 
+    "id:appendEntry", "id:ent", "id:entry", "id:K", "id:V", "id:globalList", "call:p.log", "id:p", 
+    "id:log", "s:PUT", "id:ent", "id:String", "if", ">", "id:p", "id:opts", "id:Expiration", "0", 
+    "=ent.exp", "id:ent", "id:exp", "call:time.AfterFunc", "id:time", "id:AfterFunc", "id:p", "id:opts", 
+    "id:Expiration", "=_", "id:_", "call:val.Close", "id:val", "id:Close", "call:p.removeEntry", 
+    "id:p", "id:removeEntry", "id:ent"]
 def fp_drpcpool_entry_list_appendEntry : List String :=
-  ["if", "==", "=l.head", "if", "!=", "=node().next", "call:node", "=node().prev", "call:node", 
-    "=l.tail", "++"]
+  ["if", "==", "id:l", "id:head", "id:nil", "=l.head", "id:l", "id:head", "id:ent", "if", "!=", 
+    "id:l", "id:tail", "id:nil", "=node().next", "call:node", "id:node", "id:l", "id:tail", "id:next", 
+    "id:ent", "=node().prev", "call:node", "id:node", "id:ent", "id:prev", "id:l", "id:tail", "=l.tail", 
+    "id:l", "id:tail", "id:ent", "++", "id:l", "id:count"]
 def fp_drpcpool_entry_list_removeEntry : List String :=
-  ["=n", "call:node", "if", "return", "=n.removed", "if", "==", "=l.head", "if", "!=", "=node().prev", 
-    "call:node", "if", "==", "=l.tail", "if", "!=", "=node().next", "call:node", "--"]
+  ["=n", "id:n", "call:node", "id:node", "id:ent", "if", "id:n", "id:removed", "return", "=n.removed", 
+    "id:n", "id:removed", "id:true", "if", "==", "id:l", "id:head", "id:ent", "=l.head", "id:l", 
+    "id:head", "id:n", "id:next", "if", "!=", "id:n", "id:next", "id:nil", "=node().prev", "call:node", 
+    "id:node", "id:n", "id:next", "id:prev", "id:n", "id:prev", "if", "==", "id:l", "id:tail", 
+    "id:ent", "=l.tail", "id:l", "id:tail", "id:n", "id:prev", "if", "!=", "id:n", "id:prev", "id:nil", 
+    "=node().next", "call:node", "id:node", "id:n", "id:prev", "id:next", "id:n", "id:next", "--", 
+    "id:l", "id:count"]
 def fp_drpcpool_conn_poolConn_Close : List String :=
-  ["call:p.done.Close", "return"]
+  ["call:p.done.Close", "id:p", "id:done", "id:Close", "return", "id:nil"]
 def fp_drpcpool_conn_poolConn_Invoke : List String :=
-  ["if", "call:closed", "call:p.done.Get", "return", "call:errs.New", "s:connection closed", "=conn", 
-    "=ok", "call:p.pool.Take", "if", "u!", "=conn", "=err", "call:p.dial", "if", "!=", "return", 
-    "defer", "call:p.pool.Put", "return", "call:conn.Invoke"]
+  ["if", "call:closed", "id:closed", "call:p.done.Get", "id:p", "id:done", "id:Get", "return", 
+    "call:errs.New", "id:errs", "id:New", "s:connection closed", "=conn", "=ok", "id:conn", "id:ok", 
+    "call:p.pool.Take", "id:p", "id:pool", "id:Take", "id:p", "id:key", "if", "u!", "id:ok", "=conn", 
+    "=err", "id:conn", "id:err", "call:p.dial", "id:p", "id:dial", "id:ctx", "id:p", "id:key", 
+    "if", "!=", "id:err", "id:nil", "return", "id:err", "defer", "call:p.pool.Put", "id:p", "id:pool", 
+    "id:Put", "id:p", "id:key", "id:conn", "return", "call:conn.Invoke", "id:conn", "id:Invoke", 
+    "id:ctx", "id:rpc", "id:enc", "id:in", "id:out"]
 def fp_drpcpool_conn_poolConn_NewStream : List String :=
-  ["if", "call:closed", "call:p.done.Get", "return", "call:errs.New", "s:connection closed", "=conn", 
-    "=ok", "call:p.pool.Take", "if", "u!", "=conn", "=err", "call:p.dial", "if", "!=", "return", 
-    "=stream", "=err", "call:conn.NewStream", "if", "!=", "call:p.pool.Put", "return", "=sw", "u&", 
-    "go", "call:p.monitorStream", "u&", "return"]
+  ["if", "call:closed", "id:closed", "call:p.done.Get", "id:p", "id:done", "id:Get", "return", 
+    "id:nil", "call:errs.New", "id:errs", "id:New", "s:connection closed", "=conn", "=ok", "id:conn", 
+    "id:ok", "call:p.pool.Take", "id:p", "id:pool", "id:Take", "id:p", "id:key", "if", "u!", "id:ok", 
+    "=conn", "=err", "id:conn", "id:err", "call:p.dial", "id:p", "id:dial", "id:ctx", "id:p", "id:key", 
+    "if", "!=", "id:err", "id:nil", "return", "id:nil", "id:err", "=stream", "=err", "id:stream", 
+    "id:err", "call:conn.NewStream", "id:conn", "id:NewStream", "id:ctx", "id:rpc", "id:enc", "if", 
+    "!=", "id:err", "id:nil", "call:p.pool.Put", "id:p", "id:pool", "id:Put", "id:p", "id:key", 
+    "id:conn", "return", "id:nil", "id:err", "=sw", "id:sw", "u&", "id:streamWrapper", "id:Stream", 
+    "id:stream", "id:ctx", "id:streamWrapperContext", "id:Context", "id:ctx", "go", "call:p.monitorStream", 
+    "id:p", "id:monitorStream", "id:stream", "id:conn", "u&", "id:sw", "id:ctx", "id:done", "return", 
+    "id:sw", "id:nil"]
 def fp_drpcpool_conn_poolConn_monitorStream : List String :=
-  ["u<-", "call:stream.Context().Done", "call:stream.Context", "call:p.pool.Put", "call:done.Close"]
+  ["u<-", "call:stream.Context().Done", "call:stream.Context", "id:stream", "id:Context", "id:Done", 
+    "call:p.pool.Put", "id:p", "id:pool", "id:Put", "id:p", "id:key", "id:conn", "call:done.Close", 
+    "id:done", "id:Close"]
 def fp_drpcmigrate_mux_ListenMux_Route : List String :=
-  ["call:m.mu.Lock", "defer", "call:m.mu.Unlock", "if", "!=", "call:len", "call:panic", "call:fmt.Sprintf", 
-    "s:invalid prefix: has %d but needs %d bytes", "call:len", "=lis", "=ok", "index", "if", "u!", 
-    "=lis", "call:newListener", "=m.routes", "index", "go", "call:m.monitorListener", "return"]
+  ["call:m.mu.Lock", "id:m", "id:mu", "id:Lock", "defer", "call:m.mu.Unlock", "id:m", "id:mu", 
+    "id:Unlock", "if", "!=", "call:len", "id:len", "id:prefix", "id:m", "id:prefixLen", "call:panic", 
+    "id:panic", "call:fmt.Sprintf", "id:fmt", "id:Sprintf", "s:invalid prefix: has %d but needs %d bytes", 
+    "call:len", "id:len", "id:prefix", "id:m", "id:prefixLen", "=lis", "=ok", "id:lis", "id:ok", 
+    "index", "id:m", "id:routes", "id:prefix", "if", "u!", "id:ok", "=lis", "id:lis", "call:newListener", 
+    "id:newListener", "id:m", "id:addr", "=m.routes", "index", "id:m", "id:routes", "id:prefix", 
+    "id:lis", "go", "call:m.monitorListener", "id:m", "id:monitorListener", "id:prefix", "id:lis", 
+    "return", "id:lis"]
 def fp_drpcmigrate_mux_ListenMux_Run : List String :=
-  ["=ctx", "=cancel", "call:context.WithCancel", "defer", "call:cancel", "go", "call:m.monitorContext", 
-    "go", "call:m.monitorBase", "u<-", "call:m.mu.Lock", "defer", "call:m.mu.Unlock", "for", "u<-", 
-    "=_", "call:m.def.Close", "u<-", "return"]
+  ["=ctx", "=cancel", "id:ctx", "id:cancel", "call:context.WithCancel", "id:context", "id:WithCancel", 
+    "id:ctx", "defer", "call:cancel", "id:cancel", "go", "call:m.monitorContext", "id:m", "id:monitorContext", 
+    "id:ctx", "go", "call:m.monitorBase", "id:m", "id:monitorBase", "u<-", "id:m", "id:done", "call:m.mu.Lock", 
+    "id:m", "id:mu", "id:Lock", "defer", "call:m.mu.Unlock", "id:m", "id:mu", "id:Unlock", "for", 
+    "id:_", "id:lis", "id:m", "id:routes", "u<-", "id:lis", "id:done", "=_", "id:_", "call:m.def.Close", 
+    "id:m", "id:def", "id:Close", "u<-", "id:m", "id:def", "id:done", "return", "id:m", "id:err"]
 def fp_drpcmigrate_mux_ListenMux_monitorContext : List String :=
-  ["u<-", "call:ctx.Done", "call:m.once.Do", "=_", "call:m.base.Close", "call:close"]
+  ["u<-", "call:ctx.Done", "id:ctx", "id:Done", "call:m.once.Do", "id:m", "id:once", "id:Do", 
+    "=_", "id:_", "call:m.base.Close", "id:m", "id:base", "id:Close", "call:close", "id:close", 
+    "id:m", "id:done"]
 def fp_drpcmigrate_mux_ListenMux_monitorBase : List String :=
-  ["for", "=conn", "=err", "call:m.base.Accept", "if", "!=", "call:m.once.Do", "=m.err", "call:close", 
-    "return", "go", "call:m.routeConn"]
+  ["for", "=conn", "=err", "id:conn", "id:err", "call:m.base.Accept", "id:m", "id:base", "id:Accept", 
+    "if", "!=", "id:err", "id:nil", "call:m.once.Do", "id:m", "id:once", "id:Do", "=m.err", "id:m", 
+    "id:err", "id:err", "call:close", "id:close", "id:m", "id:done", "return", "go", "call:m.routeConn", 
+    "id:m", "id:routeConn", "id:conn"]
 def fp_drpcmigrate_mux_ListenMux_monitorListener : List String :=
-  ["select", "u<-", "call:lis.once.Do", "if", "!=", "=lis.err", "=lis.err", "call:close", "u<-", 
-    "call:m.mu.Lock", "call:delete", "call:m.mu.Unlock"]
+  ["select", "u<-", "id:m", "id:done", "call:lis.once.Do", "id:lis", "id:once", "id:Do", "if", 
+    "!=", "id:m", "id:err", "id:nil", "=lis.err", "id:lis", "id:err", "id:m", "id:err", "=lis.err", 
+    "id:lis", "id:err", "id:Closed", "call:close", "id:close", "id:lis", "id:done", "u<-", "id:lis", 
+    "id:done", "call:m.mu.Lock", "id:m", "id:mu", "id:Lock", "call:delete", "id:delete", "id:m", 
+    "id:routes", "id:prefix", "call:m.mu.Unlock", "id:m", "id:mu", "id:Unlock"]
 def fp_drpcmigrate_mux_ListenMux_routeConn : List String :=
-  ["=buf", "call:make", "if", "=_", "=err", "call:io.ReadFull", "!=", "=_", "call:conn.Close", 
-    "return", "call:m.mu.Lock", "=lis", "=ok", "index", "call:string", "if", "u!", "=lis", "=conn", 
-    "call:newPrefixConn", "call:m.mu.Unlock", "select", "u<-", "=_", "call:conn.Close", "send", 
-    "call:lis.Conns"]
+  ["=buf", "id:buf", "call:make", "id:make", "id:byte", "id:m", "id:prefixLen", "if", "=_", "=err", 
+    "id:_", "id:err", "call:io.ReadFull", "id:io", "id:ReadFull", "id:conn", "id:buf", "!=", "id:err", 
+    "id:nil", "=_", "id:_", "call:conn.Close", "id:conn", "id:Close", "return", "call:m.mu.Lock", 
+    "id:m", "id:mu", "id:Lock", "=lis", "=ok", "id:lis", "id:ok", "index", "id:m", "id:routes", 
+    "call:string", "id:string", "id:buf", "if", "u!", "id:ok", "=lis", "id:lis", "id:m", "id:def", 
+    "=conn", "id:conn", "call:newPrefixConn", "id:newPrefixConn", "id:buf", "id:conn", "call:m.mu.Unlock", 
+    "id:m", "id:mu", "id:Unlock", "select", "u<-", "id:lis", "id:done", "=_", "id:_", "call:conn.Close", 
+    "id:conn", "id:Close", "send", "call:lis.Conns", "id:lis", "id:Conns", "id:conn"]
 def fp_drpcmigrate_listener_listener_Accept : List String :=
-  ["select", "u<-", "return", "select", "u<-", "return", "=conn", "u<-", "return"]
+  ["select", "u<-", "id:l", "id:done", "return", "id:nil", "id:l", "id:err", "select", "u<-", 
+    "id:l", "id:done", "return", "id:nil", "id:l", "id:err", "=conn", "id:conn", "u<-", "id:l", 
+    "id:conns", "return", "id:conn", "id:nil"]
 def fp_drpcmigrate_listener_listener_Close : List String :=
-  ["call:l.once.Do", "=l.err", "call:close", "return"]
+  ["call:l.once.Do", "id:l", "id:once", "id:Do", "=l.err", "id:l", "id:err", "id:Closed", "call:close", 
+    "id:close", "id:l", "id:done", "return", "id:nil"]
 def fp_drpcmigrate_prefixconn_newPrefixConn : List String :=
-  ["return", "u&", "call:io.MultiReader", "call:bytes.NewReader"]
+  ["return", "u&", "id:prefixConn", "id:Reader", "call:io.MultiReader", "id:io", "id:MultiReader", 
+    "call:bytes.NewReader", "id:bytes", "id:NewReader", "id:data", "id:conn", "id:Conn", "id:conn"]
 def fp_drpcmigrate_prefixconn_prefixConn_Read : List String :=
-  ["return", "call:pc.Reader.Read"]
+  ["return", "call:pc.Reader.Read", "id:pc", "id:Reader", "id:Read", "id:p"]
 def fp_drpcmigrate_header_HeaderConn_Write : List String :=
-  ["call:d.once.Do", "=didOnce", "=n", "=err", "call:d.Conn.Write", "call:append", "call:[]byte", 
-    "if", "-=", "call:len", "if", "<", "0", "=n", "0", "return", "return", "call:d.Conn.Write"]
+  ["id:didOnce", "id:bool", "call:d.once.Do", "id:d", "id:once", "id:Do", "=didOnce", "id:didOnce", 
+    "id:true", "=n", "=err", "id:n", "id:err", "call:d.Conn.Write", "id:d", "id:Conn", "id:Write", 
+    "call:append", "id:append", "call:[]byte", "id:byte", "id:d", "id:header", "id:buf", "if", 
+    "id:didOnce", "-=", "id:n", "call:len", "id:len", "id:d", "id:header", "if", "<", "id:n", "0", 
+    "=n", "id:n", "0", "return", "id:n", "id:err", "return", "call:d.Conn.Write", "id:d", "id:Conn", 
+    "id:Write", "id:buf"]
 def fp_drpcctx_tracker_Tracker_Run : List String :=
-  ["call:t.wg.Add", "1", "go", "call:t.track"]
+  ["call:t.wg.Add", "id:t", "id:wg", "id:Add", "1", "go", "call:t.track", "id:t", "id:track", 
+    "id:cb"]
 def fp_drpcctx_tracker_Tracker_track : List String :=
-  ["call:cb", "call:t.wg.Done"]
+  ["call:cb", "id:cb", "id:t", "call:t.wg.Done", "id:t", "id:wg", "id:Done"]
 def fp_drpcctx_tracker_Tracker_Wait : List String :=
-  ["call:t.wg.Wait"]
+  ["call:t.wg.Wait", "id:t", "id:wg", "id:Wait"]
 def fp_cmd_protoc_gen_go_drpc_main_main : List String :=
-  ["call:flags.StringVar", "u&", "s:protolib", "s:google.golang.org/protobuf", "s:which protobuf library to use for encoding", 
-    "call:flags.BoolVar", "u&", "s:json", "s:generate encoders with json support", "call:?.Run", 
-    "for", "if", "||", "u!", "==", "call:len", "0", "continue", "call:generateFile", "=plugin.SupportedFeatures", 
-    "call:uint64", "return"]
+  ["id:flags", "id:flag", "id:FlagSet", "id:conf", "id:config", "call:flags.StringVar", "id:flags", 
+    "id:StringVar", "u&", "id:conf", "id:protolib", "s:protolib", "s:google.golang.org/protobuf", 
+    "s:which protobuf library to use for encoding", "call:flags.BoolVar", "id:flags", "id:BoolVar", 
+    "u&", "id:conf", "id:json", "s:json", "id:true", "s:generate encoders with json support", "call:?.Run", 
+    "id:protogen", "id:Options", "id:ParamFunc", "id:flags", "id:Set", "id:Run", "id:plugin", "id:protogen", 
+    "id:Plugin", "id:error", "for", "id:_", "id:f", "id:plugin", "id:Files", "if", "||", "u!", 
+    "id:f", "id:Generate", "==", "call:len", "id:len", "id:f", "id:Services", "0", "continue", 
+    "call:generateFile", "id:generateFile", "id:plugin", "id:f", "id:conf", "=plugin.SupportedFeatures", 
+    "id:plugin", "id:SupportedFeatures", "call:uint64", "id:uint64", "id:pluginpb", "id:CodeGeneratorResponse_FEATURE_PROTO3_OPTIONAL", 
+    "return", "id:nil"]
 def fp_cmd_protoc_gen_go_drpc_main_generateFile : List String :=
-  ["=gf", "call:plugin.NewGeneratedFile", "+", "s:_drpc.pb.go", "=d", "u&", "call:d.P", "s:// Code generated by protoc-gen-go-drpc. DO NOT EDIT.", 
-    "if", "=bi", "=ok", "call:debug.ReadBuildInfo", "call:d.P", "s:// protoc-gen-go-drpc version: ", 
-    "call:d.P", "s:// source: ", "call:file.Desc.Path", "call:d.P", "call:d.P", "s:package ", "call:d.P", 
-    "call:d.generateEncoding", "for", "call:d.generateService"]
+  ["=gf", "id:gf", "call:plugin.NewGeneratedFile", "id:plugin", "id:NewGeneratedFile", "+", "id:file", 
+    "id:GeneratedFilenamePrefix", "s:_drpc.pb.go", "id:file", "id:GoImportPath", "=d", "id:d", 
+    "u&", "id:drpc", "id:gf", "id:file", "call:d.P", "id:d", "id:P", "s:// Code generated by protoc-gen-go-drpc. DO NOT EDIT.", 
+    "if", "=bi", "=ok", "id:bi", "id:ok", "call:debug.ReadBuildInfo", "id:debug", "id:ReadBuildInfo", 
+    "id:ok", "call:d.P", "id:d", "id:P", "s:// protoc-gen-go-drpc version: ", "id:bi", "id:Main", 
+    "id:Version", "call:d.P", "id:d", "id:P", "s:// source: ", "call:file.Desc.Path", "id:file", 
+    "id:Desc", "id:Path", "call:d.P", "id:d", "id:P", "call:d.P", "id:d", "id:P", "s:package ", 
+    "id:file", "id:GoPackageName", "call:d.P", "id:d", "id:P", "call:d.generateEncoding", "id:d", 
+    "id:generateEncoding", "id:conf", "for", "id:_", "id:service", "id:file", "id:Services", "call:d.generateService", 
+    "id:d", "id:generateService", "id:service"]
 def fp_cmd_protoc_gen_go_drpc_main_drpc_EncodingName : List String :=
-  ["return", "+", "s:drpcEncoding_"]
+  ["return", "+", "s:drpcEncoding_", "id:d", "id:file", "id:GoDescriptorIdent", "id:GoName"]
 def fp_cmd_protoc_gen_go_drpc_main_drpc_RPCGoString : List String :=
-  ["return", "call:strconv.Quote", "call:fmt.Sprintf", "s:/%s/%s", "call:method.Parent.Desc.FullName", 
-    "call:method.Desc.Name"]
+  ["return", "call:strconv.Quote", "id:strconv", "id:Quote", "call:fmt.Sprintf", "id:fmt", "id:Sprintf", 
+    "s:/%s/%s", "call:method.Parent.Desc.FullName", "id:method", "id:Parent", "id:Desc", "id:FullName", 
+    "call:method.Desc.Name", "id:method", "id:Desc", "id:Name"]
 def fp_cmd_protoc_gen_go_drpc_main_drpc_ClientIface : List String :=
-  ["return", "+", "+", "s:DRPC", "s:Client"]
+  ["return", "+", "+", "s:DRPC", "id:service", "id:GoName", "s:Client"]
 def fp_cmd_protoc_gen_go_drpc_main_drpc_ClientImpl : List String :=
-  ["return", "+", "+", "s:drpc", "s:Client"]
+  ["return", "+", "+", "s:drpc", "id:service", "id:GoName", "s:Client"]
 def fp_cmd_protoc_gen_go_drpc_main_drpc_ServerIface : List String :=
-  ["return", "+", "+", "s:DRPC", "s:Server"]
+  ["return", "+", "+", "s:DRPC", "id:service", "id:GoName", "s:Server"]
 def fp_cmd_protoc_gen_go_drpc_main_drpc_ServerUnimpl : List String :=
-  ["return", "+", "+", "s:DRPC", "s:UnimplementedServer"]
+  ["return", "+", "+", "s:DRPC", "id:service", "id:GoName", "s:UnimplementedServer"]
 def fp_cmd_protoc_gen_go_drpc_main_drpc_ServerDesc : List String :=
-  ["return", "+", "+", "s:DRPC", "s:Description"]
+  ["return", "+", "+", "s:DRPC", "id:service", "id:GoName", "s:Description"]
 def fp_cmd_protoc_gen_go_drpc_main_drpc_ClientStreamIface : List String :=
-  ["return", "+", "+", "+", "+", "s:DRPC", "call:strings.ReplaceAll", "s:_", "s:__", "s:_", "call:strings.ReplaceAll", 
-    "s:_", "s:__", "s:Client"]
+  ["return", "+", "+", "+", "+", "s:DRPC", "call:strings.ReplaceAll", "id:strings", "id:ReplaceAll", 
+    "id:method", "id:Parent", "id:GoName", "s:_", "s:__", "s:_", "call:strings.ReplaceAll", "id:strings", 
+    "id:ReplaceAll", "id:method", "id:GoName", "s:_", "s:__", "s:Client"]
 def fp_cmd_protoc_gen_go_drpc_main_drpc_ClientStreamImpl : List String :=
-  ["return", "+", "+", "+", "+", "s:drpc", "call:strings.ReplaceAll", "s:_", "s:__", "s:_", "call:strings.ReplaceAll", 
-    "s:_", "s:__", "s:Client"]
+  ["return", "+", "+", "+", "+", "s:drpc", "call:strings.ReplaceAll", "id:strings", "id:ReplaceAll", 
+    "id:method", "id:Parent", "id:GoName", "s:_", "s:__", "s:_", "call:strings.ReplaceAll", "id:strings", 
+    "id:ReplaceAll", "id:method", "id:GoName", "s:_", "s:__", "s:Client"]
 def fp_cmd_protoc_gen_go_drpc_main_drpc_ServerStreamIface : List String :=
-  ["return", "+", "+", "+", "+", "s:DRPC", "call:strings.ReplaceAll", "s:_", "s:__", "s:_", "call:strings.ReplaceAll", 
-    "s:_", "s:__", "s:Stream"]
+  ["return", "+", "+", "+", "+", "s:DRPC", "call:strings.ReplaceAll", "id:strings", "id:ReplaceAll", 
+    "id:method", "id:Parent", "id:GoName", "s:_", "s:__", "s:_", "call:strings.ReplaceAll", "id:strings", 
+    "id:ReplaceAll", "id:method", "id:GoName", "s:_", "s:__", "s:Stream"]
 def fp_cmd_protoc_gen_go_drpc_main_drpc_ServerStreamImpl : List String :=
-  ["return", "+", "+", "+", "+", "s:drpc", "call:strings.ReplaceAll", "s:_", "s:__", "s:_", "call:strings.ReplaceAll", 
-    "s:_", "s:__", "s:Stream"]
+  ["return", "+", "+", "+", "+", "s:drpc", "call:strings.ReplaceAll", "id:strings", "id:ReplaceAll", 
+    "id:method", "id:Parent", "id:GoName", "s:_", "s:__", "s:_", "call:strings.ReplaceAll", "id:strings", 
+    "id:ReplaceAll", "id:method", "id:GoName", "s:_", "s:__", "s:Stream"]
 def fp_cmd_protoc_gen_go_drpc_main_drpc_generateEncoding : List String :=
-  ["call:d.P", "s:type ", "call:d.EncodingName", "s: struct{}", "call:d.P", "switch", "case", 
-    "s:google.golang.org/protobuf", "call:d.P", "s:func (", "call:d.EncodingName", "s:) Marshal(msg ", 
-    "call:d.Ident", "s:storj.io/drpc", "s:Message", "s:) ([]byte, error) {", "call:d.P", "s:return ", 
-    "call:d.Ident", "s:google.golang.org/protobuf/proto", "s:Marshal", "s:(msg.(", "call:d.Ident", 
-    "s:google.golang.org/protobuf/proto", "s:Message", "s:))", "call:d.P", "s:}", "call:d.P", "call:d.P", 
-    "s:func (", "call:d.EncodingName", "s:) MarshalAppend(buf []byte, msg ", "call:d.Ident", "s:storj.io/drpc", 
-    "s:Message", "s:) ([]byte, error) {", "call:d.P", "s:return ", "call:d.Ident", "s:google.golang.org/protobuf/proto", 
-    "s:MarshalOptions", "s:{}.MarshalAppend(buf, msg.(", "call:d.Ident", "s:google.golang.org/protobuf/proto", 
-    "s:Message", "s:))", "call:d.P", "s:}", "call:d.P", "call:d.P", "s:func (", "call:d.EncodingName", 
-    "s:) Unmarshal(buf []byte, msg ", "call:d.Ident", "s:storj.io/drpc", "s:Message", "s:) error {", 
-    "call:d.P", "s:return ", "call:d.Ident", "s:google.golang.org/protobuf/proto", "s:Unmarshal", 
-    "s:(buf, msg.(", "call:d.Ident", "s:google.golang.org/protobuf/proto", "s:Message", "s:))", 
-    "call:d.P", "s:}", "call:d.P", "if", "call:d.P", "s:func (", "call:d.EncodingName", "s:) JSONMarshal(msg ", 
-    "call:d.Ident", "s:storj.io/drpc", "s:Message", "s:) ([]byte, error) {", "call:d.P", "s:return ", 
-    "call:d.Ident", "s:google.golang.org/protobuf/encoding/protojson", "s:Marshal", "s:(msg.(", 
-    "call:d.Ident", "s:google.golang.org/protobuf/proto", "s:Message", "s:))", "call:d.P", "s:}", 
-    "call:d.P", "call:d.P", "s:func (", "call:d.EncodingName", "s:) JSONUnmarshal(buf []byte, msg ", 
-    "call:d.Ident", "s:storj.io/drpc", "s:Message", "s:) error {", "call:d.P", "s:return ", "call:d.Ident", 
-    "s:google.golang.org/protobuf/encoding/protojson", "s:Unmarshal", "s:(buf, msg.(", "call:d.Ident", 
-    "s:google.golang.org/protobuf/proto", "s:Message", "s:))", "call:d.P", "s:}", "call:d.P", "case", 
-    "s:github.com/gogo/protobuf", "call:d.P", "s:func (", "call:d.EncodingName", "s:) Marshal(msg ", 
-    "call:d.Ident", "s:storj.io/drpc", "s:Message", "s:) ([]byte, error) {", "call:d.P", "s:return ", 
-    "call:d.Ident", "s:github.com/gogo/protobuf/proto", "s:Marshal", "s:(msg.(", "call:d.Ident", 
-    "s:github.com/gogo/protobuf/proto", "s:Message", "s:))", "call:d.P", "s:}", "call:d.P", "call:d.P", 
-    "s:func (", "call:d.EncodingName", "s:) MarshalAppend(buf []byte, msg ", "call:d.Ident", "s:storj.io/drpc", 
-    "s:Message", "s:) ([]byte, error) {", "call:d.P", "s:pbuf := ", "call:d.Ident", "s:github.com/gogo/protobuf/proto", 
-    "s:NewBuffer", "s:(buf)", "call:d.P", "s:if err := pbuf.Marshal(msg.(", "call:d.Ident", "s:github.com/gogo/protobuf/proto", 
-    "s:Message", "s:)); err != nil {", "call:d.P", "s:return nil, err", "call:d.P", "s:}", "call:d.P", 
-    "s:return pbuf.Bytes(), nil", "call:d.P", "s:}", "call:d.P", "call:d.P", "s:func (", "call:d.EncodingName", 
-    "s:) Unmarshal(buf []byte, msg ", "call:d.Ident", "s:storj.io/drpc", "s:Message", "s:) error {", 
-    "call:d.P", "s:return ", "call:d.Ident", "s:github.com/gogo/protobuf/proto", "s:Unmarshal", 
-    "s:(buf, msg.(", "call:d.Ident", "s:github.com/gogo/protobuf/proto", "s:Message", "s:))", "call:d.P", 
-    "s:}", "call:d.P", "if", "call:d.P", "s:func (", "call:d.EncodingName", "s:) JSONMarshal(msg ", 
-    "call:d.Ident", "s:storj.io/drpc", "s:Message", "s:) ([]byte, error) {", "call:d.P", "s:var buf ", 
-    "call:d.Ident", "s:bytes", "s:Buffer", "call:d.P", "s:err := new(", "call:d.Ident", "s:github.com/gogo/protobuf/jsonpb", 
-    "s:Marshaler", "s:).Marshal(&buf, msg.(", "call:d.Ident", "s:github.com/gogo/protobuf/proto", 
-    "s:Message", "s:))", "call:d.P", "s:if err != nil {", "call:d.P", "s:return nil, err", "call:d.P", 
-    "s:}", "call:d.P", "s:return buf.Bytes(), nil", "call:d.P", "s:}", "call:d.P", "call:d.P", 
-    "s:func (", "call:d.EncodingName", "s:) JSONUnmarshal(buf []byte, msg ", "call:d.Ident", "s:storj.io/drpc", 
-    "s:Message", "s:) error {", "call:d.P", "s:return ", "call:d.Ident", "s:github.com/gogo/protobuf/jsonpb", 
-    "s:Unmarshal", "s:(", "call:d.Ident", "s:bytes", "s:NewReader", "s:(buf), msg.(", "call:d.Ident", 
-    "s:github.com/gogo/protobuf/proto", "s:Message", "s:))", "call:d.P", "s:}", "call:d.P", "default", 
-    "call:d.P", "s:func (", "call:d.EncodingName", "s:) Marshal(msg ", "call:d.Ident", "s:storj.io/drpc", 
-    "s:Message", "s:) ([]byte, error) {", "call:d.P", "s:return ", "call:d.Ident", "s:Marshal", 
-    "s:(msg)", "call:d.P", "s:}", "call:d.P", "call:d.P", "s:func (", "call:d.EncodingName", "s:) Unmarshal(buf []byte, msg ", 
-    "call:d.Ident", "s:storj.io/drpc", "s:Message", "s:) error {", "call:d.P", "s:return ", "call:d.Ident", 
-    "s:Unmarshal", "s:(buf, msg)", "call:d.P", "s:}", "call:d.P", "if", "call:d.P", "s:func (", 
-    "call:d.EncodingName", "s:) JSONMarshal(msg ", "call:d.Ident", "s:storj.io/drpc", "s:Message", 
-    "s:) ([]byte, error) {", "call:d.P", "s:return ", "call:d.Ident", "s:JSONMarshal", "s:(msg)", 
-    "call:d.P", "s:}", "call:d.P", "call:d.P", "s:func (", "call:d.EncodingName", "s:) JSONUnmarshal(buf []byte, msg ", 
-    "call:d.Ident", "s:storj.io/drpc", "s:Message", "s:) error {", "call:d.P", "s:return ", "call:d.Ident", 
-    "s:JSONUnmarshal", "s:(buf, msg)", "call:d.P", "s:}", "call:d.P"]
+  ["call:d.P", "id:d", "id:P", "s:type ", "call:d.EncodingName", "id:d", "id:EncodingName", "s: struct{}", 
+    "call:d.P", "id:d", "id:P", "switch", "id:conf", "id:protolib", "case", "s:google.golang.org/protobuf", 
+    "call:d.P", "id:d", "id:P", "s:func (", "call:d.EncodingName", "id:d", "id:EncodingName", "s:) Marshal(msg ", 
+    "call:d.Ident", "id:d", "id:Ident", "s:storj.io/drpc", "s:Message", "s:) ([]byte, error) {", 
+    "call:d.P", "id:d", "id:P", "s:return ", "call:d.Ident", "id:d", "id:Ident", "s:google.golang.org/protobuf/proto", 
+    "s:Marshal", "s:(msg.(", "call:d.Ident", "id:d", "id:Ident", "s:google.golang.org/protobuf/proto", 
+    "s:Message", "s:))", "call:d.P", "id:d", "id:P", "s:}", "call:d.P", "id:d", "id:P", "call:d.P", 
+    "id:d", "id:P", "s:func (", "call:d.EncodingName", "id:d", "id:EncodingName", "s:) MarshalAppend(buf []byte, msg ", 
+    "call:d.Ident", "id:d", "id:Ident", "s:storj.io/drpc", "s:Message", "s:) ([]byte, error) {", 
+    "call:d.P", "id:d", "id:P", "s:return ", "call:d.Ident", "id:d", "id:Ident", "s:google.golang.org/protobuf/proto", 
+    "s:MarshalOptions", "s:{}.MarshalAppend(buf, msg.(", "call:d.Ident", "id:d", "id:Ident", "s:google.golang.org/protobuf/proto", 
+    "s:Message", "s:))", "call:d.P", "id:d", "id:P", "s:}", "call:d.P", "id:d", "id:P", "call:d.P", 
+    "id:d", "id:P", "s:func (", "call:d.EncodingName", "id:d", "id:EncodingName", "s:) Unmarshal(buf []byte, msg ", 
+    "call:d.Ident", "id:d", "id:Ident", "s:storj.io/drpc", "s:Message", "s:) error {", "call:d.P", 
+    "id:d", "id:P", "s:return ", "call:d.Ident", "id:d", "id:Ident", "s:google.golang.org/protobuf/proto", 
+    "s:Unmarshal", "s:(buf, msg.(", "call:d.Ident", "id:d", "id:Ident", "s:google.golang.org/protobuf/proto", 
+    "s:Message", "s:))", "call:d.P", "id:d", "id:P", "s:}", "call:d.P", "id:d", "id:P", "if", "id:conf", 
+    "id:json", "call:d.P", "id:d", "id:P", "s:func (", "call:d.EncodingName", "id:d", "id:EncodingName", 
+    "s:) JSONMarshal(msg ", "call:d.Ident", "id:d", "id:Ident", "s:storj.io/drpc", "s:Message", 
+    "s:) ([]byte, error) {", "call:d.P", "id:d", "id:P", "s:return ", "call:d.Ident", "id:d", "id:Ident", 
+    "s:google.golang.org/protobuf/encoding/protojson", "s:Marshal", "s:(msg.(", "call:d.Ident", 
+    "id:d", "id:Ident", "s:google.golang.org/protobuf/proto", "s:Message", "s:))", "call:d.P", 
+    "id:d", "id:P", "s:}", "call:d.P", "id:d", "id:P", "call:d.P", "id:d", "id:P", "s:func (", 
+    "call:d.EncodingName", "id:d", "id:EncodingName", "s:) JSONUnmarshal(buf []byte, msg ", "call:d.Ident", 
+    "id:d", "id:Ident", "s:storj.io/drpc", "s:Message", "s:) error {", "call:d.P", "id:d", "id:P", 
+    "s:return ", "call:d.Ident", "id:d", "id:Ident", "s:google.golang.org/protobuf/encoding/protojson", 
+    "s:Unmarshal", "s:(buf, msg.(", "call:d.Ident", "id:d", "id:Ident", "s:google.golang.org/protobuf/proto", 
+    "s:Message", "s:))", "call:d.P", "id:d", "id:P", "s:}", "call:d.P", "id:d", "id:P", "case", 
+    "s:github.com/gogo/protobuf", "call:d.P", "id:d", "id:P", "s:func (", "call:d.EncodingName", 
+    "id:d", "id:EncodingName", "s:) Marshal(msg ", "call:d.Ident", "id:d", "id:Ident", "s:storj.io/drpc", 
+    "s:Message", "s:) ([]byte, error) {", "call:d.P", "id:d", "id:P", "s:return ", "call:d.Ident", 
+    "id:d", "id:Ident", "s:github.com/gogo/protobuf/proto", "s:Marshal", "s:(msg.(", "call:d.Ident", 
+    "id:d", "id:Ident", "s:github.com/gogo/protobuf/proto", "s:Message", "s:))", "call:d.P", "id:d", 
+    "id:P", "s:}", "call:d.P", "id:d", "id:P", "call:d.P", "id:d", "id:P", "s:func (", "call:d.EncodingName", 
+    "id:d", "id:EncodingName", "s:) MarshalAppend(buf []byte, msg ", "call:d.Ident", "id:d", "id:Ident", 
+    "s:storj.io/drpc", "s:Message", "s:) ([]byte, error) {", "call:d.P", "id:d", "id:P", "s:pbuf := ", 
+    "call:d.Ident", "id:d", "id:Ident", "s:github.com/gogo/protobuf/proto", "s:NewBuffer", "s:(buf)", 
+    "call:d.P", "id:d", "id:P", "s:if err := pbuf.Marshal(msg.(", "call:d.Ident", "id:d", "id:Ident", 
+    "s:github.com/gogo/protobuf/proto", "s:Message", "s:)); err != nil {", "call:d.P", "id:d", 
+    "id:P", "s:return nil, err", "call:d.P", "id:d", "id:P", "s:}", "call:d.P", "id:d", "id:P", 
+    "s:return pbuf.Bytes(), nil", "call:d.P", "id:d", "id:P", "s:}", "call:d.P", "id:d", "id:P", 
+    "call:d.P", "id:d", "id:P", "s:func (", "call:d.EncodingName", "id:d", "id:EncodingName", "s:) Unmarshal(buf []byte, msg ", 
+    "call:d.Ident", "id:d", "id:Ident", "s:storj.io/drpc", "s:Message", "s:) error {", "call:d.P", 
+    "id:d", "id:P", "s:return ", "call:d.Ident", "id:d", "id:Ident", "s:github.com/gogo/protobuf/proto", 
+    "s:Unmarshal", "s:(buf, msg.(", "call:d.Ident", "id:d", "id:Ident", "s:github.com/gogo/protobuf/proto", 
+    "s:Message", "s:))", "call:d.P", "id:d", "id:P", "s:}", "call:d.P", "id:d", "id:P", "if", "id:conf", 
+    "id:json", "call:d.P", "id:d", "id:P", "s:func (", "call:d.EncodingName", "id:d", "id:EncodingName", 
+    "s:) JSONMarshal(msg ", "call:d.Ident", "id:d", "id:Ident", "s:storj.io/drpc", "s:Message", 
+    "s:) ([]byte, error) {", "call:d.P", "id:d", "id:P", "s:var buf ", "call:d.Ident", "id:d", 
+    "id:Ident", "s:bytes", "s:Buffer", "call:d.P", "id:d", "id:P", "s:err := new(", "call:d.Ident", 
+    "id:d", "id:Ident", "s:github.com/gogo/protobuf/jsonpb", "s:Marshaler", "s:).Marshal(&buf, msg.(", 
+    "call:d.Ident", "id:d", "id:Ident", "s:github.com/gogo/protobuf/proto", "s:Message", "s:))", 
+    "call:d.P", "id:d", "id:P", "s:if err != nil {", "call:d.P", "id:d", "id:P", "s:return nil, err", 
+    "call:d.P", "id:d", "id:P", "s:}", "call:d.P", "id:d", "id:P", "s:return buf.Bytes(), nil", 
+    "call:d.P", "id:d", "id:P", "s:}", "call:d.P", "id:d", "id:P", "call:d.P", "id:d", "id:P", 
+    "s:func (", "call:d.EncodingName", "id:d", "id:EncodingName", "s:) JSONUnmarshal(buf []byte, msg ", 
+    "call:d.Ident", "id:d", "id:Ident", "s:storj.io/drpc", "s:Message", "s:) error {", "call:d.P", 
+    "id:d", "id:P", "s:return ", "call:d.Ident", "id:d", "id:Ident", "s:github.com/gogo/protobuf/jsonpb", 
+    "s:Unmarshal", "s:(", "call:d.Ident", "id:d", "id:Ident", "s:bytes", "s:NewReader", "s:(buf), msg.(", 
+    "call:d.Ident", "id:d", "id:Ident", "s:github.com/gogo/protobuf/proto", "s:Message", "s:))", 
+    "call:d.P", "id:d", "id:P", "s:}", "call:d.P", "id:d", "id:P", "default", "call:d.P", "id:d", 
+    "id:P", "s:func (", "call:d.EncodingName", "id:d", "id:EncodingName", "s:) Marshal(msg ", "call:d.Ident", 
+    "id:d", "id:Ident", "s:storj.io/drpc", "s:Message", "s:) ([]byte, error) {", "call:d.P", "id:d", 
+    "id:P", "s:return ", "call:d.Ident", "id:d", "id:Ident", "id:conf", "id:protolib", "s:Marshal", 
+    "s:(msg)", "call:d.P", "id:d", "id:P", "s:}", "call:d.P", "id:d", "id:P", "call:d.P", "id:d", 
+    "id:P", "s:func (", "call:d.EncodingName", "id:d", "id:EncodingName", "s:) Unmarshal(buf []byte, msg ", 
+    "call:d.Ident", "id:d", "id:Ident", "s:storj.io/drpc", "s:Message", "s:) error {", "call:d.P", 
+    "id:d", "id:P", "s:return ", "call:d.Ident", "id:d", "id:Ident", "id:conf", "id:protolib", 
+    "s:Unmarshal", "s:(buf, msg)", "call:d.P", "id:d", "id:P", "s:}", "call:d.P", "id:d", "id:P", 
+    "if", "id:conf", "id:json", "call:d.P", "id:d", "id:P", "s:func (", "call:d.EncodingName", 
+    "id:d", "id:EncodingName", "s:) JSONMarshal(msg ", "call:d.Ident", "id:d", "id:Ident", "s:storj.io/drpc", 
+    "s:Message", "s:) ([]byte, error) {", "call:d.P", "id:d", "id:P", "s:return ", "call:d.Ident", 
+    "id:d", "id:Ident", "id:conf", "id:protolib", "s:JSONMarshal", "s:(msg)", "call:d.P", "id:d", 
+    "id:P", "s:}", "call:d.P", "id:d", "id:P", "call:d.P", "id:d", "id:P", "s:func (", "call:d.EncodingName", 
+    "id:d", "id:EncodingName", "s:) JSONUnmarshal(buf []byte, msg ", "call:d.Ident", "id:d", "id:Ident", 
+    "s:storj.io/drpc", "s:Message", "s:) error {", "call:d.P", "id:d", "id:P", "s:return ", "call:d.Ident", 
+    "id:d", "id:Ident", "id:conf", "id:protolib", "s:JSONUnmarshal", "s:(buf, msg)", "call:d.P", 
+    "id:d", "id:P", "s:}", "call:d.P", "id:d", "id:P"]
 def fp_cmd_protoc_gen_go_drpc_main_drpc_generateService : List String :=
-  ["call:d.P", "s:type ", "call:d.ClientIface", "s: interface {", "call:d.P", "s:DRPCConn() ", 
-    "call:d.Ident", "s:storj.io/drpc", "s:Conn", "call:d.P", "for", "call:d.P", "call:d.generateClientSignature", 
-    "call:d.P", "s:}", "call:d.P", "call:d.P", "s:type ", "call:d.ClientImpl", "s: struct {", "call:d.P", 
-    "s:cc ", "call:d.Ident", "s:storj.io/drpc", "s:Conn", "call:d.P", "s:}", "call:d.P", "call:d.P", 
-    "s:func New", "call:d.ClientIface", "s:(cc ", "call:d.Ident", "s:storj.io/drpc", "s:Conn", 
-    "s:) ", "call:d.ClientIface", "s: {", "call:d.P", "s:return &", "call:d.ClientImpl", "s:{cc}", 
-    "call:d.P", "s:}", "call:d.P", "call:d.P", "s:func (c *", "call:d.ClientImpl", "s:) DRPCConn() ", 
-    "call:d.Ident", "s:storj.io/drpc", "s:Conn", "s:{ return c.cc }", "call:d.P", "for", "call:d.generateClientMethod", 
-    "call:d.P", "s:type ", "call:d.ServerIface", "s: interface {", "for", "call:d.P", "call:d.generateServerSignature", 
-    "call:d.P", "s:}", "call:d.P", "call:d.P", "s:type ", "call:d.ServerUnimpl", "s: struct {}", 
-    "call:d.P", "for", "call:d.generateUnimplementedServerMethod", "call:d.P", "call:d.P", "s:type ", 
-    "call:d.ServerDesc", "s: struct{}", "call:d.P", "call:d.P", "s:func (", "call:d.ServerDesc", 
-    "s:) NumMethods() int { return ", "call:len", "s: }", "call:d.P", "call:d.P", "s:func (", "call:d.ServerDesc", 
-    "s:) Method(n int) (string, ", "call:d.Ident", "s:storj.io/drpc", "s:Encoding", "s:, ", "call:d.Ident", 
-    "s:storj.io/drpc", "s:Receiver", "s:, interface{}, bool) {", "call:d.P", "s:switch n {", "for", 
-    "call:d.P", "s:case ", "s::", "call:d.P", "s:return ", "call:d.RPCGoString", "s:, ", "call:d.EncodingName", 
-    "s:{}, ", "call:d.generateServerReceiver", "call:d.P", "s:}, ", "call:d.ServerIface", "s:.", 
-    "s:, true", "call:d.P", "s:default:", "call:d.P", "s:return \"\", nil, nil, nil, false", "call:d.P", 
-    "s:}", "call:d.P", "s:}", "call:d.P", "call:d.P", "s:func DRPCRegister", "s:(mux ", "call:d.Ident", 
-    "s:storj.io/drpc", "s:Mux", "s:, impl ", "call:d.ServerIface", "s:) error {", "call:d.P", "s:return mux.Register(impl, ", 
-    "call:d.ServerDesc", "s:{})", "call:d.P", "s:}", "for", "call:d.generateServerMethod"]
+  ["call:d.P", "id:d", "id:P", "s:type ", "call:d.ClientIface", "id:d", "id:ClientIface", "id:service", 
+    "s: interface {", "call:d.P", "id:d", "id:P", "s:DRPCConn() ", "call:d.Ident", "id:d", "id:Ident", 
+    "s:storj.io/drpc", "s:Conn", "call:d.P", "id:d", "id:P", "for", "id:_", "id:method", "id:service", 
+    "id:Methods", "call:d.P", "id:d", "id:P", "call:d.generateClientSignature", "id:d", "id:generateClientSignature", 
+    "id:method", "call:d.P", "id:d", "id:P", "s:}", "call:d.P", "id:d", "id:P", "call:d.P", "id:d", 
+    "id:P", "s:type ", "call:d.ClientImpl", "id:d", "id:ClientImpl", "id:service", "s: struct {", 
+    "call:d.P", "id:d", "id:P", "s:cc ", "call:d.Ident", "id:d", "id:Ident", "s:storj.io/drpc", 
+    "s:Conn", "call:d.P", "id:d", "id:P", "s:}", "call:d.P", "id:d", "id:P", "call:d.P", "id:d", 
+    "id:P", "s:func New", "call:d.ClientIface", "id:d", "id:ClientIface", "id:service", "s:(cc ", 
+    "call:d.Ident", "id:d", "id:Ident", "s:storj.io/drpc", "s:Conn", "s:) ", "call:d.ClientIface", 
+    "id:d", "id:ClientIface", "id:service", "s: {", "call:d.P", "id:d", "id:P", "s:return &", "call:d.ClientImpl", 
+    "id:d", "id:ClientImpl", "id:service", "s:{cc}", "call:d.P", "id:d", "id:P", "s:}", "call:d.P", 
+    "id:d", "id:P", "call:d.P", "id:d", "id:P", "s:func (c *", "call:d.ClientImpl", "id:d", "id:ClientImpl", 
+    "id:service", "s:) DRPCConn() ", "call:d.Ident", "id:d", "id:Ident", "s:storj.io/drpc", "s:Conn", 
+    "s:{ return c.cc }", "call:d.P", "id:d", "id:P", "for", "id:_", "id:method", "id:service", 
+    "id:Methods", "call:d.generateClientMethod", "id:d", "id:generateClientMethod", "id:method", 
+    "call:d.P", "id:d", "id:P", "s:type ", "call:d.ServerIface", "id:d", "id:ServerIface", "id:service", 
+    "s: interface {", "for", "id:_", "id:method", "id:service", "id:Methods", "call:d.P", "id:d", 
+    "id:P", "call:d.generateServerSignature", "id:d", "id:generateServerSignature", "id:method", 
+    "call:d.P", "id:d", "id:P", "s:}", "call:d.P", "id:d", "id:P", "call:d.P", "id:d", "id:P", 
+    "s:type ", "call:d.ServerUnimpl", "id:d", "id:ServerUnimpl", "id:service", "s: struct {}", 
+    "call:d.P", "id:d", "id:P", "for", "id:_", "id:method", "id:service", "id:Methods", "call:d.generateUnimplementedServerMethod", 
+    "id:d", "id:generateUnimplementedServerMethod", "id:method", "call:d.P", "id:d", "id:P", "call:d.P", 
+    "id:d", "id:P", "s:type ", "call:d.ServerDesc", "id:d", "id:ServerDesc", "id:service", "s: struct{}", 
+    "call:d.P", "id:d", "id:P", "call:d.P", "id:d", "id:P", "s:func (", "call:d.ServerDesc", "id:d", 
+    "id:ServerDesc", "id:service", "s:) NumMethods() int { return ", "call:len", "id:len", "id:service", 
+    "id:Methods", "s: }", "call:d.P", "id:d", "id:P", "call:d.P", "id:d", "id:P", "s:func (", "call:d.ServerDesc", 
+    "id:d", "id:ServerDesc", "id:service", "s:) Method(n int) (string, ", "call:d.Ident", "id:d", 
+    "id:Ident", "s:storj.io/drpc", "s:Encoding", "s:, ", "call:d.Ident", "id:d", "id:Ident", "s:storj.io/drpc", 
+    "s:Receiver", "s:, interface{}, bool) {", "call:d.P", "id:d", "id:P", "s:switch n {", "for", 
+    "id:i", "id:method", "id:service", "id:Methods", "call:d.P", "id:d", "id:P", "s:case ", "id:i", 
+    "s::", "call:d.P", "id:d", "id:P", "s:return ", "call:d.RPCGoString", "id:d", "id:RPCGoString", 
+    "id:method", "s:, ", "call:d.EncodingName", "id:d", "id:EncodingName", "s:{}, ", "call:d.generateServerReceiver", 
+    "id:d", "id:generateServerReceiver", "id:method", "call:d.P", "id:d", "id:P", "s:}, ", "call:d.ServerIface", 
+    "id:d", "id:ServerIface", "id:service", "s:.", "id:method", "id:GoName", "s:, true", "call:d.P", 
+    "id:d", "id:P", "s:default:", "call:d.P", "id:d", "id:P", "s:return \"\", nil, nil, nil, false", 
+    "call:d.P", "id:d", "id:P", "s:}", "call:d.P", "id:d", "id:P", "s:}", "call:d.P", "id:d", "id:P", 
+    "call:d.P", "id:d", "id:P", "s:func DRPCRegister", "id:service", "id:GoName", "s:(mux ", "call:d.Ident", 
+    "id:d", "id:Ident", "s:storj.io/drpc", "s:Mux", "s:, impl ", "call:d.ServerIface", "id:d", 
+    "id:ServerIface", "id:service", "s:) error {", "call:d.P", "id:d", "id:P", "s:return mux.Register(impl, ", 
+    "call:d.ServerDesc", "id:d", "id:ServerDesc", "id:service", "s:{})", "call:d.P", "id:d", "id:P", 
+    "s:}", "for", "id:_", "id:method", "id:service", "id:Methods", "call:d.generateServerMethod", 
+    "id:d", "id:generateServerMethod", "id:method"]
 def fp_cmd_protoc_gen_go_drpc_main_drpc_generateClientSignature : List String :=
-  ["=reqArg", "+", "s:, in *", "call:d.InputType", "if", "call:method.Desc.IsStreamingClient", 
-    "=reqArg", "s:", "=respName", "+", "s:*", "call:d.OutputType", "if", "||", "call:method.Desc.IsStreamingServer", 
-    "call:method.Desc.IsStreamingClient", "=respName", "call:d.ClientStreamIface", "return", "call:fmt.Sprintf", 
-    "s:%s(ctx %s%s) (%s, error)", "call:d.Ident", "s:context", "s:Context"]
+  ["=reqArg", "id:reqArg", "+", "s:, in *", "call:d.InputType", "id:d", "id:InputType", "id:method", 
+    "if", "call:method.Desc.IsStreamingClient", "id:method", "id:Desc", "id:IsStreamingClient", 
+    "=reqArg", "id:reqArg", "s:", "=respName", "id:respName", "+", "s:*", "call:d.OutputType", 
+    "id:d", "id:OutputType", "id:method", "if", "||", "call:method.Desc.IsStreamingServer", "id:method", 
+    "id:Desc", "id:IsStreamingServer", "call:method.Desc.IsStreamingClient", "id:method", "id:Desc", 
+    "id:IsStreamingClient", "=respName", "id:respName", "call:d.ClientStreamIface", "id:d", "id:ClientStreamIface", 
+    "id:method", "return", "call:fmt.Sprintf", "id:fmt", "id:Sprintf", "s:%s(ctx %s%s) (%s, error)", 
+    "id:method", "id:GoName", "call:d.Ident", "id:d", "id:Ident", "s:context", "s:Context", "id:reqArg", 
+    "id:respName"]
 def fp_cmd_protoc_gen_go_drpc_main_drpc_generateClientMethod : List String :=
-  ["=recvType", "call:d.ClientImpl", "=outType", "call:d.OutputType", "=inType", "call:d.InputType", 
-    "call:d.P", "s:func (c *", "s:) ", "call:d.generateClientSignature", "s:{", "if", "&&", "u!", 
-    "call:method.Desc.IsStreamingServer", "u!", "call:method.Desc.IsStreamingClient", "call:d.P", 
-    "s:out := new(", "s:)", "call:d.P", "s:err := c.cc.Invoke(ctx, ", "call:d.RPCGoString", "s:, ", 
-    "call:d.EncodingName", "s:{}, in, out)", "call:d.P", "s:if err != nil { return nil, err }", 
-    "call:d.P", "s:return out, nil", "call:d.P", "s:}", "call:d.P", "return", "call:d.P", "s:stream, err := c.cc.NewStream(ctx, ", 
-    "call:d.RPCGoString", "s:, ", "call:d.EncodingName", "s:{})", "call:d.P", "s:if err != nil { return nil, err }", 
-    "call:d.P", "s:x := &", "call:d.ClientStreamImpl", "s:{stream}", "if", "u!", "call:method.Desc.IsStreamingClient", 
-    "call:d.P", "s:if err := x.MsgSend(in, ", "call:d.EncodingName", "s:{}); err != nil { return nil, err }", 
-    "call:d.P", "s:if err := x.CloseSend(); err != nil { return nil, err }", "call:d.P", "s:return x, nil", 
-    "call:d.P", "s:}", "call:d.P", "=genSend", "call:method.Desc.IsStreamingClient", "=genRecv", 
-    "call:method.Desc.IsStreamingServer", "=genCloseAndRecv", "u!", "call:method.Desc.IsStreamingServer", 
-    "call:d.P", "s:type ", "call:d.ClientStreamIface", "s: interface {", "call:d.P", "call:d.Ident", 
-    "s:storj.io/drpc", "s:Stream", "if", "call:d.P", "s:Send(*", "s:) error", "if", "call:d.P", 
-    "s:Recv() (*", "s:, error)", "if", "call:d.P", "s:CloseAndRecv() (*", "s:, error)", "call:d.P", 
-    "s:}", "call:d.P", "call:d.P", "s:type ", "call:d.ClientStreamImpl", "s: struct {", "call:d.P", 
-    "call:d.Ident", "s:storj.io/drpc", "s:Stream", "call:d.P", "s:}", "call:d.P", "call:d.P", "s:func (x *", 
-    "call:d.ClientStreamImpl", "s:) GetStream() ", "call:d.Ident", "s:storj.io/drpc", "s:Stream", 
-    "s: {", "call:d.P", "s:return x.Stream", "call:d.P", "s:}", "call:d.P", "if", "call:d.P", "s:func (x *", 
-    "call:d.ClientStreamImpl", "s:) Send(m *", "s:) error {", "call:d.P", "s:return x.MsgSend(m, ", 
-    "call:d.EncodingName", "s:{})", "call:d.P", "s:}", "call:d.P", "if", "call:d.P", "s:func (x *", 
-    "call:d.ClientStreamImpl", "s:) Recv() (*", "s:, error) {", "call:d.P", "s:m := new(", "s:)", 
-    "call:d.P", "s:if err := x.MsgRecv(m, ", "call:d.EncodingName", "s:{}); err != nil { return nil, err }", 
-    "call:d.P", "s:return m, nil", "call:d.P", "s:}", "call:d.P", "call:d.P", "s:func (x *", "call:d.ClientStreamImpl", 
-    "s:) RecvMsg(m *", "s:) error {", "call:d.P", "s:return x.MsgRecv(m, ", "call:d.EncodingName", 
-    "s:{})", "call:d.P", "s:}", "call:d.P", "if", "call:d.P", "s:func (x *", "call:d.ClientStreamImpl", 
-    "s:) CloseAndRecv() (*", "s:, error) {", "call:d.P", "s:if err := x.CloseSend(); err != nil { return nil, err }", 
-    "call:d.P", "s:m := new(", "s:)", "call:d.P", "s:if err := x.MsgRecv(m, ", "call:d.EncodingName", 
-    "s:{}); err != nil { return nil, err }", "call:d.P", "s:return m, nil", "call:d.P", "s:}", 
-    "call:d.P", "call:d.P", "s:func (x *", "call:d.ClientStreamImpl", "s:) CloseAndRecvMsg(m *", 
-    "s:) error {", "call:d.P", "s:if err := x.CloseSend(); err != nil { return err }", "call:d.P", 
-    "s:return x.MsgRecv(m, ", "call:d.EncodingName", "s:{})", "call:d.P", "s:}", "call:d.P"]
+  ["=recvType", "id:recvType", "call:d.ClientImpl", "id:d", "id:ClientImpl", "id:method", "id:Parent", 
+    "=outType", "id:outType", "call:d.OutputType", "id:d", "id:OutputType", "id:method", "=inType", 
+    "id:inType", "call:d.InputType", "id:d", "id:InputType", "id:method", "call:d.P", "id:d", "id:P", 
+    "s:func (c *", "id:recvType", "s:) ", "call:d.generateClientSignature", "id:d", "id:generateClientSignature", 
+    "id:method", "s:{", "if", "&&", "u!", "call:method.Desc.IsStreamingServer", "id:method", "id:Desc", 
+    "id:IsStreamingServer", "u!", "call:method.Desc.IsStreamingClient", "id:method", "id:Desc", 
+    "id:IsStreamingClient", "call:d.P", "id:d", "id:P", "s:out := new(", "id:outType", "s:)", "call:d.P", 
+    "id:d", "id:P", "s:err := c.cc.Invoke(ctx, ", "call:d.RPCGoString", "id:d", "id:RPCGoString", 
+    "id:method", "s:, ", "call:d.EncodingName", "id:d", "id:EncodingName", "s:{}, in, out)", "call:d.P", 
+    "id:d", "id:P", "s:if err != nil { return nil, err }", "call:d.P", "id:d", "id:P", "s:return out, nil", 
+    "call:d.P", "id:d", "id:P", "s:}", "call:d.P", "id:d", "id:P", "return", "call:d.P", "id:d", 
+    "id:P", "s:stream, err := c.cc.NewStream(ctx, ", "call:d.RPCGoString", "id:d", "id:RPCGoString", 
+    "id:method", "s:, ", "call:d.EncodingName", "id:d", "id:EncodingName", "s:{})", "call:d.P", 
+    "id:d", "id:P", "s:if err != nil { return nil, err }", "call:d.P", "id:d", "id:P", "s:x := &", 
+    "call:d.ClientStreamImpl", "id:d", "id:ClientStreamImpl", "id:method", "s:{stream}", "if", 
+    "u!", "call:method.Desc.IsStreamingClient", "id:method", "id:Desc", "id:IsStreamingClient", 
+    "call:d.P", "id:d", "id:P", "s:if err := x.MsgSend(in, ", "call:d.EncodingName", "id:d", "id:EncodingName", 
+    "s:{}); err != nil { return nil, err }", "call:d.P", "id:d", "id:P", "s:if err := x.CloseSend(); err != nil { return nil, err }", 
+    "call:d.P", "id:d", "id:P", "s:return x, nil", "call:d.P", "id:d", "id:P", "s:}", "call:d.P", 
+    "id:d", "id:P", "=genSend", "id:genSend", "call:method.Desc.IsStreamingClient", "id:method", 
+    "id:Desc", "id:IsStreamingClient", "=genRecv", "id:genRecv", "call:method.Desc.IsStreamingServer", 
+    "id:method", "id:Desc", "id:IsStreamingServer", "=genCloseAndRecv", "id:genCloseAndRecv", "u!", 
+    "call:method.Desc.IsStreamingServer", "id:method", "id:Desc", "id:IsStreamingServer", "call:d.P", 
+    "id:d", "id:P", "s:type ", "call:d.ClientStreamIface", "id:d", "id:ClientStreamIface", "id:method", 
+    "s: interface {", "call:d.P", "id:d", "id:P", "call:d.Ident", "id:d", "id:Ident", "s:storj.io/drpc", 
+    "s:Stream", "if", "id:genSend", "call:d.P", "id:d", "id:P", "s:Send(*", "id:inType", "s:) error", 
+    "if", "id:genRecv", "call:d.P", "id:d", "id:P", "s:Recv() (*", "id:outType", "s:, error)", 
+    "if", "id:genCloseAndRecv", "call:d.P", "id:d", "id:P", "s:CloseAndRecv() (*", "id:outType", 
+    "s:, error)", "call:d.P", "id:d", "id:P", "s:}", "call:d.P", "id:d", "id:P", "call:d.P", "id:d", 
+    "id:P", "s:type ", "call:d.ClientStreamImpl", "id:d", "id:ClientStreamImpl", "id:method", "s: struct {", 
+    "call:d.P", "id:d", "id:P", "call:d.Ident", "id:d", "id:Ident", "s:storj.io/drpc", "s:Stream", 
+    "call:d.P", "id:d", "id:P", "s:}", "call:d.P", "id:d", "id:P", "call:d.P", "id:d", "id:P", 
+    "s:func (x *", "call:d.ClientStreamImpl", "id:d", "id:ClientStreamImpl", "id:method", "s:) GetStream() ", 
+    "call:d.Ident", "id:d", "id:Ident", "s:storj.io/drpc", "s:Stream", "s: {", "call:d.P", "id:d", 
+    "id:P", "s:return x.Stream", "call:d.P", "id:d", "id:P", "s:}", "call:d.P", "id:d", "id:P", 
+    "if", "id:genSend", "call:d.P", "id:d", "id:P", "s:func (x *", "call:d.ClientStreamImpl", "id:d", 
+    "id:ClientStreamImpl", "id:method", "s:) Send(m *", "id:inType", "s:) error {", "call:d.P", 
+    "id:d", "id:P", "s:return x.MsgSend(m, ", "call:d.EncodingName", "id:d", "id:EncodingName", 
+    "s:{})", "call:d.P", "id:d", "id:P", "s:}", "call:d.P", "id:d", "id:P", "if", "id:genRecv", 
+    "call:d.P", "id:d", "id:P", "s:func (x *", "call:d.ClientStreamImpl", "id:d", "id:ClientStreamImpl", 
+    "id:method", "s:) Recv() (*", "id:outType", "s:, error) {", "call:d.P", "id:d", "id:P", "s:m := new(", 
+    "id:outType", "s:)", "call:d.P", "id:d", "id:P", "s:if err := x.MsgRecv(m, ", "call:d.EncodingName", 
+    "id:d", "id:EncodingName", "s:{}); err != nil { return nil, err }", "call:d.P", "id:d", "id:P", 
+    "s:return m, nil", "call:d.P", "id:d", "id:P", "s:}", "call:d.P", "id:d", "id:P", "call:d.P", 
+    "id:d", "id:P", "s:func (x *", "call:d.ClientStreamImpl", "id:d", "id:ClientStreamImpl", "id:method", 
+    "s:) RecvMsg(m *", "id:outType", "s:) error {", "call:d.P", "id:d", "id:P", "s:return x.MsgRecv(m, ", 
+    "call:d.EncodingName", "id:d", "id:EncodingName", "s:{})", "call:d.P", "id:d", "id:P", "s:}", 
+    "call:d.P", "id:d", "id:P", "if", "id:genCloseAndRecv", "call:d.P", "id:d", "id:P", "s:func (x *", 
+    "call:d.ClientStreamImpl", "id:d", "id:ClientStreamImpl", "id:method", "s:) CloseAndRecv() (*", 
+    "id:outType", "s:, error) {", "call:d.P", "id:d", "id:P", "s:if err := x.CloseSend(); err != nil { return nil, err }", 
+    "call:d.P", "id:d", "id:P", "s:m := new(", "id:outType", "s:)", "call:d.P", "id:d", "id:P", 
+    "s:if err := x.MsgRecv(m, ", "call:d.EncodingName", "id:d", "id:EncodingName", "s:{}); err != nil { return nil, err }", 
+    "call:d.P", "id:d", "id:P", "s:return m, nil", "call:d.P", "id:d", "id:P", "s:}", "call:d.P", 
+    "id:d", "id:P", "call:d.P", "id:d", "id:P", "s:func (x *", "call:d.ClientStreamImpl", "id:d", 
+    "id:ClientStreamImpl", "id:method", "s:) CloseAndRecvMsg(m *", "id:outType", "s:) error {", 
+    "call:d.P", "id:d", "id:P", "s:if err := x.CloseSend(); err != nil { return err }", "call:d.P", 
+    "id:d", "id:P", "s:return x.MsgRecv(m, ", "call:d.EncodingName", "id:d", "id:EncodingName", 
+    "s:{})", "call:d.P", "id:d", "id:P", "s:}", "call:d.P", "id:d", "id:P"]
 def fp_cmd_protoc_gen_go_drpc_main_drpc_generateServerSignature : List String :=
-  ["=ret", "s:error", "if", "&&", "u!", "call:method.Desc.IsStreamingServer", "u!", "call:method.Desc.IsStreamingClient", 
-    "=reqArgs", "call:append", "call:d.Ident", "s:context", "s:Context", "=ret", "+", "+", "s:(*", 
-    "call:d.OutputType", "s:, error)", "if", "u!", "call:method.Desc.IsStreamingClient", "=reqArgs", 
-    "call:append", "+", "s:*", "call:d.InputType", "if", "||", "call:method.Desc.IsStreamingServer", 
-    "call:method.Desc.IsStreamingClient", "=reqArgs", "call:append", "call:d.ServerStreamIface", 
-    "return", "+", "+", "+", "+", "s:(", "call:strings.Join", "s:, ", "s:) "]
+  ["id:reqArgs", "id:string", "=ret", "id:ret", "s:error", "if", "&&", "u!", "call:method.Desc.IsStreamingServer", 
+    "id:method", "id:Desc", "id:IsStreamingServer", "u!", "call:method.Desc.IsStreamingClient", 
+    "id:method", "id:Desc", "id:IsStreamingClient", "=reqArgs", "id:reqArgs", "call:append", "id:append", 
+    "id:reqArgs", "call:d.Ident", "id:d", "id:Ident", "s:context", "s:Context", "=ret", "id:ret", 
+    "+", "+", "s:(*", "call:d.OutputType", "id:d", "id:OutputType", "id:method", "s:, error)", 
+    "if", "u!", "call:method.Desc.IsStreamingClient", "id:method", "id:Desc", "id:IsStreamingClient", 
+    "=reqArgs", "id:reqArgs", "call:append", "id:append", "id:reqArgs", "+", "s:*", "call:d.InputType", 
+    "id:d", "id:InputType", "id:method", "if", "||", "call:method.Desc.IsStreamingServer", "id:method", 
+    "id:Desc", "id:IsStreamingServer", "call:method.Desc.IsStreamingClient", "id:method", "id:Desc", 
+    "id:IsStreamingClient", "=reqArgs", "id:reqArgs", "call:append", "id:append", "id:reqArgs", 
+    "call:d.ServerStreamIface", "id:d", "id:ServerStreamIface", "id:method", "return", "+", "+", 
+    "+", "+", "id:method", "id:GoName", "s:(", "call:strings.Join", "id:strings", "id:Join", "id:reqArgs", 
+    "s:, ", "s:) ", "id:ret"]
 def fp_cmd_protoc_gen_go_drpc_main_drpc_generateUnimplementedServerMethod : List String :=
-  ["call:d.P", "s:func (s *", "call:d.ServerUnimpl", "s:) ", "call:d.generateServerSignature", 
-    "s: {", "if", "&&", "u!", "call:method.Desc.IsStreamingServer", "u!", "call:method.Desc.IsStreamingClient", 
-    "call:d.P", "s:return nil, ", "call:d.Ident", "s:storj.io/drpc/drpcerr", "s:WithCode", "s:(", 
-    "call:d.Ident", "s:errors", "s:New", "s:(\"Unimplemented\"), ", "call:d.Ident", "s:storj.io/drpc/drpcerr", 
-    "s:Unimplemented", "s:)", "call:d.P", "s:return ", "call:d.Ident", "s:storj.io/drpc/drpcerr", 
-    "s:WithCode", "s:(", "call:d.Ident", "s:errors", "s:New", "s:(\"Unimplemented\"), ", "call:d.Ident", 
-    "s:storj.io/drpc/drpcerr", "s:Unimplemented", "s:)", "call:d.P", "s:}", "call:d.P"]
+  ["call:d.P", "id:d", "id:P", "s:func (s *", "call:d.ServerUnimpl", "id:d", "id:ServerUnimpl", 
+    "id:method", "id:Parent", "s:) ", "call:d.generateServerSignature", "id:d", "id:generateServerSignature", 
+    "id:method", "s: {", "if", "&&", "u!", "call:method.Desc.IsStreamingServer", "id:method", "id:Desc", 
+    "id:IsStreamingServer", "u!", "call:method.Desc.IsStreamingClient", "id:method", "id:Desc", 
+    "id:IsStreamingClient", "call:d.P", "id:d", "id:P", "s:return nil, ", "call:d.Ident", "id:d", 
+    "id:Ident", "s:storj.io/drpc/drpcerr", "s:WithCode", "s:(", "call:d.Ident", "id:d", "id:Ident", 
+    "s:errors", "s:New", "s:(\"Unimplemented\"), ", "call:d.Ident", "id:d", "id:Ident", "s:storj.io/drpc/drpcerr", 
+    "s:Unimplemented", "s:)", "call:d.P", "id:d", "id:P", "s:return ", "call:d.Ident", "id:d", 
+    "id:Ident", "s:storj.io/drpc/drpcerr", "s:WithCode", "s:(", "call:d.Ident", "id:d", "id:Ident", 
+    "s:errors", "s:New", "s:(\"Unimplemented\"), ", "call:d.Ident", "id:d", "id:Ident", "s:storj.io/drpc/drpcerr", 
+    "s:Unimplemented", "s:)", "call:d.P", "id:d", "id:P", "s:}", "call:d.P", "id:d", "id:P"]
 def fp_cmd_protoc_gen_go_drpc_main_drpc_generateServerReceiver : List String :=
-  ["call:d.P", "s:func (srv interface{}, ctx ", "call:d.Ident", "s:context", "s:Context", "s:, in1, in2 interface{}) (", 
-    "call:d.Ident", "s:storj.io/drpc", "s:Message", "s:, error) {", "if", "&&", "u!", "call:method.Desc.IsStreamingServer", 
-    "u!", "call:method.Desc.IsStreamingClient", "call:d.P", "s:return srv.(", "call:d.ServerIface", 
-    "s:).", "call:d.P", "s:return nil, srv.(", "call:d.ServerIface", "s:).", "call:d.P", "s:(", 
-    "=n", "1", "if", "&&", "u!", "call:method.Desc.IsStreamingServer", "u!", "call:method.Desc.IsStreamingClient", 
-    "call:d.P", "s:ctx,", "if", "u!", "call:method.Desc.IsStreamingClient", "call:d.P", "s:in", 
-    "s:.(*", "call:d.InputType", "s:),", "++", "if", "||", "call:method.Desc.IsStreamingServer", 
-    "call:method.Desc.IsStreamingClient", "call:d.P", "s:&", "call:d.ServerStreamImpl", "s:{in", 
-    "s:.(", "call:d.Ident", "s:storj.io/drpc", "s:Stream", "s:)},", "call:d.P", "s:)"]
+  ["call:d.P", "id:d", "id:P", "s:func (srv interface{}, ctx ", "call:d.Ident", "id:d", "id:Ident", 
+    "s:context", "s:Context", "s:, in1, in2 interface{}) (", "call:d.Ident", "id:d", "id:Ident", 
+    "s:storj.io/drpc", "s:Message", "s:, error) {", "if", "&&", "u!", "call:method.Desc.IsStreamingServer", 
+    "id:method", "id:Desc", "id:IsStreamingServer", "u!", "call:method.Desc.IsStreamingClient", 
+    "id:method", "id:Desc", "id:IsStreamingClient", "call:d.P", "id:d", "id:P", "s:return srv.(", 
+    "call:d.ServerIface", "id:d", "id:ServerIface", "id:method", "id:Parent", "s:).", "call:d.P", 
+    "id:d", "id:P", "s:return nil, srv.(", "call:d.ServerIface", "id:d", "id:ServerIface", "id:method", 
+    "id:Parent", "s:).", "call:d.P", "id:d", "id:P", "id:method", "id:GoName", "s:(", "=n", "id:n", 
+    "1", "if", "&&", "u!", "call:method.Desc.IsStreamingServer", "id:method", "id:Desc", "id:IsStreamingServer", 
+    "u!", "call:method.Desc.IsStreamingClient", "id:method", "id:Desc", "id:IsStreamingClient", 
+    "call:d.P", "id:d", "id:P", "s:ctx,", "if", "u!", "call:method.Desc.IsStreamingClient", "id:method", 
+    "id:Desc", "id:IsStreamingClient", "call:d.P", "id:d", "id:P", "s:in", "id:n", "s:.(*", "call:d.InputType", 
+    "id:d", "id:InputType", "id:method", "s:),", "++", "id:n", "if", "||", "call:method.Desc.IsStreamingServer", 
+    "id:method", "id:Desc", "id:IsStreamingServer", "call:method.Desc.IsStreamingClient", "id:method", 
+    "id:Desc", "id:IsStreamingClient", "call:d.P", "id:d", "id:P", "s:&", "call:d.ServerStreamImpl", 
+    "id:d", "id:ServerStreamImpl", "id:method", "s:{in", "id:n", "s:.(", "call:d.Ident", "id:d", 
+    "id:Ident", "s:storj.io/drpc", "s:Stream", "s:)},", "call:d.P", "id:d", "id:P", "s:)"]
 def fp_cmd_protoc_gen_go_drpc_main_drpc_generateServerMethod : List String :=
-  ["=genSend", "call:method.Desc.IsStreamingServer", "=genSendAndClose", "u!", "call:method.Desc.IsStreamingServer", 
-    "=genRecv", "call:method.Desc.IsStreamingClient", "call:d.P", "s:type ", "call:d.ServerStreamIface", 
-    "s: interface {", "call:d.P", "call:d.Ident", "s:storj.io/drpc", "s:Stream", "if", "call:d.P", 
-    "s:Send(*", "call:d.OutputType", "s:) error", "if", "call:d.P", "s:SendAndClose(*", "call:d.OutputType", 
-    "s:) error", "if", "call:d.P", "s:Recv() (*", "call:d.InputType", "s:, error)", "call:d.P", 
-    "s:}", "call:d.P", "call:d.P", "s:type ", "call:d.ServerStreamImpl", "s: struct {", "call:d.P", 
-    "call:d.Ident", "s:storj.io/drpc", "s:Stream", "call:d.P", "s:}", "call:d.P", "call:d.P", "s:func (x *", 
-    "call:d.ServerStreamImpl", "s:) GetStream() ", "call:d.Ident", "s:storj.io/drpc", "s:Stream", 
-    "s: {", "call:d.P", "s:return x.Stream", "call:d.P", "s:}", "call:d.P", "if", "call:d.P", "s:func (x *", 
-    "call:d.ServerStreamImpl", "s:) Send(m *", "call:d.OutputType", "s:) error {", "call:d.P", 
-    "s:return x.MsgSend(m, ", "call:d.EncodingName", "s:{})", "call:d.P", "s:}", "call:d.P", "if", 
-    "call:d.P", "s:func (x *", "call:d.ServerStreamImpl", "s:) SendAndClose(m *", "call:d.OutputType", 
-    "s:) error {", "call:d.P", "s:if err := x.MsgSend(m, ", "call:d.EncodingName", "s:{}); err != nil { return err }", 
-    "call:d.P", "s:return x.CloseSend()", "call:d.P", "s:}", "call:d.P", "if", "call:d.P", "s:func (x *", 
-    "call:d.ServerStreamImpl", "s:) Recv() (*", "call:d.InputType", "s:, error) {", "call:d.P", 
-    "s:m := new(", "call:d.InputType", "s:)", "call:d.P", "s:if err := x.MsgRecv(m, ", "call:d.EncodingName", 
-    "s:{}); err != nil { return nil, err }", "call:d.P", "s:return m, nil", "call:d.P", "s:}", 
-    "call:d.P", "call:d.P", "s:func (x *", "call:d.ServerStreamImpl", "s:) RecvMsg(m *", "call:d.InputType", 
-    "s:) error {", "call:d.P", "s:return x.MsgRecv(m, ", "call:d.EncodingName", "s:{})", "call:d.P", 
-    "s:}", "call:d.P"]
+  ["=genSend", "id:genSend", "call:method.Desc.IsStreamingServer", "id:method", "id:Desc", "id:IsStreamingServer", 
+    "=genSendAndClose", "id:genSendAndClose", "u!", "call:method.Desc.IsStreamingServer", "id:method", 
+    "id:Desc", "id:IsStreamingServer", "=genRecv", "id:genRecv", "call:method.Desc.IsStreamingClient", 
+    "id:method", "id:Desc", "id:IsStreamingClient", "call:d.P", "id:d", "id:P", "s:type ", "call:d.ServerStreamIface", 
+    "id:d", "id:ServerStreamIface", "id:method", "s: interface {", "call:d.P", "id:d", "id:P", 
+    "call:d.Ident", "id:d", "id:Ident", "s:storj.io/drpc", "s:Stream", "if", "id:genSend", "call:d.P", 
+    "id:d", "id:P", "s:Send(*", "call:d.OutputType", "id:d", "id:OutputType", "id:method", "s:) error", 
+    "if", "id:genSendAndClose", "call:d.P", "id:d", "id:P", "s:SendAndClose(*", "call:d.OutputType", 
+    "id:d", "id:OutputType", "id:method", "s:) error", "if", "id:genRecv", "call:d.P", "id:d", 
+    "id:P", "s:Recv() (*", "call:d.InputType", "id:d", "id:InputType", "id:method", "s:, error)", 
+    "call:d.P", "id:d", "id:P", "s:}", "call:d.P", "id:d", "id:P", "call:d.P", "id:d", "id:P", 
+    "s:type ", "call:d.ServerStreamImpl", "id:d", "id:ServerStreamImpl", "id:method", "s: struct {", 
+    "call:d.P", "id:d", "id:P", "call:d.Ident", "id:d", "id:Ident", "s:storj.io/drpc", "s:Stream", 
+    "call:d.P", "id:d", "id:P", "s:}", "call:d.P", "id:d", "id:P", "call:d.P", "id:d", "id:P", 
+    "s:func (x *", "call:d.ServerStreamImpl", "id:d", "id:ServerStreamImpl", "id:method", "s:) GetStream() ", 
+    "call:d.Ident", "id:d", "id:Ident", "s:storj.io/drpc", "s:Stream", "s: {", "call:d.P", "id:d", 
+    "id:P", "s:return x.Stream", "call:d.P", "id:d", "id:P", "s:}", "call:d.P", "id:d", "id:P", 
+    "if", "id:genSend", "call:d.P", "id:d", "id:P", "s:func (x *", "call:d.ServerStreamImpl", "id:d", 
+    "id:ServerStreamImpl", "id:method", "s:) Send(m *", "call:d.OutputType", "id:d", "id:OutputType", 
+    "id:method", "s:) error {", "call:d.P", "id:d", "id:P", "s:return x.MsgSend(m, ", "call:d.EncodingName", 
+    "id:d", "id:EncodingName", "s:{})", "call:d.P", "id:d", "id:P", "s:}", "call:d.P", "id:d", 
+    "id:P", "if", "id:genSendAndClose", "call:d.P", "id:d", "id:P", "s:func (x *", "call:d.ServerStreamImpl", 
+    "id:d", "id:ServerStreamImpl", "id:method", "s:) SendAndClose(m *", "call:d.OutputType", "id:d", 
+    "id:OutputType", "id:method", "s:) error {", "call:d.P", "id:d", "id:P", "s:if err := x.MsgSend(m, ", 
+    "call:d.EncodingName", "id:d", "id:EncodingName", "s:{}); err != nil { return err }", "call:d.P", 
+    "id:d", "id:P", "s:return x.CloseSend()", "call:d.P", "id:d", "id:P", "s:}", "call:d.P", "id:d", 
+    "id:P", "if", "id:genRecv", "call:d.P", "id:d", "id:P", "s:func (x *", "call:d.ServerStreamImpl", 
+    "id:d", "id:ServerStreamImpl", "id:method", "s:) Recv() (*", "call:d.InputType", "id:d", "id:InputType", 
+    "id:method", "s:, error) {", "call:d.P", "id:d", "id:P", "s:m := new(", "call:d.InputType", 
+    "id:d", "id:InputType", "id:method", "s:)", "call:d.P", "id:d", "id:P", "s:if err := x.MsgRecv(m, ", 
+    "call:d.EncodingName", "id:d", "id:EncodingName", "s:{}); err != nil { return nil, err }", 
+    "call:d.P", "id:d", "id:P", "s:return m, nil", "call:d.P", "id:d", "id:P", "s:}", "call:d.P", 
+    "id:d", "id:P", "call:d.P", "id:d", "id:P", "s:func (x *", "call:d.ServerStreamImpl", "id:d", 
+    "id:ServerStreamImpl", "id:method", "s:) RecvMsg(m *", "call:d.InputType", "id:d", "id:InputType", 
+    "id:method", "s:) error {", "call:d.P", "id:d", "id:P", "s:return x.MsgRecv(m, ", "call:d.EncodingName", 
+    "id:d", "id:EncodingName", "s:{})", "call:d.P", "id:d", "id:P", "s:}", "call:d.P", "id:d", 
+    "id:P"]
 
 def twirpStatus : List (String × Nat) := [("canceled", 408), ("unknown", 500), ("invalid_argument", 400), ("malformed", 400), ("deadline_exceeded", 408), ("not_found", 404), ("bad_route", 404), ("already_exists", 409), ("permission_denied", 403), ("unauthenticated", 401), ("resource_exhausted", 429), ("failed_precondition", 412), ("aborted", 409), ("out_of_range", 400), ("unimplemented", 501), ("internal", 500), ("unavailable", 503), ("dataloss", 500)]
 def defaultProtocols : List (String × String) := [("*", "twirpProtocol ct=application/proto marshal=protoMarshal unmarshal=protoUnmarshal"),
